@@ -1,0 +1,13706 @@
+	.file	"test_tfsat.c"
+	.text
+.Ltext0:
+	.file 0 "/repo/aldor/aldor/src" "test/test_tfsat.c"
+	.section	.rodata
+.LC0:
+	.string	"testTfSatEmbed"
+.LC1:
+	.string	"testTfSatEmbedExcept"
+.LC2:
+	.string	"testTfSatRec"
+.LC3:
+	.string	"testTfSatEnum"
+	.text
+	.globl	tfsatTest
+	.type	tfsatTest, @function
+tfsatTest:
+.LFB0:
+	.file 1 "test/test_tfsat.c"
+	.loc 1 22 1
+	.cfi_startproc
+	pushq	%rbp
+	.cfi_def_cfa_offset 16
+	.cfi_offset 6, -16
+	movq	%rsp, %rbp
+	.cfi_def_cfa_register 6
+	.loc 1 23 2
+	call	init@PLT
+	.loc 1 24 2
+	leaq	testTfSatEmbed(%rip), %rax
+	movq	%rax, %rsi
+	leaq	.LC0(%rip), %rax
+	movq	%rax, %rdi
+	call	showTest@PLT
+	.loc 1 25 2
+	leaq	testTfSatEmbedExcept(%rip), %rax
+	movq	%rax, %rsi
+	leaq	.LC1(%rip), %rax
+	movq	%rax, %rdi
+	call	showTest@PLT
+	.loc 1 26 2
+	leaq	testTfSatRec(%rip), %rax
+	movq	%rax, %rsi
+	leaq	.LC2(%rip), %rax
+	movq	%rax, %rdi
+	call	showTest@PLT
+	.loc 1 27 2
+	leaq	testTfSatEnum(%rip), %rax
+	movq	%rax, %rsi
+	leaq	.LC3(%rip), %rax
+	movq	%rax, %rdi
+	call	showTest@PLT
+	.loc 1 28 2
+	call	fini@PLT
+	.loc 1 29 1
+	nop
+	popq	%rbp
+	.cfi_def_cfa 7, 8
+	ret
+	.cfi_endproc
+.LFE0:
+	.size	tfsatTest, .-tfsatTest
+	.section	.rodata
+.LC4:
+	.string	"import from Boolean"
+.LC5:
+	.string	"E: with == add"
+.LC6:
+	.string	"g: E == never"
+.LC7:
+	.string	"g"
+.LC8:
+	.string	""
+	.text
+	.type	testTfSatEmbed, @function
+testTfSatEmbed:
+.LFB1:
+	.loc 1 33 1
+	.cfi_startproc
+	pushq	%rbp
+	.cfi_def_cfa_offset 16
+	.cfi_offset 6, -16
+	movq	%rsp, %rbp
+	.cfi_def_cfa_register 6
+	pushq	%r12
+	pushq	%rbx
+	subq	$112, %rsp
+	.cfi_offset 12, -24
+	.cfi_offset 3, -32
+	.loc 1 44 9
+	leaq	.LC4(%rip), %rax
+	movq	%rax, -24(%rbp)
+	.loc 1 45 9
+	leaq	.LC5(%rip), %rax
+	movq	%rax, -32(%rbp)
+	.loc 1 46 9
+	leaq	.LC6(%rip), %rax
+	movq	%rax, -40(%rbp)
+	.loc 1 48 40
+	movq	String_listPointer(%rip), %rax
+	movq	16(%rax), %r8
+	movq	-40(%rbp), %rcx
+	movq	-32(%rbp), %rdx
+	movq	-24(%rbp), %rax
+	movq	%rax, %rsi
+	movl	$3, %edi
+	movl	$0, %eax
+	call	*%r8
+.LVL0:
+	movq	%rax, -48(%rbp)
+	.loc 1 49 42
+	movq	AbSyn_listPointer(%rip), %rax
+	movq	(%rax), %rbx
+	movq	-48(%rbp), %rax
+	movq	%rax, %rdi
+	call	abqParseLines@PLT
+	movq	%rax, %r12
+	movl	$0, %eax
+	call	stdtypes@PLT
+	movq	%r12, %rsi
+	movq	%rax, %rdi
+	call	*%rbx
+.LVL1:
+	movq	%rax, -56(%rbp)
+	.loc 1 50 16
+	movq	sposNone(%rip), %rax
+	movq	-56(%rbp), %rdx
+	movq	%rax, %rsi
+	movl	$64, %edi
+	call	abNewOfList@PLT
+	movq	%rax, -64(%rbp)
+	.loc 1 52 2
+	call	initFile@PLT
+	.loc 1 53 9
+	call	stabFile@PLT
+	movq	%rax, -72(%rbp)
+	.loc 1 55 2
+	movq	-64(%rbp), %rax
+	movl	$7, %esi
+	movq	%rax, %rdi
+	call	abPutUse@PLT
+	.loc 1 56 2
+	movq	-64(%rbp), %rax
+	movq	%rax, %rdi
+	call	abPrintDb@PLT
+	.loc 1 57 2
+	movq	-64(%rbp), %rdx
+	movq	-72(%rbp), %rax
+	movq	%rdx, %rsi
+	movq	%rax, %rdi
+	call	scopeBind@PLT
+	.loc 1 58 2
+	movq	-64(%rbp), %rdx
+	movq	-72(%rbp), %rax
+	movq	%rdx, %rsi
+	movq	%rax, %rdi
+	call	typeInfer@PLT
+	.loc 1 60 6
+	movq	-72(%rbp), %rax
+	leaq	.LC7(%rip), %rdx
+	movq	%rdx, %rsi
+	movq	%rax, %rdi
+	call	uniqueMeaning@PLT
+	movq	%rax, -80(%rbp)
+	.loc 1 61 6
+	movq	-80(%rbp), %rax
+	movq	%rax, %rdi
+	call	symeType@PLT
+	movq	%rax, -88(%rbp)
+	.loc 1 62 8
+	movq	-88(%rbp), %rdx
+	movq	-88(%rbp), %rax
+	movq	%rax, %rsi
+	movl	$2, %edi
+	movl	$0, %eax
+	call	tfCross@PLT
+	movq	%rax, -96(%rbp)
+	.loc 1 63 8
+	movq	-88(%rbp), %rdx
+	movq	-88(%rbp), %rax
+	movq	%rax, %rsi
+	movl	$2, %edi
+	movl	$0, %eax
+	call	tfMulti@PLT
+	movq	%rax, -104(%rbp)
+	.loc 1 65 10
+	movq	-72(%rbp), %rax
+	movq	%rax, %rdi
+	call	absNew@PLT
+	movq	%rax, -112(%rbp)
+	.loc 1 67 9
+	call	tfSatTdnMask@PLT
+	.loc 1 67 7
+	movl	%eax, -116(%rbp)
+	.loc 1 68 11
+	movl	-116(%rbp), %eax
+	cltq
+	movq	-104(%rbp), %rdx
+	movq	-96(%rbp), %rcx
+	movq	%rcx, %rsi
+	movq	%rax, %rdi
+	call	tfSat@PLT
+	movq	%rax, -128(%rbp)
+	.loc 1 70 2
+	movq	-128(%rbp), %rax
+	movq	%rax, %rdi
+	call	tfSatSucceed@PLT
+	movl	%eax, %esi
+	leaq	.LC8(%rip), %rax
+	movq	%rax, %rdi
+	call	testTrue@PLT
+	.loc 1 71 41
+	movq	-128(%rbp), %rax
+	movq	%rax, %rdi
+	call	tfSatAbEmbed@PLT
+	.loc 1 71 2
+	movl	%eax, %edx
+	movl	$4, %esi
+	leaq	.LC8(%rip), %rax
+	movq	%rax, %rdi
+	call	testIntEqual@PLT
+	.loc 1 73 9
+	call	tfSatTdnMask@PLT
+	.loc 1 73 7
+	movl	%eax, -116(%rbp)
+	.loc 1 74 11
+	movl	-116(%rbp), %eax
+	cltq
+	movq	-96(%rbp), %rdx
+	movq	-104(%rbp), %rcx
+	movq	%rcx, %rsi
+	movq	%rax, %rdi
+	call	tfSat@PLT
+	movq	%rax, -128(%rbp)
+	.loc 1 76 2
+	movq	-128(%rbp), %rax
+	movq	%rax, %rdi
+	call	tfSatSucceed@PLT
+	movl	%eax, %esi
+	leaq	.LC8(%rip), %rax
+	movq	%rax, %rdi
+	call	testTrue@PLT
+	.loc 1 77 41
+	movq	-128(%rbp), %rax
+	movq	%rax, %rdi
+	call	tfSatAbEmbed@PLT
+	.loc 1 77 2
+	movl	%eax, %edx
+	movl	$32, %esi
+	leaq	.LC8(%rip), %rax
+	movq	%rax, %rdi
+	call	testIntEqual@PLT
+	.loc 1 79 11
+	movq	-96(%rbp), %rdx
+	movq	-112(%rbp), %rax
+	movq	%rdx, %rsi
+	movq	%rax, %rdi
+	call	tfSubst@PLT
+	movq	%rax, %rdx
+	movl	-116(%rbp), %eax
+	cltq
+	movq	-104(%rbp), %rcx
+	movq	%rcx, %rsi
+	movq	%rax, %rdi
+	call	tfSat@PLT
+	movq	%rax, -128(%rbp)
+	.loc 1 80 2
+	movq	-128(%rbp), %rax
+	movq	%rax, %rdi
+	call	tfSatSucceed@PLT
+	movl	%eax, %esi
+	leaq	.LC8(%rip), %rax
+	movq	%rax, %rdi
+	call	testTrue@PLT
+	.loc 1 81 41
+	movq	-128(%rbp), %rax
+	movq	%rax, %rdi
+	call	tfSatAbEmbed@PLT
+	.loc 1 81 2
+	movl	%eax, %edx
+	movl	$32, %esi
+	leaq	.LC8(%rip), %rax
+	movq	%rax, %rdi
+	call	testIntEqual@PLT
+	.loc 1 83 11
+	movq	-96(%rbp), %rdx
+	movq	-112(%rbp), %rax
+	movq	%rdx, %rsi
+	movq	%rax, %rdi
+	call	tfSubst@PLT
+	movq	%rax, %rcx
+	movl	-116(%rbp), %eax
+	cltq
+	movq	-104(%rbp), %rdx
+	movq	%rcx, %rsi
+	movq	%rax, %rdi
+	call	tfSat@PLT
+	movq	%rax, -128(%rbp)
+	.loc 1 84 2
+	movq	-128(%rbp), %rax
+	movq	%rax, %rdi
+	call	tfSatSucceed@PLT
+	movl	%eax, %esi
+	leaq	.LC8(%rip), %rax
+	movq	%rax, %rdi
+	call	testTrue@PLT
+	.loc 1 85 41
+	movq	-128(%rbp), %rax
+	movq	%rax, %rdi
+	call	tfSatAbEmbed@PLT
+	.loc 1 85 2
+	movl	%eax, %edx
+	movl	$4, %esi
+	leaq	.LC8(%rip), %rax
+	movq	%rax, %rdi
+	call	testIntEqual@PLT
+	.loc 1 87 2
+	call	finiFile@PLT
+	.loc 1 88 1
+	nop
+	addq	$112, %rsp
+	popq	%rbx
+	popq	%r12
+	popq	%rbp
+	.cfi_def_cfa 7, 8
+	ret
+	.cfi_endproc
+.LFE1:
+	.size	testTfSatEmbed, .-testTfSatEmbed
+	.section	.rodata
+.LC9:
+	.string	"E: Category == with"
+.LC10:
+	.string	"T: with == add"
+.LC11:
+	.string	"e: E == never"
+.LC12:
+	.string	"t: T == never"
+.LC13:
+	.string	"t"
+.LC14:
+	.string	"e"
+	.text
+	.type	testTfSatEmbedExcept, @function
+testTfSatEmbedExcept:
+.LFB2:
+	.loc 1 92 1
+	.cfi_startproc
+	pushq	%rbp
+	.cfi_def_cfa_offset 16
+	.cfi_offset 6, -16
+	movq	%rsp, %rbp
+	.cfi_def_cfa_register 6
+	pushq	%r12
+	pushq	%rbx
+	addq	$-128, %rsp
+	.cfi_offset 12, -24
+	.cfi_offset 3, -32
+	.loc 1 103 9
+	leaq	.LC4(%rip), %rax
+	movq	%rax, -24(%rbp)
+	.loc 1 104 9
+	leaq	.LC9(%rip), %rax
+	movq	%rax, -32(%rbp)
+	.loc 1 105 9
+	leaq	.LC10(%rip), %rax
+	movq	%rax, -40(%rbp)
+	.loc 1 106 9
+	leaq	.LC11(%rip), %rax
+	movq	%rax, -48(%rbp)
+	.loc 1 107 9
+	leaq	.LC12(%rip), %rax
+	movq	%rax, -56(%rbp)
+	.loc 1 109 40
+	movq	String_listPointer(%rip), %rax
+	movq	16(%rax), %r10
+	movq	-56(%rbp), %rdi
+	movq	-40(%rbp), %rsi
+	movq	-48(%rbp), %rcx
+	movq	-32(%rbp), %rdx
+	movq	-24(%rbp), %rax
+	movq	%rdi, %r9
+	movq	%rsi, %r8
+	movq	%rax, %rsi
+	movl	$5, %edi
+	movl	$0, %eax
+	call	*%r10
+.LVL2:
+	movq	%rax, -64(%rbp)
+	.loc 1 110 42
+	movq	AbSyn_listPointer(%rip), %rax
+	movq	(%rax), %rbx
+	movq	-64(%rbp), %rax
+	movq	%rax, %rdi
+	call	abqParseLines@PLT
+	movq	%rax, %r12
+	movl	$0, %eax
+	call	stdtypes@PLT
+	movq	%r12, %rsi
+	movq	%rax, %rdi
+	call	*%rbx
+.LVL3:
+	movq	%rax, -72(%rbp)
+	.loc 1 111 16
+	movq	sposNone(%rip), %rax
+	movq	-72(%rbp), %rdx
+	movq	%rax, %rsi
+	movl	$64, %edi
+	call	abNewOfList@PLT
+	movq	%rax, -80(%rbp)
+	.loc 1 113 2
+	call	initFile@PLT
+	.loc 1 114 9
+	call	stabFile@PLT
+	movq	%rax, -88(%rbp)
+	.loc 1 116 2
+	movq	-80(%rbp), %rax
+	movl	$7, %esi
+	movq	%rax, %rdi
+	call	abPutUse@PLT
+	.loc 1 117 2
+	movq	-80(%rbp), %rax
+	movq	%rax, %rdi
+	call	abPrintDb@PLT
+	.loc 1 118 2
+	movq	-80(%rbp), %rdx
+	movq	-88(%rbp), %rax
+	movq	%rdx, %rsi
+	movq	%rax, %rdi
+	call	scopeBind@PLT
+	.loc 1 119 2
+	movq	-80(%rbp), %rdx
+	movq	-88(%rbp), %rax
+	movq	%rdx, %rsi
+	movq	%rax, %rdi
+	call	typeInfer@PLT
+	.loc 1 121 6
+	movq	-88(%rbp), %rax
+	leaq	.LC13(%rip), %rdx
+	movq	%rdx, %rsi
+	movq	%rax, %rdi
+	call	uniqueMeaning@PLT
+	movq	%rax, %rdi
+	call	symeType@PLT
+	movq	%rax, -96(%rbp)
+	.loc 1 122 6
+	movq	-88(%rbp), %rax
+	leaq	.LC14(%rip), %rdx
+	movq	%rdx, %rsi
+	movq	%rax, %rdi
+	call	uniqueMeaning@PLT
+	movq	%rax, %rdi
+	call	symeType@PLT
+	movq	%rax, -104(%rbp)
+	.loc 1 123 13
+	movq	-96(%rbp), %rdx
+	movq	-96(%rbp), %rax
+	movq	%rdx, %rsi
+	movq	%rax, %rdi
+	call	tfExcept@PLT
+	movq	%rax, -112(%rbp)
+	.loc 1 125 9
+	call	tfSatTdnMask@PLT
+	.loc 1 125 7
+	movl	%eax, -116(%rbp)
+	.loc 1 127 11
+	movl	-116(%rbp), %eax
+	cltq
+	movq	-96(%rbp), %rdx
+	movq	-96(%rbp), %rcx
+	movq	%rcx, %rsi
+	movq	%rax, %rdi
+	call	tfSat@PLT
+	movq	%rax, -128(%rbp)
+	.loc 1 128 2
+	movq	-128(%rbp), %rax
+	movq	%rax, %rdi
+	call	tfSatSucceed@PLT
+	movl	%eax, %esi
+	leaq	.LC8(%rip), %rax
+	movq	%rax, %rdi
+	call	testTrue@PLT
+	.loc 1 129 22
+	movq	-128(%rbp), %rax
+	movq	%rax, %rdi
+	call	tfSatAbEmbed@PLT
+	.loc 1 129 2
+	movl	%eax, %edx
+	movl	$0, %esi
+	leaq	.LC8(%rip), %rax
+	movq	%rax, %rdi
+	call	testIntEqual@PLT
+	.loc 1 132 11
+	movl	-116(%rbp), %eax
+	cltq
+	movq	-112(%rbp), %rdx
+	movq	-96(%rbp), %rcx
+	movq	%rcx, %rsi
+	movq	%rax, %rdi
+	call	tfSat@PLT
+	movq	%rax, -128(%rbp)
+	.loc 1 133 2
+	movq	-128(%rbp), %rax
+	movq	%rax, %rdi
+	call	tfSatSucceed@PLT
+	movl	%eax, %esi
+	leaq	.LC8(%rip), %rax
+	movq	%rax, %rdi
+	call	testTrue@PLT
+	.loc 1 134 22
+	movq	-128(%rbp), %rax
+	movq	%rax, %rdi
+	call	tfSatAbEmbed@PLT
+	.loc 1 134 2
+	movl	%eax, %edx
+	movl	$0, %esi
+	leaq	.LC8(%rip), %rax
+	movq	%rax, %rdi
+	call	testIntEqual@PLT
+	.loc 1 137 11
+	movq	-96(%rbp), %rax
+	movq	%rax, %rsi
+	movl	$1, %edi
+	movl	$0, %eax
+	call	tfMulti@PLT
+	movq	%rax, -136(%rbp)
+	.loc 1 138 18
+	movq	-96(%rbp), %rax
+	movq	%rax, %rsi
+	movl	$1, %edi
+	movl	$0, %eax
+	call	tfMulti@PLT
+	movq	%rax, %rdx
+	movq	-104(%rbp), %rax
+	movq	%rax, %rsi
+	movq	%rdx, %rdi
+	call	tfExcept@PLT
+	movq	%rax, -144(%rbp)
+	.loc 1 139 11
+	movl	-116(%rbp), %eax
+	cltq
+	movq	-144(%rbp), %rdx
+	movq	-136(%rbp), %rcx
+	movq	%rcx, %rsi
+	movq	%rax, %rdi
+	call	tfSat@PLT
+	movq	%rax, -128(%rbp)
+	.loc 1 140 2
+	movq	-128(%rbp), %rax
+	movq	%rax, %rdi
+	call	tfSatSucceed@PLT
+	movl	%eax, %esi
+	leaq	.LC8(%rip), %rax
+	movq	%rax, %rdi
+	call	testTrue@PLT
+	.loc 1 141 22
+	movq	-128(%rbp), %rax
+	movq	%rax, %rdi
+	call	tfSatAbEmbed@PLT
+	.loc 1 141 2
+	movl	%eax, %edx
+	movl	$0, %esi
+	leaq	.LC8(%rip), %rax
+	movq	%rax, %rdi
+	call	testIntEqual@PLT
+	.loc 1 144 11
+	movl	-116(%rbp), %eax
+	cltq
+	movq	-112(%rbp), %rdx
+	movq	-136(%rbp), %rcx
+	movq	%rcx, %rsi
+	movq	%rax, %rdi
+	call	tfSat@PLT
+	movq	%rax, -128(%rbp)
+	.loc 1 145 2
+	movq	-128(%rbp), %rax
+	movq	%rax, %rdi
+	call	tfSatSucceed@PLT
+	movl	%eax, %esi
+	leaq	.LC8(%rip), %rax
+	movq	%rax, %rdi
+	call	testTrue@PLT
+	.loc 1 146 41
+	movq	-128(%rbp), %rax
+	movq	%rax, %rdi
+	call	tfSatAbEmbed@PLT
+	.loc 1 146 2
+	movl	%eax, %edx
+	movl	$64, %esi
+	leaq	.LC8(%rip), %rax
+	movq	%rax, %rdi
+	call	testIntEqual@PLT
+	.loc 1 149 11
+	movl	-116(%rbp), %eax
+	cltq
+	movq	-96(%rbp), %rdx
+	movq	-136(%rbp), %rcx
+	movq	%rcx, %rsi
+	movq	%rax, %rdi
+	call	tfSat@PLT
+	movq	%rax, -128(%rbp)
+	.loc 1 150 2
+	movq	-128(%rbp), %rax
+	movq	%rax, %rdi
+	call	tfSatSucceed@PLT
+	movl	%eax, %esi
+	leaq	.LC8(%rip), %rax
+	movq	%rax, %rdi
+	call	testTrue@PLT
+	.loc 1 151 41
+	movq	-128(%rbp), %rax
+	movq	%rax, %rdi
+	call	tfSatAbEmbed@PLT
+	.loc 1 151 2
+	movl	%eax, %edx
+	movl	$64, %esi
+	leaq	.LC8(%rip), %rax
+	movq	%rax, %rdi
+	call	testIntEqual@PLT
+	.loc 1 153 2
+	call	finiFile@PLT
+	.loc 1 154 1
+	nop
+	subq	$-128, %rsp
+	popq	%rbx
+	popq	%r12
+	popq	%rbp
+	.cfi_def_cfa 7, 8
+	ret
+	.cfi_endproc
+.LFE2:
+	.size	testTfSatEmbedExcept, .-testTfSatEmbedExcept
+	.section	.rodata
+.LC15:
+	.string	"R == Record(t: T)"
+.LC16:
+	.string	"local r: R"
+.LC17:
+	.string	"local s: Record(t: T)"
+.LC18:
+	.string	"Declare is sefo"
+.LC19:
+	.string	"Error Count"
+.LC20:
+	.string	"r"
+.LC21:
+	.string	"s"
+.LC22:
+	.string	"R: %pTForm S: %pTForm\n"
+.LC23:
+	.string	"def eq"
+	.text
+	.type	testTfSatRec, @function
+testTfSatRec:
+.LFB3:
+	.loc 1 158 1
+	.cfi_startproc
+	pushq	%rbp
+	.cfi_def_cfa_offset 16
+	.cfi_offset 6, -16
+	movq	%rsp, %rbp
+	.cfi_def_cfa_register 6
+	pushq	%r12
+	pushq	%rbx
+	subq	$96, %rsp
+	.cfi_offset 12, -24
+	.cfi_offset 3, -32
+	.loc 1 159 9
+	leaq	.LC10(%rip), %rax
+	movq	%rax, -24(%rbp)
+	.loc 1 160 9
+	leaq	.LC15(%rip), %rax
+	movq	%rax, -32(%rbp)
+	.loc 1 161 9
+	leaq	.LC16(%rip), %rax
+	movq	%rax, -40(%rbp)
+	.loc 1 162 9
+	leaq	.LC17(%rip), %rax
+	movq	%rax, -48(%rbp)
+	.loc 1 173 2
+	call	initFile@PLT
+	.loc 1 174 29
+	movq	String_listPointer(%rip), %rax
+	movq	16(%rax), %r9
+	movq	-48(%rbp), %rsi
+	movq	-40(%rbp), %rcx
+	movq	-32(%rbp), %rdx
+	movq	-24(%rbp), %rax
+	movq	%rsi, %r8
+	movq	%rax, %rsi
+	movl	$4, %edi
+	movl	$0, %eax
+	call	*%r9
+.LVL4:
+	movq	%rax, -56(%rbp)
+	.loc 1 176 27
+	movq	AbSyn_listPointer(%rip), %rax
+	movq	(%rax), %rbx
+	movq	-56(%rbp), %rax
+	movq	%rax, %rdi
+	call	abqParseLines@PLT
+	movq	%rax, %r12
+	movl	$0, %eax
+	call	stdtypes@PLT
+	movq	%r12, %rsi
+	movq	%rax, %rdi
+	call	*%rbx
+.LVL5:
+	movq	%rax, -64(%rbp)
+	.loc 1 177 10
+	movq	sposNone(%rip), %rax
+	movq	-64(%rbp), %rdx
+	movq	%rax, %rsi
+	movl	$64, %edi
+	call	abNewOfList@PLT
+	movq	%rax, -72(%rbp)
+	.loc 1 178 9
+	call	stabFile@PLT
+	movq	%rax, -80(%rbp)
+	.loc 1 180 2
+	movq	-72(%rbp), %rax
+	movl	$7, %esi
+	movq	%rax, %rdi
+	call	abPutUse@PLT
+	.loc 1 181 2
+	movq	-72(%rbp), %rdx
+	movq	-80(%rbp), %rax
+	movq	%rdx, %rsi
+	movq	%rax, %rdi
+	call	scopeBind@PLT
+	.loc 1 182 2
+	movq	-72(%rbp), %rdx
+	movq	-80(%rbp), %rax
+	movq	%rdx, %rsi
+	movq	%rax, %rdi
+	call	typeInfer@PLT
+	.loc 1 184 46
+	movq	-72(%rbp), %rax
+	movzbl	2(%rax), %eax
+	.loc 1 184 2
+	cmpb	$2, %al
+	sete	%al
+	movzbl	%al, %eax
+	movl	%eax, %esi
+	leaq	.LC18(%rip), %rax
+	movq	%rax, %rdi
+	call	testTrue@PLT
+	.loc 1 185 2
+	call	comsgErrorCount@PLT
+	movl	%eax, %edx
+	movl	$0, %esi
+	leaq	.LC19(%rip), %rax
+	movq	%rax, %rdi
+	call	testIntEqual@PLT
+	.loc 1 187 6
+	movq	-80(%rbp), %rax
+	leaq	.LC20(%rip), %rdx
+	movq	%rdx, %rsi
+	movq	%rax, %rdi
+	call	uniqueMeaning@PLT
+	movq	%rax, -88(%rbp)
+	.loc 1 188 8
+	movq	-88(%rbp), %rax
+	movq	%rax, %rdi
+	call	symeType@PLT
+	movq	%rax, -96(%rbp)
+	.loc 1 189 6
+	movq	-80(%rbp), %rax
+	leaq	.LC21(%rip), %rdx
+	movq	%rdx, %rsi
+	movq	%rax, %rdi
+	call	uniqueMeaning@PLT
+	movq	%rax, -104(%rbp)
+	.loc 1 190 8
+	movq	-104(%rbp), %rax
+	movq	%rax, %rdi
+	call	symeType@PLT
+	movq	%rax, -112(%rbp)
+	.loc 1 191 2
+	movq	-112(%rbp), %rdx
+	movq	-96(%rbp), %rax
+	movq	%rax, %rsi
+	leaq	.LC22(%rip), %rax
+	movq	%rax, %rdi
+	movl	$0, %eax
+	call	aprintf@PLT
+	.loc 1 193 2
+	movq	-112(%rbp), %rdx
+	movq	-96(%rbp), %rax
+	movq	%rdx, %rsi
+	movq	%rax, %rdi
+	call	tfSatisfies@PLT
+	movl	%eax, %esi
+	leaq	.LC23(%rip), %rax
+	movq	%rax, %rdi
+	call	testTrue@PLT
+	.loc 1 195 2
+	call	finiFile@PLT
+	.loc 1 196 1
+	nop
+	addq	$96, %rsp
+	popq	%rbx
+	popq	%r12
+	popq	%rbp
+	.cfi_def_cfa 7, 8
+	ret
+	.cfi_endproc
+.LFE3:
+	.size	testTfSatRec, .-testTfSatRec
+	.section	.rodata
+.LC24:
+	.string	"'x'"
+.LC25:
+	.string	"'y'"
+.LC26:
+	.string	"enum0"
+	.text
+	.type	testTfSatEnum, @function
+testTfSatEnum:
+.LFB4:
+	.loc 1 200 1
+	.cfi_startproc
+	pushq	%rbp
+	.cfi_def_cfa_offset 16
+	.cfi_offset 6, -16
+	movq	%rsp, %rbp
+	.cfi_def_cfa_register 6
+	pushq	%r12
+	pushq	%rbx
+	subq	$64, %rsp
+	.cfi_offset 12, -24
+	.cfi_offset 3, -32
+	.loc 1 201 9
+	leaq	.LC10(%rip), %rax
+	movq	%rax, -24(%rbp)
+	.loc 1 207 2
+	call	initFile@PLT
+	.loc 1 208 2
+	call	stabFile@PLT
+	movq	%rax, %rdi
+	call	stdscope@PLT
+	.loc 1 210 29
+	movq	String_listPointer(%rip), %rax
+	movq	16(%rax), %rdx
+	movq	-24(%rbp), %rax
+	movq	%rax, %rsi
+	movl	$1, %edi
+	movl	$0, %eax
+	call	*%rdx
+.LVL6:
+	movq	%rax, -32(%rbp)
+	.loc 1 212 27
+	movq	AbSyn_listPointer(%rip), %rax
+	movq	(%rax), %rbx
+	movq	-32(%rbp), %rax
+	movq	%rax, %rdi
+	call	abqParseLines@PLT
+	movq	%rax, %r12
+	movl	$0, %eax
+	call	stdtypes@PLT
+	movq	%r12, %rsi
+	movq	%rax, %rdi
+	call	*%rbx
+.LVL7:
+	movq	%rax, -40(%rbp)
+	.loc 1 213 10
+	movq	sposNone(%rip), %rax
+	movq	-40(%rbp), %rdx
+	movq	%rax, %rsi
+	movl	$64, %edi
+	call	abNewOfList@PLT
+	movq	%rax, -48(%rbp)
+	.loc 1 214 9
+	call	stabFile@PLT
+	movq	%rax, -56(%rbp)
+	.loc 1 215 8
+	call	stabFile@PLT
+	movq	%rax, %rdx
+	leaq	.LC24(%rip), %rax
+	movq	%rax, %rsi
+	movq	%rdx, %rdi
+	call	tfqTypeForm@PLT
+	movq	%rax, -64(%rbp)
+	.loc 1 216 8
+	call	stabFile@PLT
+	movq	%rax, %rdx
+	leaq	.LC25(%rip), %rax
+	movq	%rax, %rsi
+	movq	%rdx, %rdi
+	call	tfqTypeForm@PLT
+	movq	%rax, -72(%rbp)
+	.loc 1 218 2
+	movq	-72(%rbp), %rdx
+	movq	-64(%rbp), %rax
+	movq	%rdx, %rsi
+	movq	%rax, %rdi
+	call	tfSatisfies@PLT
+	movl	%eax, %esi
+	leaq	.LC26(%rip), %rax
+	movq	%rax, %rdi
+	call	testFalse@PLT
+	.loc 1 219 2
+	call	finiFile@PLT
+	.loc 1 220 1
+	nop
+	addq	$64, %rsp
+	popq	%rbx
+	popq	%r12
+	popq	%rbp
+	.cfi_def_cfa 7, 8
+	ret
+	.cfi_endproc
+.LFE4:
+	.size	testTfSatEnum, .-testTfSatEnum
+.Letext0:
+	.file 2 "/usr/include/x86_64-linux-gnu/bits/types.h"
+	.file 3 "<built-in>"
+	.file 4 "/usr/lib/gcc/x86_64-linux-gnu/12/include/stddef.h"
+	.file 5 "/usr/include/x86_64-linux-gnu/bits/types/struct_FILE.h"
+	.file 6 "/usr/include/x86_64-linux-gnu/bits/types/FILE.h"
+	.file 7 "./cport.h"
+	.file 8 "./buffer.h"
+	.file 9 "./ostream.h"
+	.file 10 "./axlgen.h"
+	.file 11 "./fname.h"
+	.file 12 "./srcpos.h"
+	.file 13 "./table.h"
+	.file 14 "./axlobs.h"
+	.file 15 "./symbol.h"
+	.file 16 "./absyn.h"
+	.file 17 "./absub.h"
+	.file 18 "./ablogic.h"
+	.file 19 "./syme.h"
+	.file 20 "./tform.h"
+	.file 21 "./foam.h"
+	.file 22 "./lib.h"
+	.file 23 "./stab.h"
+	.file 24 "./strops.h"
+	.file 25 "./tfcond.h"
+	.file 26 "./symeset.h"
+	.file 27 "./tfsat.h"
+	.file 28 "test/testlib.h"
+	.file 29 "test/abquick.h"
+	.file 30 "./format.h"
+	.file 31 "./comsg.h"
+	.file 32 "./tinfer.h"
+	.file 33 "./scobind.h"
+	.file 34 "./abuse.h"
+	.section	.debug_info,"",@progbits
+.Ldebug_info0:
+	.long	0x527c
+	.value	0x5
+	.byte	0x1
+	.byte	0x8
+	.long	.Ldebug_abbrev0
+	.uleb128 0x2a
+	.long	.LASF747
+	.byte	0xc
+	.long	.LASF0
+	.long	.LASF1
+	.quad	.Ltext0
+	.quad	.Letext0-.Ltext0
+	.long	.Ldebug_line0
+	.uleb128 0x2b
+	.byte	0x4
+	.byte	0x5
+	.string	"int"
+	.uleb128 0x13
+	.byte	0x1
+	.byte	0x8
+	.long	.LASF2
+	.uleb128 0x13
+	.byte	0x2
+	.byte	0x7
+	.long	.LASF3
+	.uleb128 0x13
+	.byte	0x4
+	.byte	0x7
+	.long	.LASF4
+	.uleb128 0x13
+	.byte	0x8
+	.byte	0x7
+	.long	.LASF5
+	.uleb128 0x13
+	.byte	0x1
+	.byte	0x6
+	.long	.LASF6
+	.uleb128 0x13
+	.byte	0x2
+	.byte	0x5
+	.long	.LASF7
+	.uleb128 0x13
+	.byte	0x8
+	.byte	0x5
+	.long	.LASF8
+	.uleb128 0xa
+	.long	.LASF9
+	.byte	0x2
+	.byte	0x98
+	.byte	0x12
+	.long	0x5f
+	.uleb128 0xa
+	.long	.LASF10
+	.byte	0x2
+	.byte	0x99
+	.byte	0x12
+	.long	0x5f
+	.uleb128 0x2c
+	.byte	0x8
+	.uleb128 0x7
+	.long	0x85
+	.uleb128 0x13
+	.byte	0x1
+	.byte	0x6
+	.long	.LASF11
+	.uleb128 0x21
+	.long	0x85
+	.uleb128 0x13
+	.byte	0x4
+	.byte	0x4
+	.long	.LASF12
+	.uleb128 0x13
+	.byte	0x8
+	.byte	0x4
+	.long	.LASF13
+	.uleb128 0x2d
+	.long	.LASF748
+	.byte	0x18
+	.byte	0x3
+	.byte	0
+	.long	0xd4
+	.uleb128 0x1c
+	.long	.LASF14
+	.long	0x43
+	.byte	0
+	.uleb128 0x1c
+	.long	.LASF15
+	.long	0x43
+	.byte	0x4
+	.uleb128 0x1c
+	.long	.LASF16
+	.long	0x7e
+	.byte	0x8
+	.uleb128 0x1c
+	.long	.LASF17
+	.long	0x7e
+	.byte	0x10
+	.byte	0
+	.uleb128 0xa
+	.long	.LASF18
+	.byte	0x4
+	.byte	0xd6
+	.byte	0x1b
+	.long	0x4a
+	.uleb128 0xd
+	.long	.LASF72
+	.byte	0xd8
+	.byte	0x5
+	.byte	0x31
+	.byte	0x8
+	.long	0x267
+	.uleb128 0x2
+	.long	.LASF19
+	.byte	0x5
+	.byte	0x33
+	.byte	0x7
+	.long	0x2e
+	.byte	0
+	.uleb128 0x2
+	.long	.LASF20
+	.byte	0x5
+	.byte	0x36
+	.byte	0x9
+	.long	0x80
+	.byte	0x8
+	.uleb128 0x2
+	.long	.LASF21
+	.byte	0x5
+	.byte	0x37
+	.byte	0x9
+	.long	0x80
+	.byte	0x10
+	.uleb128 0x2
+	.long	.LASF22
+	.byte	0x5
+	.byte	0x38
+	.byte	0x9
+	.long	0x80
+	.byte	0x18
+	.uleb128 0x2
+	.long	.LASF23
+	.byte	0x5
+	.byte	0x39
+	.byte	0x9
+	.long	0x80
+	.byte	0x20
+	.uleb128 0x2
+	.long	.LASF24
+	.byte	0x5
+	.byte	0x3a
+	.byte	0x9
+	.long	0x80
+	.byte	0x28
+	.uleb128 0x2
+	.long	.LASF25
+	.byte	0x5
+	.byte	0x3b
+	.byte	0x9
+	.long	0x80
+	.byte	0x30
+	.uleb128 0x2
+	.long	.LASF26
+	.byte	0x5
+	.byte	0x3c
+	.byte	0x9
+	.long	0x80
+	.byte	0x38
+	.uleb128 0x2
+	.long	.LASF27
+	.byte	0x5
+	.byte	0x3d
+	.byte	0x9
+	.long	0x80
+	.byte	0x40
+	.uleb128 0x2
+	.long	.LASF28
+	.byte	0x5
+	.byte	0x40
+	.byte	0x9
+	.long	0x80
+	.byte	0x48
+	.uleb128 0x2
+	.long	.LASF29
+	.byte	0x5
+	.byte	0x41
+	.byte	0x9
+	.long	0x80
+	.byte	0x50
+	.uleb128 0x2
+	.long	.LASF30
+	.byte	0x5
+	.byte	0x42
+	.byte	0x9
+	.long	0x80
+	.byte	0x58
+	.uleb128 0x2
+	.long	.LASF31
+	.byte	0x5
+	.byte	0x44
+	.byte	0x16
+	.long	0x280
+	.byte	0x60
+	.uleb128 0x2
+	.long	.LASF32
+	.byte	0x5
+	.byte	0x46
+	.byte	0x14
+	.long	0x285
+	.byte	0x68
+	.uleb128 0x2
+	.long	.LASF33
+	.byte	0x5
+	.byte	0x48
+	.byte	0x7
+	.long	0x2e
+	.byte	0x70
+	.uleb128 0x2
+	.long	.LASF34
+	.byte	0x5
+	.byte	0x49
+	.byte	0x7
+	.long	0x2e
+	.byte	0x74
+	.uleb128 0x2
+	.long	.LASF35
+	.byte	0x5
+	.byte	0x4a
+	.byte	0xb
+	.long	0x66
+	.byte	0x78
+	.uleb128 0x2
+	.long	.LASF36
+	.byte	0x5
+	.byte	0x4d
+	.byte	0x12
+	.long	0x3c
+	.byte	0x80
+	.uleb128 0x2
+	.long	.LASF37
+	.byte	0x5
+	.byte	0x4e
+	.byte	0xf
+	.long	0x51
+	.byte	0x82
+	.uleb128 0x2
+	.long	.LASF38
+	.byte	0x5
+	.byte	0x4f
+	.byte	0x8
+	.long	0x28a
+	.byte	0x83
+	.uleb128 0x2
+	.long	.LASF39
+	.byte	0x5
+	.byte	0x51
+	.byte	0xf
+	.long	0x29a
+	.byte	0x88
+	.uleb128 0x2
+	.long	.LASF40
+	.byte	0x5
+	.byte	0x59
+	.byte	0xd
+	.long	0x72
+	.byte	0x90
+	.uleb128 0x2
+	.long	.LASF41
+	.byte	0x5
+	.byte	0x5b
+	.byte	0x17
+	.long	0x2a4
+	.byte	0x98
+	.uleb128 0x2
+	.long	.LASF42
+	.byte	0x5
+	.byte	0x5c
+	.byte	0x19
+	.long	0x2ae
+	.byte	0xa0
+	.uleb128 0x2
+	.long	.LASF43
+	.byte	0x5
+	.byte	0x5d
+	.byte	0x14
+	.long	0x285
+	.byte	0xa8
+	.uleb128 0x2
+	.long	.LASF44
+	.byte	0x5
+	.byte	0x5e
+	.byte	0x9
+	.long	0x7e
+	.byte	0xb0
+	.uleb128 0x2
+	.long	.LASF45
+	.byte	0x5
+	.byte	0x5f
+	.byte	0xa
+	.long	0xd4
+	.byte	0xb8
+	.uleb128 0x2
+	.long	.LASF46
+	.byte	0x5
+	.byte	0x60
+	.byte	0x7
+	.long	0x2e
+	.byte	0xc0
+	.uleb128 0x2
+	.long	.LASF47
+	.byte	0x5
+	.byte	0x62
+	.byte	0x8
+	.long	0x2b3
+	.byte	0xc4
+	.byte	0
+	.uleb128 0xa
+	.long	.LASF48
+	.byte	0x6
+	.byte	0x7
+	.byte	0x19
+	.long	0xe0
+	.uleb128 0x2e
+	.long	.LASF749
+	.byte	0x5
+	.byte	0x2b
+	.byte	0xe
+	.uleb128 0x11
+	.long	.LASF49
+	.uleb128 0x7
+	.long	0x27b
+	.uleb128 0x7
+	.long	0xe0
+	.uleb128 0x15
+	.long	0x85
+	.long	0x29a
+	.uleb128 0x16
+	.long	0x4a
+	.byte	0
+	.byte	0
+	.uleb128 0x7
+	.long	0x273
+	.uleb128 0x11
+	.long	.LASF50
+	.uleb128 0x7
+	.long	0x29f
+	.uleb128 0x11
+	.long	.LASF51
+	.uleb128 0x7
+	.long	0x2a9
+	.uleb128 0x15
+	.long	0x85
+	.long	0x2c3
+	.uleb128 0x16
+	.long	0x4a
+	.byte	0x13
+	.byte	0
+	.uleb128 0x7
+	.long	0x267
+	.uleb128 0x13
+	.byte	0x8
+	.byte	0x5
+	.long	.LASF52
+	.uleb128 0x7
+	.long	0x8c
+	.uleb128 0xf
+	.long	.LASF53
+	.byte	0x7
+	.value	0x138
+	.byte	0x17
+	.long	0x35
+	.uleb128 0xf
+	.long	.LASF54
+	.byte	0x7
+	.value	0x139
+	.byte	0x18
+	.long	0x3c
+	.uleb128 0xf
+	.long	.LASF55
+	.byte	0x7
+	.value	0x13a
+	.byte	0x17
+	.long	0x4a
+	.uleb128 0xf
+	.long	.LASF56
+	.byte	0x7
+	.value	0x141
+	.byte	0x10
+	.long	0x5f
+	.uleb128 0xf
+	.long	.LASF57
+	.byte	0x7
+	.value	0x142
+	.byte	0x19
+	.long	0x4a
+	.uleb128 0xf
+	.long	.LASF58
+	.byte	0x7
+	.value	0x156
+	.byte	0xd
+	.long	0x2e
+	.uleb128 0xf
+	.long	.LASF59
+	.byte	0x7
+	.value	0x157
+	.byte	0xf
+	.long	0x308
+	.uleb128 0xf
+	.long	.LASF60
+	.byte	0x7
+	.value	0x158
+	.byte	0x10
+	.long	0xd4
+	.uleb128 0xf
+	.long	.LASF61
+	.byte	0x7
+	.value	0x159
+	.byte	0xf
+	.long	0x2ee
+	.uleb128 0xf
+	.long	.LASF62
+	.byte	0x7
+	.value	0x166
+	.byte	0x12
+	.long	0x7e
+	.uleb128 0xf
+	.long	.LASF63
+	.byte	0x7
+	.value	0x16a
+	.byte	0xf
+	.long	0x80
+	.uleb128 0xf
+	.long	.LASF64
+	.byte	0x7
+	.value	0x16b
+	.byte	0x15
+	.long	0x2cf
+	.uleb128 0xf
+	.long	.LASF65
+	.byte	0x7
+	.value	0x176
+	.byte	0x11
+	.long	0x91
+	.uleb128 0xf
+	.long	.LASF66
+	.byte	0x7
+	.value	0x178
+	.byte	0x10
+	.long	0x98
+	.uleb128 0xf
+	.long	.LASF67
+	.byte	0x7
+	.value	0x17a
+	.byte	0x10
+	.long	0x98
+	.uleb128 0xa
+	.long	.LASF68
+	.byte	0x8
+	.byte	0x10
+	.byte	0x18
+	.long	0x3a3
+	.uleb128 0x7
+	.long	0x3a8
+	.uleb128 0x11
+	.long	.LASF69
+	.uleb128 0xa
+	.long	.LASF70
+	.byte	0x9
+	.byte	0x7
+	.byte	0xf
+	.long	0x3b9
+	.uleb128 0x7
+	.long	0x3be
+	.uleb128 0x9
+	.long	0x2e
+	.long	0x3d2
+	.uleb128 0x4
+	.long	0x363
+	.uleb128 0x4
+	.long	0x2e
+	.byte	0
+	.uleb128 0xa
+	.long	.LASF71
+	.byte	0x9
+	.byte	0x9
+	.byte	0x19
+	.long	0x3de
+	.uleb128 0x7
+	.long	0x3e3
+	.uleb128 0xd
+	.long	.LASF73
+	.byte	0x10
+	.byte	0x9
+	.byte	0x15
+	.byte	0x8
+	.long	0x40b
+	.uleb128 0xe
+	.string	"ops"
+	.byte	0x9
+	.byte	0x16
+	.byte	0xd
+	.long	0x4a7
+	.byte	0
+	.uleb128 0x2
+	.long	.LASF74
+	.byte	0x9
+	.byte	0x1a
+	.byte	0x4
+	.long	0x4b8
+	.byte	0x8
+	.byte	0
+	.uleb128 0xa
+	.long	.LASF75
+	.byte	0x9
+	.byte	0xb
+	.byte	0xe
+	.long	0x417
+	.uleb128 0x17
+	.long	0x427
+	.uleb128 0x4
+	.long	0x3d2
+	.uleb128 0x4
+	.long	0x85
+	.byte	0
+	.uleb128 0xa
+	.long	.LASF76
+	.byte	0x9
+	.byte	0xc
+	.byte	0xd
+	.long	0x433
+	.uleb128 0x9
+	.long	0x2e
+	.long	0x44c
+	.uleb128 0x4
+	.long	0x3d2
+	.uleb128 0x4
+	.long	0x2cf
+	.uleb128 0x4
+	.long	0x2e
+	.byte	0
+	.uleb128 0xa
+	.long	.LASF77
+	.byte	0x9
+	.byte	0xd
+	.byte	0xe
+	.long	0x458
+	.uleb128 0x17
+	.long	0x463
+	.uleb128 0x4
+	.long	0x3d2
+	.byte	0
+	.uleb128 0xd
+	.long	.LASF78
+	.byte	0x18
+	.byte	0x9
+	.byte	0xf
+	.byte	0x10
+	.long	0x498
+	.uleb128 0x2
+	.long	.LASF79
+	.byte	0x9
+	.byte	0x10
+	.byte	0x12
+	.long	0x498
+	.byte	0
+	.uleb128 0x2
+	.long	.LASF80
+	.byte	0x9
+	.byte	0x11
+	.byte	0x14
+	.long	0x49d
+	.byte	0x8
+	.uleb128 0x2
+	.long	.LASF81
+	.byte	0x9
+	.byte	0x12
+	.byte	0xe
+	.long	0x4a2
+	.byte	0x10
+	.byte	0
+	.uleb128 0x7
+	.long	0x40b
+	.uleb128 0x7
+	.long	0x427
+	.uleb128 0x7
+	.long	0x44c
+	.uleb128 0xa
+	.long	.LASF82
+	.byte	0x9
+	.byte	0x13
+	.byte	0x4
+	.long	0x4b3
+	.uleb128 0x7
+	.long	0x463
+	.uleb128 0x2f
+	.byte	0x8
+	.byte	0x9
+	.byte	0x17
+	.byte	0x2
+	.long	0x4d8
+	.uleb128 0x25
+	.string	"obj"
+	.byte	0x18
+	.byte	0xb
+	.long	0x349
+	.uleb128 0x25
+	.string	"fun"
+	.byte	0x19
+	.byte	0x11
+	.long	0x3ad
+	.byte	0
+	.uleb128 0x7
+	.long	0x9f
+	.uleb128 0x7
+	.long	0x2e
+	.uleb128 0xa
+	.long	.LASF83
+	.byte	0xa
+	.byte	0x28
+	.byte	0x1b
+	.long	0x4ee
+	.uleb128 0x7
+	.long	0x4f3
+	.uleb128 0xd
+	.long	.LASF84
+	.byte	0x50
+	.byte	0xb
+	.byte	0xe
+	.byte	0x8
+	.long	0x50e
+	.uleb128 0x2
+	.long	.LASF85
+	.byte	0xb
+	.byte	0xf
+	.byte	0x9
+	.long	0x1d91
+	.byte	0
+	.byte	0
+	.uleb128 0xa
+	.long	.LASF86
+	.byte	0xa
+	.byte	0x29
+	.byte	0xf
+	.long	0x2ee
+	.uleb128 0xa
+	.long	.LASF87
+	.byte	0xa
+	.byte	0x2a
+	.byte	0x1b
+	.long	0x526
+	.uleb128 0x7
+	.long	0x52b
+	.uleb128 0xd
+	.long	.LASF88
+	.byte	0x10
+	.byte	0xc
+	.byte	0x43
+	.byte	0x8
+	.long	0x553
+	.uleb128 0x2
+	.long	.LASF89
+	.byte	0xc
+	.byte	0x44
+	.byte	0x9
+	.long	0x50e
+	.byte	0
+	.uleb128 0x2
+	.long	.LASF90
+	.byte	0xc
+	.byte	0x45
+	.byte	0xe
+	.long	0x553
+	.byte	0x8
+	.byte	0
+	.uleb128 0xa
+	.long	.LASF91
+	.byte	0xa
+	.byte	0x2b
+	.byte	0x19
+	.long	0x55f
+	.uleb128 0x30
+	.long	.LASF106
+	.byte	0x8
+	.byte	0xc
+	.byte	0x3e
+	.byte	0x7
+	.long	0x583
+	.uleb128 0x26
+	.long	.LASF89
+	.byte	0x3f
+	.byte	0x9
+	.long	0x50e
+	.uleb128 0x26
+	.long	.LASF92
+	.byte	0x40
+	.byte	0xd
+	.long	0x51a
+	.byte	0
+	.uleb128 0xa
+	.long	.LASF93
+	.byte	0xa
+	.byte	0x2d
+	.byte	0x18
+	.long	0x58f
+	.uleb128 0x7
+	.long	0x594
+	.uleb128 0xd
+	.long	.LASF94
+	.byte	0x30
+	.byte	0xd
+	.byte	0x21
+	.byte	0x8
+	.long	0x5f0
+	.uleb128 0x2
+	.long	.LASF95
+	.byte	0xd
+	.byte	0x22
+	.byte	0xd
+	.long	0x1dc5
+	.byte	0
+	.uleb128 0x2
+	.long	.LASF96
+	.byte	0xd
+	.byte	0x23
+	.byte	0xb
+	.long	0x1de5
+	.byte	0x8
+	.uleb128 0x2
+	.long	.LASF97
+	.byte	0xd
+	.byte	0x24
+	.byte	0xa
+	.long	0x349
+	.byte	0x10
+	.uleb128 0x2
+	.long	.LASF98
+	.byte	0xd
+	.byte	0x25
+	.byte	0x9
+	.long	0x32f
+	.byte	0x18
+	.uleb128 0x2
+	.long	.LASF99
+	.byte	0xd
+	.byte	0x26
+	.byte	0x9
+	.long	0x32f
+	.byte	0x20
+	.uleb128 0x2
+	.long	.LASF100
+	.byte	0xd
+	.byte	0x27
+	.byte	0x13
+	.long	0x1e51
+	.byte	0x28
+	.byte	0
+	.uleb128 0xa
+	.long	.LASF101
+	.byte	0xa
+	.byte	0x2e
+	.byte	0x17
+	.long	0x5fc
+	.uleb128 0x7
+	.long	0x601
+	.uleb128 0x11
+	.long	.LASF102
+	.uleb128 0xa
+	.long	.LASF103
+	.byte	0xe
+	.byte	0x19
+	.byte	0x19
+	.long	0x612
+	.uleb128 0x7
+	.long	0x617
+	.uleb128 0xd
+	.long	.LASF104
+	.byte	0x10
+	.byte	0xf
+	.byte	0x19
+	.byte	0x8
+	.long	0x63f
+	.uleb128 0x2
+	.long	.LASF97
+	.byte	0xf
+	.byte	0x1a
+	.byte	0x13
+	.long	0x1e56
+	.byte	0
+	.uleb128 0xe
+	.string	"str"
+	.byte	0xf
+	.byte	0x1b
+	.byte	0x9
+	.long	0x356
+	.byte	0x8
+	.byte	0
+	.uleb128 0x27
+	.string	"Doc"
+	.byte	0x1c
+	.long	0x649
+	.uleb128 0x7
+	.long	0x64e
+	.uleb128 0x31
+	.string	"doc"
+	.uleb128 0xa
+	.long	.LASF105
+	.byte	0xe
+	.byte	0x1d
+	.byte	0x17
+	.long	0x65f
+	.uleb128 0x7
+	.long	0x664
+	.uleb128 0x28
+	.long	.LASF107
+	.byte	0x80
+	.byte	0x10
+	.value	0x2e0
+	.long	0xa27
+	.uleb128 0x5
+	.long	.LASF108
+	.byte	0x10
+	.value	0x2e4
+	.byte	0xf
+	.long	0x21f3
+	.uleb128 0x5
+	.long	.LASF109
+	.byte	0x10
+	.value	0x2e5
+	.byte	0xf
+	.long	0x22b1
+	.uleb128 0x5
+	.long	.LASF110
+	.byte	0x10
+	.value	0x2ec
+	.byte	0x11
+	.long	0x22db
+	.uleb128 0x5
+	.long	.LASF111
+	.byte	0x10
+	.value	0x2ed
+	.byte	0xe
+	.long	0x2305
+	.uleb128 0x5
+	.long	.LASF112
+	.byte	0x10
+	.value	0x2ee
+	.byte	0x10
+	.long	0x232f
+	.uleb128 0x5
+	.long	.LASF113
+	.byte	0x10
+	.value	0x2f0
+	.byte	0x13
+	.long	0x2359
+	.uleb128 0x5
+	.long	.LASF114
+	.byte	0x10
+	.value	0x2f1
+	.byte	0x16
+	.long	0x2383
+	.uleb128 0x5
+	.long	.LASF115
+	.byte	0x10
+	.value	0x2f2
+	.byte	0x15
+	.long	0x23d7
+	.uleb128 0x5
+	.long	.LASF116
+	.byte	0x10
+	.value	0x2f3
+	.byte	0x14
+	.long	0x23ad
+	.uleb128 0x5
+	.long	.LASF117
+	.byte	0x10
+	.value	0x2f6
+	.byte	0xf
+	.long	0x2401
+	.uleb128 0x5
+	.long	.LASF118
+	.byte	0x10
+	.value	0x2f7
+	.byte	0xf
+	.long	0x2439
+	.uleb128 0x5
+	.long	.LASF119
+	.byte	0x10
+	.value	0x2f8
+	.byte	0x11
+	.long	0x2463
+	.uleb128 0x5
+	.long	.LASF120
+	.byte	0x10
+	.value	0x2f9
+	.byte	0x12
+	.long	0x249a
+	.uleb128 0x5
+	.long	.LASF121
+	.byte	0x10
+	.value	0x2fa
+	.byte	0x12
+	.long	0x24c4
+	.uleb128 0x5
+	.long	.LASF122
+	.byte	0x10
+	.value	0x2fb
+	.byte	0x11
+	.long	0x24fc
+	.uleb128 0x5
+	.long	.LASF123
+	.byte	0x10
+	.value	0x2fc
+	.byte	0x13
+	.long	0x2526
+	.uleb128 0x5
+	.long	.LASF124
+	.byte	0x10
+	.value	0x2fd
+	.byte	0x13
+	.long	0x2550
+	.uleb128 0x5
+	.long	.LASF125
+	.byte	0x10
+	.value	0x2fe
+	.byte	0x14
+	.long	0x25e9
+	.uleb128 0x5
+	.long	.LASF126
+	.byte	0x10
+	.value	0x2ff
+	.byte	0x13
+	.long	0x2621
+	.uleb128 0x5
+	.long	.LASF127
+	.byte	0x10
+	.value	0x300
+	.byte	0x11
+	.long	0x2659
+	.uleb128 0x5
+	.long	.LASF128
+	.byte	0x10
+	.value	0x301
+	.byte	0x13
+	.long	0x2683
+	.uleb128 0x5
+	.long	.LASF129
+	.byte	0x10
+	.value	0x302
+	.byte	0x12
+	.long	0x26ad
+	.uleb128 0x5
+	.long	.LASF130
+	.byte	0x10
+	.value	0x303
+	.byte	0x13
+	.long	0x26e5
+	.uleb128 0x5
+	.long	.LASF131
+	.byte	0x10
+	.value	0x304
+	.byte	0xe
+	.long	0x2587
+	.uleb128 0x5
+	.long	.LASF132
+	.byte	0x10
+	.value	0x305
+	.byte	0x16
+	.long	0x25b1
+	.uleb128 0x5
+	.long	.LASF133
+	.byte	0x10
+	.value	0x306
+	.byte	0x12
+	.long	0x270f
+	.uleb128 0x5
+	.long	.LASF134
+	.byte	0x10
+	.value	0x307
+	.byte	0x10
+	.long	0x2747
+	.uleb128 0x5
+	.long	.LASF135
+	.byte	0x10
+	.value	0x308
+	.byte	0x12
+	.long	0x277f
+	.uleb128 0x5
+	.long	.LASF136
+	.byte	0x10
+	.value	0x309
+	.byte	0x12
+	.long	0x27c5
+	.uleb128 0x5
+	.long	.LASF137
+	.byte	0x10
+	.value	0x30a
+	.byte	0xf
+	.long	0x27ef
+	.uleb128 0x5
+	.long	.LASF138
+	.byte	0x10
+	.value	0x30b
+	.byte	0x11
+	.long	0x2819
+	.uleb128 0x5
+	.long	.LASF139
+	.byte	0x10
+	.value	0x30c
+	.byte	0xf
+	.long	0x2843
+	.uleb128 0x5
+	.long	.LASF140
+	.byte	0x10
+	.value	0x30d
+	.byte	0x19
+	.long	0x2889
+	.uleb128 0x5
+	.long	.LASF141
+	.byte	0x10
+	.value	0x30e
+	.byte	0x19
+	.long	0x28c1
+	.uleb128 0x5
+	.long	.LASF142
+	.byte	0x10
+	.value	0x30f
+	.byte	0x10
+	.long	0x28f9
+	.uleb128 0x5
+	.long	.LASF143
+	.byte	0x10
+	.value	0x310
+	.byte	0x14
+	.long	0x2923
+	.uleb128 0x5
+	.long	.LASF144
+	.byte	0x10
+	.value	0x311
+	.byte	0x10
+	.long	0x295b
+	.uleb128 0x5
+	.long	.LASF145
+	.byte	0x10
+	.value	0x312
+	.byte	0xf
+	.long	0x2985
+	.uleb128 0x5
+	.long	.LASF146
+	.byte	0x10
+	.value	0x313
+	.byte	0x10
+	.long	0x29bd
+	.uleb128 0x5
+	.long	.LASF147
+	.byte	0x10
+	.value	0x314
+	.byte	0x10
+	.long	0x29e7
+	.uleb128 0x5
+	.long	.LASF148
+	.byte	0x10
+	.value	0x315
+	.byte	0xe
+	.long	0x2a11
+	.uleb128 0x5
+	.long	.LASF149
+	.byte	0x10
+	.value	0x316
+	.byte	0x12
+	.long	0x2a57
+	.uleb128 0x5
+	.long	.LASF150
+	.byte	0x10
+	.value	0x317
+	.byte	0x12
+	.long	0x2a8f
+	.uleb128 0x5
+	.long	.LASF151
+	.byte	0x10
+	.value	0x318
+	.byte	0x13
+	.long	0x2ac7
+	.uleb128 0x5
+	.long	.LASF152
+	.byte	0x10
+	.value	0x319
+	.byte	0x11
+	.long	0x2af1
+	.uleb128 0x5
+	.long	.LASF153
+	.byte	0x10
+	.value	0x31a
+	.byte	0x12
+	.long	0x2b29
+	.uleb128 0x5
+	.long	.LASF154
+	.byte	0x10
+	.value	0x31b
+	.byte	0xf
+	.long	0x2b6f
+	.uleb128 0x5
+	.long	.LASF155
+	.byte	0x10
+	.value	0x31c
+	.byte	0x11
+	.long	0x2ba7
+	.uleb128 0x5
+	.long	.LASF156
+	.byte	0x10
+	.value	0x31d
+	.byte	0x11
+	.long	0x2bd1
+	.uleb128 0x5
+	.long	.LASF157
+	.byte	0x10
+	.value	0x31e
+	.byte	0x13
+	.long	0x2bfb
+	.uleb128 0x5
+	.long	.LASF158
+	.byte	0x10
+	.value	0x31f
+	.byte	0x13
+	.long	0x2c33
+	.uleb128 0x5
+	.long	.LASF159
+	.byte	0x10
+	.value	0x320
+	.byte	0x11
+	.long	0x2c6b
+	.uleb128 0x5
+	.long	.LASF160
+	.byte	0x10
+	.value	0x321
+	.byte	0xf
+	.long	0x2c87
+	.uleb128 0x5
+	.long	.LASF161
+	.byte	0x10
+	.value	0x322
+	.byte	0x13
+	.long	0x2cb1
+	.uleb128 0x5
+	.long	.LASF162
+	.byte	0x10
+	.value	0x323
+	.byte	0xe
+	.long	0x2ccd
+	.uleb128 0x5
+	.long	.LASF163
+	.byte	0x10
+	.value	0x324
+	.byte	0x11
+	.long	0x2cf7
+	.uleb128 0x5
+	.long	.LASF164
+	.byte	0x10
+	.value	0x325
+	.byte	0x13
+	.long	0x2d21
+	.uleb128 0x5
+	.long	.LASF165
+	.byte	0x10
+	.value	0x326
+	.byte	0x15
+	.long	0x2d67
+	.uleb128 0x5
+	.long	.LASF166
+	.byte	0x10
+	.value	0x327
+	.byte	0x13
+	.long	0x2d9f
+	.uleb128 0x5
+	.long	.LASF167
+	.byte	0x10
+	.value	0x328
+	.byte	0x11
+	.long	0x2dd7
+	.uleb128 0x5
+	.long	.LASF168
+	.byte	0x10
+	.value	0x329
+	.byte	0x15
+	.long	0x2e01
+	.uleb128 0x5
+	.long	.LASF169
+	.byte	0x10
+	.value	0x32a
+	.byte	0x12
+	.long	0x2e2b
+	.uleb128 0x5
+	.long	.LASF170
+	.byte	0x10
+	.value	0x32b
+	.byte	0x16
+	.long	0x2e63
+	.uleb128 0x5
+	.long	.LASF171
+	.byte	0x10
+	.value	0x32c
+	.byte	0x15
+	.long	0x2e9b
+	.uleb128 0x5
+	.long	.LASF172
+	.byte	0x10
+	.value	0x32d
+	.byte	0x12
+	.long	0x2ed3
+	.uleb128 0x5
+	.long	.LASF173
+	.byte	0x10
+	.value	0x32e
+	.byte	0x12
+	.long	0x2efd
+	.uleb128 0x5
+	.long	.LASF174
+	.byte	0x10
+	.value	0x32f
+	.byte	0x14
+	.long	0x2f35
+	.uleb128 0x5
+	.long	.LASF175
+	.byte	0x10
+	.value	0x330
+	.byte	0x10
+	.long	0x2f5f
+	.uleb128 0x5
+	.long	.LASF176
+	.byte	0x10
+	.value	0x331
+	.byte	0xf
+	.long	0x2f89
+	.uleb128 0x5
+	.long	.LASF177
+	.byte	0x10
+	.value	0x332
+	.byte	0x11
+	.long	0x2fdc
+	.uleb128 0x5
+	.long	.LASF178
+	.byte	0x10
+	.value	0x333
+	.byte	0x11
+	.long	0x3014
+	.uleb128 0x5
+	.long	.LASF179
+	.byte	0x10
+	.value	0x334
+	.byte	0x10
+	.long	0x303e
+	.uleb128 0x5
+	.long	.LASF180
+	.byte	0x10
+	.value	0x335
+	.byte	0x11
+	.long	0x3076
+	.byte	0
+	.uleb128 0xa
+	.long	.LASF181
+	.byte	0xe
+	.byte	0x1e
+	.byte	0x17
+	.long	0x65f
+	.uleb128 0xa
+	.long	.LASF182
+	.byte	0xe
+	.byte	0x1f
+	.byte	0x19
+	.long	0xa3f
+	.uleb128 0x7
+	.long	0xa44
+	.uleb128 0xd
+	.long	.LASF183
+	.byte	0x10
+	.byte	0x11
+	.byte	0x14
+	.byte	0x8
+	.long	0xa6c
+	.uleb128 0xe
+	.string	"key"
+	.byte	0x11
+	.byte	0x15
+	.byte	0x7
+	.long	0xb32
+	.byte	0
+	.uleb128 0xe
+	.string	"val"
+	.byte	0x11
+	.byte	0x16
+	.byte	0x7
+	.long	0xa27
+	.byte	0x8
+	.byte	0
+	.uleb128 0xa
+	.long	.LASF184
+	.byte	0xe
+	.byte	0x20
+	.byte	0x18
+	.long	0xa78
+	.uleb128 0x7
+	.long	0xa7d
+	.uleb128 0xd
+	.long	.LASF185
+	.byte	0x38
+	.byte	0x11
+	.byte	0x1f
+	.byte	0x8
+	.long	0xaf0
+	.uleb128 0x2
+	.long	.LASF186
+	.byte	0x11
+	.byte	0x20
+	.byte	0x8
+	.long	0x2d4
+	.byte	0
+	.uleb128 0x2
+	.long	.LASF187
+	.byte	0x11
+	.byte	0x21
+	.byte	0x8
+	.long	0x2d4
+	.byte	0x1
+	.uleb128 0x2
+	.long	.LASF188
+	.byte	0x11
+	.byte	0x22
+	.byte	0x8
+	.long	0x2ee
+	.byte	0x8
+	.uleb128 0x2
+	.long	.LASF189
+	.byte	0x11
+	.byte	0x23
+	.byte	0x8
+	.long	0x2ee
+	.byte	0x10
+	.uleb128 0xe
+	.string	"l"
+	.byte	0x11
+	.byte	0x24
+	.byte	0xd
+	.long	0x1c1b
+	.byte	0x18
+	.uleb128 0x2
+	.long	.LASF190
+	.byte	0x11
+	.byte	0x26
+	.byte	0x7
+	.long	0x14de
+	.byte	0x20
+	.uleb128 0x2
+	.long	.LASF191
+	.byte	0x11
+	.byte	0x27
+	.byte	0x8
+	.long	0x583
+	.byte	0x28
+	.uleb128 0xe
+	.string	"fv"
+	.byte	0x11
+	.byte	0x28
+	.byte	0xa
+	.long	0xb1c
+	.byte	0x30
+	.byte	0
+	.uleb128 0xa
+	.long	.LASF192
+	.byte	0xe
+	.byte	0x21
+	.byte	0x1a
+	.long	0xafc
+	.uleb128 0x7
+	.long	0xb01
+	.uleb128 0xd
+	.long	.LASF193
+	.byte	0x8
+	.byte	0x12
+	.byte	0x13
+	.byte	0x8
+	.long	0xb1c
+	.uleb128 0x2
+	.long	.LASF194
+	.byte	0x12
+	.byte	0x14
+	.byte	0x9
+	.long	0x98
+	.byte	0
+	.byte	0
+	.uleb128 0xa
+	.long	.LASF195
+	.byte	0xe
+	.byte	0x22
+	.byte	0x17
+	.long	0xb28
+	.uleb128 0x7
+	.long	0xb2d
+	.uleb128 0x11
+	.long	.LASF196
+	.uleb128 0xa
+	.long	.LASF197
+	.byte	0xe
+	.byte	0x23
+	.byte	0x17
+	.long	0xb3e
+	.uleb128 0x7
+	.long	0xb43
+	.uleb128 0xd
+	.long	.LASF198
+	.byte	0x40
+	.byte	0x13
+	.byte	0xcf
+	.byte	0x8
+	.long	0xbdf
+	.uleb128 0x2
+	.long	.LASF199
+	.byte	0x13
+	.byte	0xd0
+	.byte	0x8
+	.long	0x2d4
+	.byte	0
+	.uleb128 0x2
+	.long	.LASF200
+	.byte	0x13
+	.byte	0xd1
+	.byte	0x8
+	.long	0x2d4
+	.byte	0x1
+	.uleb128 0x2
+	.long	.LASF201
+	.byte	0x13
+	.byte	0xd2
+	.byte	0x9
+	.long	0x2e1
+	.byte	0x2
+	.uleb128 0xe
+	.string	"id"
+	.byte	0x13
+	.byte	0xd4
+	.byte	0x9
+	.long	0x606
+	.byte	0x8
+	.uleb128 0xe
+	.string	"lib"
+	.byte	0x13
+	.byte	0xd5
+	.byte	0x6
+	.long	0x1201
+	.byte	0x10
+	.uleb128 0x2
+	.long	.LASF202
+	.byte	0x13
+	.byte	0xd6
+	.byte	0x7
+	.long	0x322
+	.byte	0x18
+	.uleb128 0x2
+	.long	.LASF203
+	.byte	0x13
+	.byte	0xd7
+	.byte	0x8
+	.long	0xbdf
+	.byte	0x20
+	.uleb128 0x2
+	.long	.LASF204
+	.byte	0x13
+	.byte	0xd9
+	.byte	0xf
+	.long	0x43
+	.byte	0x28
+	.uleb128 0x2
+	.long	.LASF205
+	.byte	0x13
+	.byte	0xda
+	.byte	0xf
+	.long	0x43
+	.byte	0x2c
+	.uleb128 0x2
+	.long	.LASF206
+	.byte	0x13
+	.byte	0xdb
+	.byte	0x7
+	.long	0xb32
+	.byte	0x30
+	.uleb128 0x2
+	.long	.LASF207
+	.byte	0x13
+	.byte	0xdc
+	.byte	0x9
+	.long	0x1d53
+	.byte	0x38
+	.byte	0
+	.uleb128 0xa
+	.long	.LASF208
+	.byte	0xe
+	.byte	0x24
+	.byte	0x18
+	.long	0xbeb
+	.uleb128 0x7
+	.long	0xbf0
+	.uleb128 0xd
+	.long	.LASF209
+	.byte	0xd0
+	.byte	0x14
+	.byte	0x78
+	.byte	0x8
+	.long	0xd9d
+	.uleb128 0xe
+	.string	"tag"
+	.byte	0x14
+	.byte	0x79
+	.byte	0x8
+	.long	0x2d4
+	.byte	0
+	.uleb128 0x2
+	.long	.LASF210
+	.byte	0x14
+	.byte	0x7a
+	.byte	0x8
+	.long	0x2d4
+	.byte	0x1
+	.uleb128 0x2
+	.long	.LASF211
+	.byte	0x14
+	.byte	0x7b
+	.byte	0x8
+	.long	0x2d4
+	.byte	0x2
+	.uleb128 0x2
+	.long	.LASF212
+	.byte	0x14
+	.byte	0x7c
+	.byte	0x8
+	.long	0x2d4
+	.byte	0x3
+	.uleb128 0x2
+	.long	.LASF213
+	.byte	0x14
+	.byte	0x7d
+	.byte	0x8
+	.long	0x2d4
+	.byte	0x4
+	.uleb128 0x2
+	.long	.LASF214
+	.byte	0x14
+	.byte	0x7e
+	.byte	0x8
+	.long	0x2d4
+	.byte	0x5
+	.uleb128 0xe
+	.string	"raw"
+	.byte	0x14
+	.byte	0x7f
+	.byte	0x8
+	.long	0x2d4
+	.byte	0x6
+	.uleb128 0x2
+	.long	.LASF202
+	.byte	0x14
+	.byte	0x80
+	.byte	0x7
+	.long	0x322
+	.byte	0x8
+	.uleb128 0x2
+	.long	.LASF215
+	.byte	0x14
+	.byte	0x81
+	.byte	0x8
+	.long	0x653
+	.byte	0x10
+	.uleb128 0x2
+	.long	.LASF216
+	.byte	0x14
+	.byte	0x82
+	.byte	0x9
+	.long	0x2e1
+	.byte	0x18
+	.uleb128 0x2
+	.long	.LASF217
+	.byte	0x14
+	.byte	0x84
+	.byte	0x9
+	.long	0x32f
+	.byte	0x20
+	.uleb128 0x2
+	.long	.LASF218
+	.byte	0x14
+	.byte	0x85
+	.byte	0x9
+	.long	0x1c60
+	.byte	0x28
+	.uleb128 0x2
+	.long	.LASF190
+	.byte	0x14
+	.byte	0x87
+	.byte	0x7
+	.long	0x14de
+	.byte	0x30
+	.uleb128 0x2
+	.long	.LASF186
+	.byte	0x14
+	.byte	0x88
+	.byte	0xb
+	.long	0x1d3d
+	.byte	0x38
+	.uleb128 0x2
+	.long	.LASF219
+	.byte	0x14
+	.byte	0x89
+	.byte	0xb
+	.long	0x1d3d
+	.byte	0x40
+	.uleb128 0x2
+	.long	.LASF220
+	.byte	0x14
+	.byte	0x8a
+	.byte	0xb
+	.long	0x1d3d
+	.byte	0x48
+	.uleb128 0x2
+	.long	.LASF221
+	.byte	0x14
+	.byte	0x8b
+	.byte	0xb
+	.long	0x1d3d
+	.byte	0x50
+	.uleb128 0x2
+	.long	.LASF222
+	.byte	0x14
+	.byte	0x8d
+	.byte	0xb
+	.long	0x1d3d
+	.byte	0x58
+	.uleb128 0x2
+	.long	.LASF223
+	.byte	0x14
+	.byte	0x8e
+	.byte	0xb
+	.long	0x1d3d
+	.byte	0x60
+	.uleb128 0x2
+	.long	.LASF224
+	.byte	0x14
+	.byte	0x8f
+	.byte	0xb
+	.long	0x1d3d
+	.byte	0x68
+	.uleb128 0x2
+	.long	.LASF225
+	.byte	0x14
+	.byte	0x91
+	.byte	0xa
+	.long	0x4a94
+	.byte	0x70
+	.uleb128 0x2
+	.long	.LASF226
+	.byte	0x14
+	.byte	0x93
+	.byte	0xd
+	.long	0x1e76
+	.byte	0x78
+	.uleb128 0x2
+	.long	.LASF227
+	.byte	0x14
+	.byte	0x95
+	.byte	0xd
+	.long	0x1c92
+	.byte	0x80
+	.uleb128 0x2
+	.long	.LASF228
+	.byte	0x14
+	.byte	0x96
+	.byte	0xc
+	.long	0x1c54
+	.byte	0x88
+	.uleb128 0x2
+	.long	.LASF229
+	.byte	0x14
+	.byte	0x97
+	.byte	0xc
+	.long	0x1ccb
+	.byte	0x90
+	.uleb128 0x2
+	.long	.LASF230
+	.byte	0x14
+	.byte	0x99
+	.byte	0x9
+	.long	0x4a5b
+	.byte	0x98
+	.uleb128 0x2
+	.long	.LASF231
+	.byte	0x14
+	.byte	0x9b
+	.byte	0x8
+	.long	0xa6c
+	.byte	0xa0
+	.uleb128 0xe
+	.string	"fv"
+	.byte	0x14
+	.byte	0x9c
+	.byte	0xa
+	.long	0xb1c
+	.byte	0xa8
+	.uleb128 0xe
+	.string	"rho"
+	.byte	0x14
+	.byte	0x9d
+	.byte	0xa
+	.long	0x4aa5
+	.byte	0xb0
+	.uleb128 0x2
+	.long	.LASF232
+	.byte	0x14
+	.byte	0x9f
+	.byte	0xb
+	.long	0x152d
+	.byte	0xb8
+	.uleb128 0x2
+	.long	.LASF233
+	.byte	0x14
+	.byte	0xa0
+	.byte	0x8
+	.long	0xbdf
+	.byte	0xc0
+	.uleb128 0x2
+	.long	.LASF234
+	.byte	0x14
+	.byte	0xa1
+	.byte	0x8
+	.long	0x2ee
+	.byte	0xc8
+	.byte	0
+	.uleb128 0xa
+	.long	.LASF235
+	.byte	0xe
+	.byte	0x25
+	.byte	0x18
+	.long	0xda9
+	.uleb128 0x7
+	.long	0xdae
+	.uleb128 0x11
+	.long	.LASF236
+	.uleb128 0xa
+	.long	.LASF237
+	.byte	0xe
+	.byte	0x26
+	.byte	0x19
+	.long	0xdbf
+	.uleb128 0x7
+	.long	0xdc4
+	.uleb128 0x11
+	.long	.LASF238
+	.uleb128 0xa
+	.long	.LASF239
+	.byte	0xe
+	.byte	0x27
+	.byte	0x18
+	.long	0xdd5
+	.uleb128 0x7
+	.long	0xdda
+	.uleb128 0x11
+	.long	.LASF240
+	.uleb128 0xa
+	.long	.LASF241
+	.byte	0xe
+	.byte	0x28
+	.byte	0x16
+	.long	0xdeb
+	.uleb128 0x7
+	.long	0xdf0
+	.uleb128 0x28
+	.long	.LASF242
+	.byte	0x98
+	.byte	0x15
+	.value	0x4af
+	.long	0x1201
+	.uleb128 0x19
+	.string	"hdr"
+	.byte	0x15
+	.value	0x4b0
+	.byte	0x11
+	.long	0x312c
+	.uleb128 0x5
+	.long	.LASF243
+	.byte	0x15
+	.value	0x4b1
+	.byte	0x11
+	.long	0x31f5
+	.uleb128 0x5
+	.long	.LASF244
+	.byte	0x15
+	.value	0x4b3
+	.byte	0x11
+	.long	0x322f
+	.uleb128 0x5
+	.long	.LASF245
+	.byte	0x15
+	.value	0x4b4
+	.byte	0x12
+	.long	0x324b
+	.uleb128 0x5
+	.long	.LASF246
+	.byte	0x15
+	.value	0x4b5
+	.byte	0x12
+	.long	0x3275
+	.uleb128 0x5
+	.long	.LASF247
+	.byte	0x15
+	.value	0x4b6
+	.byte	0x12
+	.long	0x329f
+	.uleb128 0x5
+	.long	.LASF248
+	.byte	0x15
+	.value	0x4b7
+	.byte	0x12
+	.long	0x32c9
+	.uleb128 0x5
+	.long	.LASF249
+	.byte	0x15
+	.value	0x4b8
+	.byte	0x12
+	.long	0x32f3
+	.uleb128 0x5
+	.long	.LASF250
+	.byte	0x15
+	.value	0x4b9
+	.byte	0x12
+	.long	0x331d
+	.uleb128 0x5
+	.long	.LASF251
+	.byte	0x15
+	.value	0x4ba
+	.byte	0x12
+	.long	0x3347
+	.uleb128 0x5
+	.long	.LASF252
+	.byte	0x15
+	.value	0x4bb
+	.byte	0x12
+	.long	0x3371
+	.uleb128 0x5
+	.long	.LASF253
+	.byte	0x15
+	.value	0x4bc
+	.byte	0x12
+	.long	0x339b
+	.uleb128 0x5
+	.long	.LASF254
+	.byte	0x15
+	.value	0x4bd
+	.byte	0x11
+	.long	0x33c5
+	.uleb128 0x5
+	.long	.LASF255
+	.byte	0x15
+	.value	0x4be
+	.byte	0x11
+	.long	0x33ff
+	.uleb128 0x5
+	.long	.LASF256
+	.byte	0x15
+	.value	0x4bf
+	.byte	0x11
+	.long	0x3447
+	.uleb128 0x5
+	.long	.LASF257
+	.byte	0x15
+	.value	0x4c0
+	.byte	0x12
+	.long	0x348f
+	.uleb128 0x5
+	.long	.LASF258
+	.byte	0x15
+	.value	0x4c1
+	.byte	0x12
+	.long	0x34d5
+	.uleb128 0x5
+	.long	.LASF259
+	.byte	0x15
+	.value	0x4c2
+	.byte	0x12
+	.long	0x35a7
+	.uleb128 0x5
+	.long	.LASF260
+	.byte	0x15
+	.value	0x4c4
+	.byte	0x12
+	.long	0x364e
+	.uleb128 0x5
+	.long	.LASF261
+	.byte	0x15
+	.value	0x4c5
+	.byte	0x13
+	.long	0x35df
+	.uleb128 0x5
+	.long	.LASF262
+	.byte	0x15
+	.value	0x4c6
+	.byte	0x13
+	.long	0x36a1
+	.uleb128 0x5
+	.long	.LASF263
+	.byte	0x15
+	.value	0x4c7
+	.byte	0x14
+	.long	0x36d9
+	.uleb128 0x5
+	.long	.LASF264
+	.byte	0x15
+	.value	0x4c8
+	.byte	0x12
+	.long	0x3703
+	.uleb128 0x5
+	.long	.LASF265
+	.byte	0x15
+	.value	0x4c9
+	.byte	0x12
+	.long	0x372d
+	.uleb128 0x5
+	.long	.LASF266
+	.byte	0x15
+	.value	0x4ca
+	.byte	0x11
+	.long	0x3757
+	.uleb128 0x5
+	.long	.LASF267
+	.byte	0x15
+	.value	0x4cb
+	.byte	0x12
+	.long	0x378f
+	.uleb128 0x5
+	.long	.LASF268
+	.byte	0x15
+	.value	0x4cd
+	.byte	0x11
+	.long	0x37b9
+	.uleb128 0x5
+	.long	.LASF269
+	.byte	0x15
+	.value	0x4ce
+	.byte	0x11
+	.long	0x37e3
+	.uleb128 0x5
+	.long	.LASF270
+	.byte	0x15
+	.value	0x4cf
+	.byte	0x11
+	.long	0x380d
+	.uleb128 0x5
+	.long	.LASF271
+	.byte	0x15
+	.value	0x4d0
+	.byte	0x11
+	.long	0x3845
+	.uleb128 0x5
+	.long	.LASF272
+	.byte	0x15
+	.value	0x4d1
+	.byte	0x13
+	.long	0x3899
+	.uleb128 0x5
+	.long	.LASF273
+	.byte	0x15
+	.value	0x4d2
+	.byte	0x13
+	.long	0x386f
+	.uleb128 0x5
+	.long	.LASF274
+	.byte	0x15
+	.value	0x4d3
+	.byte	0x11
+	.long	0x38c3
+	.uleb128 0x5
+	.long	.LASF275
+	.byte	0x15
+	.value	0x4d4
+	.byte	0x12
+	.long	0x38ed
+	.uleb128 0x5
+	.long	.LASF276
+	.byte	0x15
+	.value	0x4d5
+	.byte	0x12
+	.long	0x3925
+	.uleb128 0x5
+	.long	.LASF277
+	.byte	0x15
+	.value	0x4d6
+	.byte	0x13
+	.long	0x395d
+	.uleb128 0x5
+	.long	.LASF278
+	.byte	0x15
+	.value	0x4d7
+	.byte	0x11
+	.long	0x3987
+	.uleb128 0x5
+	.long	.LASF279
+	.byte	0x15
+	.value	0x4d8
+	.byte	0x13
+	.long	0x39b1
+	.uleb128 0x5
+	.long	.LASF280
+	.byte	0x15
+	.value	0x4d9
+	.byte	0x12
+	.long	0x39db
+	.uleb128 0x5
+	.long	.LASF281
+	.byte	0x15
+	.value	0x4da
+	.byte	0x13
+	.long	0x3a05
+	.uleb128 0x5
+	.long	.LASF282
+	.byte	0x15
+	.value	0x4db
+	.byte	0x15
+	.long	0x3a2f
+	.uleb128 0x5
+	.long	.LASF283
+	.byte	0x15
+	.value	0x4dc
+	.byte	0x13
+	.long	0x3a59
+	.uleb128 0x5
+	.long	.LASF284
+	.byte	0x15
+	.value	0x4dd
+	.byte	0x12
+	.long	0x3a83
+	.uleb128 0x5
+	.long	.LASF285
+	.byte	0x15
+	.value	0x4de
+	.byte	0x12
+	.long	0x3b71
+	.uleb128 0x5
+	.long	.LASF286
+	.byte	0x15
+	.value	0x4df
+	.byte	0x13
+	.long	0x3b01
+	.uleb128 0x5
+	.long	.LASF287
+	.byte	0x15
+	.value	0x4e0
+	.byte	0x13
+	.long	0x3bb7
+	.uleb128 0x5
+	.long	.LASF288
+	.byte	0x15
+	.value	0x4e1
+	.byte	0x13
+	.long	0x3bfd
+	.uleb128 0x5
+	.long	.LASF289
+	.byte	0x15
+	.value	0x4e2
+	.byte	0x12
+	.long	0x3c51
+	.uleb128 0x5
+	.long	.LASF290
+	.byte	0x15
+	.value	0x4e3
+	.byte	0x12
+	.long	0x3ca5
+	.uleb128 0x5
+	.long	.LASF291
+	.byte	0x15
+	.value	0x4e5
+	.byte	0x13
+	.long	0x3ccf
+	.uleb128 0x5
+	.long	.LASF292
+	.byte	0x15
+	.value	0x4e6
+	.byte	0x11
+	.long	0x3cf9
+	.uleb128 0x5
+	.long	.LASF293
+	.byte	0x15
+	.value	0x4e7
+	.byte	0x11
+	.long	0x3d15
+	.uleb128 0x5
+	.long	.LASF294
+	.byte	0x15
+	.value	0x4e8
+	.byte	0x10
+	.long	0x3d4d
+	.uleb128 0x5
+	.long	.LASF295
+	.byte	0x15
+	.value	0x4e9
+	.byte	0x11
+	.long	0x3d85
+	.uleb128 0x5
+	.long	.LASF296
+	.byte	0x15
+	.value	0x4ea
+	.byte	0x14
+	.long	0x4059
+	.uleb128 0x5
+	.long	.LASF297
+	.byte	0x15
+	.value	0x4eb
+	.byte	0x12
+	.long	0x3daf
+	.uleb128 0x5
+	.long	.LASF298
+	.byte	0x15
+	.value	0x4ec
+	.byte	0x12
+	.long	0x3de7
+	.uleb128 0x5
+	.long	.LASF299
+	.byte	0x15
+	.value	0x4ed
+	.byte	0x13
+	.long	0x3ac9
+	.uleb128 0x5
+	.long	.LASF300
+	.byte	0x15
+	.value	0x4ee
+	.byte	0x13
+	.long	0x3e11
+	.uleb128 0x5
+	.long	.LASF301
+	.byte	0x15
+	.value	0x4ef
+	.byte	0x12
+	.long	0x3e49
+	.uleb128 0x5
+	.long	.LASF302
+	.byte	0x15
+	.value	0x4f0
+	.byte	0x13
+	.long	0x3e81
+	.uleb128 0x5
+	.long	.LASF303
+	.byte	0x15
+	.value	0x4f1
+	.byte	0x13
+	.long	0x3ed4
+	.uleb128 0x5
+	.long	.LASF304
+	.byte	0x15
+	.value	0x4f2
+	.byte	0x13
+	.long	0x3f0b
+	.uleb128 0x5
+	.long	.LASF305
+	.byte	0x15
+	.value	0x4f3
+	.byte	0x13
+	.long	0x3f50
+	.uleb128 0x5
+	.long	.LASF306
+	.byte	0x15
+	.value	0x4f4
+	.byte	0x14
+	.long	0x3fa3
+	.uleb128 0x5
+	.long	.LASF307
+	.byte	0x15
+	.value	0x4f5
+	.byte	0x14
+	.long	0x3ff7
+	.uleb128 0x5
+	.long	.LASF308
+	.byte	0x15
+	.value	0x4f6
+	.byte	0x15
+	.long	0x40c8
+	.uleb128 0x5
+	.long	.LASF309
+	.byte	0x15
+	.value	0x4f7
+	.byte	0x14
+	.long	0x4100
+	.uleb128 0x5
+	.long	.LASF310
+	.byte	0x15
+	.value	0x4f8
+	.byte	0x12
+	.long	0x411c
+	.uleb128 0x5
+	.long	.LASF311
+	.byte	0x15
+	.value	0x4f9
+	.byte	0x13
+	.long	0x3b47
+	.uleb128 0x5
+	.long	.LASF312
+	.byte	0x15
+	.value	0x4fa
+	.byte	0x14
+	.long	0x4154
+	.uleb128 0x5
+	.long	.LASF313
+	.byte	0x15
+	.value	0x4fc
+	.byte	0x12
+	.long	0x4090
+	.uleb128 0x5
+	.long	.LASF314
+	.byte	0x15
+	.value	0x4fe
+	.byte	0x12
+	.long	0x417e
+	.uleb128 0x5
+	.long	.LASF315
+	.byte	0x15
+	.value	0x4ff
+	.byte	0x12
+	.long	0x41a8
+	.uleb128 0x5
+	.long	.LASF316
+	.byte	0x15
+	.value	0x500
+	.byte	0x12
+	.long	0x41d2
+	.uleb128 0x5
+	.long	.LASF317
+	.byte	0x15
+	.value	0x501
+	.byte	0x13
+	.long	0x41fc
+	.uleb128 0x5
+	.long	.LASF318
+	.byte	0x15
+	.value	0x502
+	.byte	0x13
+	.long	0x4234
+	.uleb128 0x5
+	.long	.LASF319
+	.byte	0x15
+	.value	0x503
+	.byte	0x15
+	.long	0x426c
+	.uleb128 0x5
+	.long	.LASF320
+	.byte	0x15
+	.value	0x504
+	.byte	0x14
+	.long	0x42b2
+	.byte	0
+	.uleb128 0x27
+	.string	"Lib"
+	.byte	0x2a
+	.long	0x120b
+	.uleb128 0x7
+	.long	0x1210
+	.uleb128 0x32
+	.string	"lib"
+	.value	0x308
+	.byte	0x16
+	.byte	0x63
+	.byte	0x8
+	.long	0x13bf
+	.uleb128 0x2
+	.long	.LASF321
+	.byte	0x16
+	.byte	0x64
+	.byte	0xb
+	.long	0x4e2
+	.byte	0
+	.uleb128 0x2
+	.long	.LASF322
+	.byte	0x16
+	.byte	0x65
+	.byte	0xa
+	.long	0x13bf
+	.byte	0x8
+	.uleb128 0x2
+	.long	.LASF323
+	.byte	0x16
+	.byte	0x66
+	.byte	0x8
+	.long	0x2d4
+	.byte	0x10
+	.uleb128 0x2
+	.long	.LASF324
+	.byte	0x16
+	.byte	0x67
+	.byte	0x8
+	.long	0x2d4
+	.byte	0x11
+	.uleb128 0x2
+	.long	.LASF325
+	.byte	0x16
+	.byte	0x68
+	.byte	0x8
+	.long	0x2d4
+	.byte	0x12
+	.uleb128 0x2
+	.long	.LASF326
+	.byte	0x16
+	.byte	0x69
+	.byte	0x9
+	.long	0x356
+	.byte	0x18
+	.uleb128 0x2
+	.long	.LASF327
+	.byte	0x16
+	.byte	0x6a
+	.byte	0x9
+	.long	0x2c3
+	.byte	0x20
+	.uleb128 0x2
+	.long	.LASF328
+	.byte	0x16
+	.byte	0x6b
+	.byte	0x9
+	.long	0x33c
+	.byte	0x28
+	.uleb128 0x2
+	.long	.LASF186
+	.byte	0x16
+	.byte	0x6c
+	.byte	0x7
+	.long	0xb32
+	.byte	0x30
+	.uleb128 0x2
+	.long	.LASF190
+	.byte	0x16
+	.byte	0x6d
+	.byte	0x7
+	.long	0x14de
+	.byte	0x38
+	.uleb128 0x2
+	.long	.LASF329
+	.byte	0x16
+	.byte	0x70
+	.byte	0x9
+	.long	0x2e1
+	.byte	0x40
+	.uleb128 0x2
+	.long	.LASF330
+	.byte	0x16
+	.byte	0x71
+	.byte	0x9
+	.long	0x2e1
+	.byte	0x42
+	.uleb128 0x2
+	.long	.LASF331
+	.byte	0x16
+	.byte	0x72
+	.byte	0x9
+	.long	0x1d49
+	.byte	0x48
+	.uleb128 0x2
+	.long	.LASF221
+	.byte	0x16
+	.byte	0x73
+	.byte	0xb
+	.long	0x1d3d
+	.byte	0x50
+	.uleb128 0x2
+	.long	.LASF332
+	.byte	0x16
+	.byte	0x74
+	.byte	0xa
+	.long	0x499d
+	.byte	0x58
+	.uleb128 0x2
+	.long	.LASF333
+	.byte	0x16
+	.byte	0x75
+	.byte	0xb
+	.long	0x49a2
+	.byte	0x60
+	.uleb128 0x2
+	.long	.LASF334
+	.byte	0x16
+	.byte	0x76
+	.byte	0xb
+	.long	0x1d3d
+	.byte	0x68
+	.uleb128 0x2
+	.long	.LASF335
+	.byte	0x16
+	.byte	0x79
+	.byte	0x8
+	.long	0x2ee
+	.byte	0x70
+	.uleb128 0x2
+	.long	.LASF336
+	.byte	0x16
+	.byte	0x7a
+	.byte	0xa
+	.long	0x1c60
+	.byte	0x78
+	.uleb128 0x2
+	.long	.LASF337
+	.byte	0x16
+	.byte	0x7b
+	.byte	0xc
+	.long	0x1c54
+	.byte	0x80
+	.uleb128 0x2
+	.long	.LASF338
+	.byte	0x16
+	.byte	0x7c
+	.byte	0x8
+	.long	0x4dd
+	.byte	0x88
+	.uleb128 0x2
+	.long	.LASF339
+	.byte	0x16
+	.byte	0x7d
+	.byte	0x9
+	.long	0x397
+	.byte	0x90
+	.uleb128 0x2
+	.long	.LASF340
+	.byte	0x16
+	.byte	0x80
+	.byte	0x9
+	.long	0x32f
+	.byte	0x98
+	.uleb128 0x2
+	.long	.LASF341
+	.byte	0x16
+	.byte	0x81
+	.byte	0x9
+	.long	0x1d4e
+	.byte	0xa0
+	.uleb128 0x2
+	.long	.LASF342
+	.byte	0x16
+	.byte	0x82
+	.byte	0x8
+	.long	0x4dd
+	.byte	0xa8
+	.uleb128 0x2
+	.long	.LASF343
+	.byte	0x16
+	.byte	0x83
+	.byte	0x9
+	.long	0x397
+	.byte	0xb0
+	.uleb128 0xe
+	.string	"pos"
+	.byte	0x16
+	.byte	0x84
+	.byte	0x9
+	.long	0x397
+	.byte	0xb8
+	.uleb128 0x2
+	.long	.LASF344
+	.byte	0x16
+	.byte	0x85
+	.byte	0x9
+	.long	0x397
+	.byte	0xc0
+	.uleb128 0x2
+	.long	.LASF345
+	.byte	0x16
+	.byte	0x86
+	.byte	0x7
+	.long	0xddf
+	.byte	0xc8
+	.uleb128 0x2
+	.long	.LASF346
+	.byte	0x16
+	.byte	0x87
+	.byte	0x7
+	.long	0xddf
+	.byte	0xd0
+	.uleb128 0x2
+	.long	.LASF347
+	.byte	0x16
+	.byte	0x89
+	.byte	0x8
+	.long	0x653
+	.byte	0xd8
+	.uleb128 0xe
+	.string	"hdr"
+	.byte	0x16
+	.byte	0x8b
+	.byte	0x10
+	.long	0x491f
+	.byte	0xe0
+	.byte	0
+	.uleb128 0xa
+	.long	.LASF348
+	.byte	0xe
+	.byte	0x2c
+	.byte	0x1b
+	.long	0x13cb
+	.uleb128 0x7
+	.long	0x13d0
+	.uleb128 0x11
+	.long	.LASF349
+	.uleb128 0xa
+	.long	.LASF350
+	.byte	0xe
+	.byte	0x2e
+	.byte	0x1c
+	.long	0x13e1
+	.uleb128 0x7
+	.long	0x13e6
+	.uleb128 0xd
+	.long	.LASF351
+	.byte	0x80
+	.byte	0x17
+	.byte	0x3d
+	.byte	0x8
+	.long	0x14de
+	.uleb128 0x2
+	.long	.LASF352
+	.byte	0x17
+	.byte	0x3e
+	.byte	0x8
+	.long	0x2ee
+	.byte	0
+	.uleb128 0x2
+	.long	.LASF353
+	.byte	0x17
+	.byte	0x3f
+	.byte	0x8
+	.long	0x2ee
+	.byte	0x8
+	.uleb128 0x2
+	.long	.LASF188
+	.byte	0x17
+	.byte	0x40
+	.byte	0x8
+	.long	0x2ee
+	.byte	0x10
+	.uleb128 0x2
+	.long	.LASF202
+	.byte	0x17
+	.byte	0x41
+	.byte	0x7
+	.long	0x322
+	.byte	0x18
+	.uleb128 0x2
+	.long	.LASF354
+	.byte	0x17
+	.byte	0x42
+	.byte	0x8
+	.long	0x2d4
+	.byte	0x20
+	.uleb128 0x2
+	.long	.LASF355
+	.byte	0x17
+	.byte	0x43
+	.byte	0x8
+	.long	0x2d4
+	.byte	0x21
+	.uleb128 0x2
+	.long	.LASF356
+	.byte	0x17
+	.byte	0x44
+	.byte	0x8
+	.long	0x2d4
+	.byte	0x22
+	.uleb128 0x2
+	.long	.LASF216
+	.byte	0x17
+	.byte	0x45
+	.byte	0x9
+	.long	0x2e1
+	.byte	0x24
+	.uleb128 0xe
+	.string	"tbl"
+	.byte	0x17
+	.byte	0x46
+	.byte	0x8
+	.long	0x583
+	.byte	0x28
+	.uleb128 0x2
+	.long	.LASF357
+	.byte	0x17
+	.byte	0x47
+	.byte	0xb
+	.long	0x1d04
+	.byte	0x30
+	.uleb128 0x2
+	.long	.LASF89
+	.byte	0x17
+	.byte	0x48
+	.byte	0x9
+	.long	0x50e
+	.byte	0x38
+	.uleb128 0x2
+	.long	.LASF358
+	.byte	0x17
+	.byte	0x49
+	.byte	0xd
+	.long	0x15d4
+	.byte	0x40
+	.uleb128 0x2
+	.long	.LASF359
+	.byte	0x17
+	.byte	0x4a
+	.byte	0xc
+	.long	0x160d
+	.byte	0x48
+	.uleb128 0x2
+	.long	.LASF360
+	.byte	0x17
+	.byte	0x4f
+	.byte	0x4
+	.long	0x4c53
+	.byte	0x50
+	.uleb128 0x2
+	.long	.LASF361
+	.byte	0x17
+	.byte	0x51
+	.byte	0xc
+	.long	0x1c54
+	.byte	0x60
+	.uleb128 0x2
+	.long	.LASF362
+	.byte	0x17
+	.byte	0x52
+	.byte	0xb
+	.long	0x1d3d
+	.byte	0x68
+	.uleb128 0x2
+	.long	.LASF363
+	.byte	0x17
+	.byte	0x53
+	.byte	0xb
+	.long	0x1d3d
+	.byte	0x70
+	.uleb128 0x2
+	.long	.LASF364
+	.byte	0x17
+	.byte	0x54
+	.byte	0x8
+	.long	0x583
+	.byte	0x78
+	.byte	0
+	.uleb128 0xa
+	.long	.LASF365
+	.byte	0xe
+	.byte	0x2f
+	.byte	0x24
+	.long	0x14ea
+	.uleb128 0x7
+	.long	0x14ef
+	.uleb128 0xd
+	.long	.LASF366
+	.byte	0x10
+	.byte	0xe
+	.byte	0x56
+	.byte	0x10
+	.long	0x1517
+	.uleb128 0x2
+	.long	.LASF367
+	.byte	0xe
+	.byte	0x56
+	.byte	0x2e
+	.long	0x13d5
+	.byte	0
+	.uleb128 0x2
+	.long	.LASF90
+	.byte	0xe
+	.byte	0x56
+	.byte	0x4f
+	.long	0x14ea
+	.byte	0x8
+	.byte	0
+	.uleb128 0xa
+	.long	.LASF368
+	.byte	0xe
+	.byte	0x30
+	.byte	0x1a
+	.long	0x1523
+	.uleb128 0x7
+	.long	0x1528
+	.uleb128 0x11
+	.long	.LASF369
+	.uleb128 0xa
+	.long	.LASF370
+	.byte	0xe
+	.byte	0x35
+	.byte	0xf
+	.long	0x2ee
+	.uleb128 0xa
+	.long	.LASF371
+	.byte	0xe
+	.byte	0x37
+	.byte	0x1a
+	.long	0x1545
+	.uleb128 0x7
+	.long	0x154a
+	.uleb128 0x11
+	.long	.LASF372
+	.uleb128 0xa
+	.long	.LASF373
+	.byte	0xe
+	.byte	0x38
+	.byte	0x1b
+	.long	0x155b
+	.uleb128 0x7
+	.long	0x1560
+	.uleb128 0x11
+	.long	.LASF374
+	.uleb128 0xa
+	.long	.LASF375
+	.byte	0xe
+	.byte	0x39
+	.byte	0x1b
+	.long	0x1571
+	.uleb128 0x7
+	.long	0x1576
+	.uleb128 0x11
+	.long	.LASF376
+	.uleb128 0xa
+	.long	.LASF377
+	.byte	0xe
+	.byte	0x3a
+	.byte	0x18
+	.long	0x1587
+	.uleb128 0x7
+	.long	0x158c
+	.uleb128 0x33
+	.long	.LASF750
+	.uleb128 0xa
+	.long	.LASF378
+	.byte	0xe
+	.byte	0x3d
+	.byte	0x22
+	.long	0x159d
+	.uleb128 0x7
+	.long	0x15a2
+	.uleb128 0x11
+	.long	.LASF379
+	.uleb128 0xd
+	.long	.LASF380
+	.byte	0x10
+	.byte	0xe
+	.byte	0x49
+	.byte	0x10
+	.long	0x15cf
+	.uleb128 0x2
+	.long	.LASF367
+	.byte	0xe
+	.byte	0x49
+	.byte	0x28
+	.long	0x606
+	.byte	0
+	.uleb128 0x2
+	.long	.LASF90
+	.byte	0xe
+	.byte	0x49
+	.byte	0x46
+	.long	0x15cf
+	.byte	0x8
+	.byte	0
+	.uleb128 0x7
+	.long	0x15a7
+	.uleb128 0xa
+	.long	.LASF381
+	.byte	0xe
+	.byte	0x49
+	.byte	0x4f
+	.long	0x15cf
+	.uleb128 0xd
+	.long	.LASF382
+	.byte	0x10
+	.byte	0xe
+	.byte	0x4f
+	.byte	0x10
+	.long	0x1608
+	.uleb128 0x2
+	.long	.LASF367
+	.byte	0xe
+	.byte	0x4f
+	.byte	0x26
+	.long	0x653
+	.byte	0
+	.uleb128 0x2
+	.long	.LASF90
+	.byte	0xe
+	.byte	0x4f
+	.byte	0x43
+	.long	0x1608
+	.byte	0x8
+	.byte	0
+	.uleb128 0x7
+	.long	0x15e0
+	.uleb128 0xa
+	.long	.LASF383
+	.byte	0xe
+	.byte	0x4f
+	.byte	0x4c
+	.long	0x1608
+	.uleb128 0x22
+	.long	.LASF384
+	.value	0x140
+	.byte	0xe
+	.byte	0x4f
+	.byte	0x5e
+	.long	0x185c
+	.uleb128 0x2
+	.long	.LASF385
+	.byte	0xe
+	.byte	0x4f
+	.byte	0x80
+	.long	0x1875
+	.byte	0
+	.uleb128 0x2
+	.long	.LASF386
+	.byte	0xe
+	.byte	0x4f
+	.byte	0xa6
+	.long	0x1889
+	.byte	0x8
+	.uleb128 0x2
+	.long	.LASF387
+	.byte	0xe
+	.byte	0x4f
+	.byte	0xc6
+	.long	0x189e
+	.byte	0x10
+	.uleb128 0x2
+	.long	.LASF388
+	.byte	0xe
+	.byte	0x4f
+	.byte	0xe6
+	.long	0x18b2
+	.byte	0x18
+	.uleb128 0xb
+	.long	.LASF389
+	.byte	0xe
+	.byte	0x4f
+	.value	0x109
+	.long	0x18c7
+	.byte	0x20
+	.uleb128 0xb
+	.long	.LASF390
+	.byte	0xe
+	.byte	0x4f
+	.value	0x128
+	.long	0x18fe
+	.byte	0x28
+	.uleb128 0xb
+	.long	.LASF391
+	.byte	0xe
+	.byte	0x4f
+	.value	0x169
+	.long	0x1921
+	.byte	0x30
+	.uleb128 0xb
+	.long	.LASF392
+	.byte	0xe
+	.byte	0x4f
+	.value	0x1af
+	.long	0x1935
+	.byte	0x38
+	.uleb128 0xb
+	.long	.LASF393
+	.byte	0xe
+	.byte	0x4f
+	.value	0x1cd
+	.long	0x1945
+	.byte	0x40
+	.uleb128 0xb
+	.long	.LASF394
+	.byte	0xe
+	.byte	0x4f
+	.value	0x1ec
+	.long	0x195e
+	.byte	0x48
+	.uleb128 0xb
+	.long	.LASF395
+	.byte	0xe
+	.byte	0x4f
+	.value	0x213
+	.long	0x1983
+	.byte	0x50
+	.uleb128 0xb
+	.long	.LASF396
+	.byte	0xe
+	.byte	0x4f
+	.value	0x24a
+	.long	0x19a1
+	.byte	0x58
+	.uleb128 0xb
+	.long	.LASF397
+	.byte	0xe
+	.byte	0x4f
+	.value	0x290
+	.long	0x19d3
+	.byte	0x60
+	.uleb128 0x1d
+	.string	"Elt"
+	.byte	0xe
+	.byte	0x4f
+	.value	0x2d4
+	.long	0x19ec
+	.byte	0x68
+	.uleb128 0xb
+	.long	.LASF398
+	.byte	0xe
+	.byte	0x4f
+	.value	0x2fa
+	.long	0x1a05
+	.byte	0x70
+	.uleb128 0xb
+	.long	.LASF399
+	.byte	0xe
+	.byte	0x4f
+	.value	0x321
+	.long	0x1935
+	.byte	0x78
+	.uleb128 0xb
+	.long	.LASF400
+	.byte	0xe
+	.byte	0x4f
+	.value	0x341
+	.long	0x1a19
+	.byte	0x80
+	.uleb128 0xb
+	.long	.LASF401
+	.byte	0xe
+	.byte	0x4f
+	.value	0x35e
+	.long	0x1a32
+	.byte	0x88
+	.uleb128 0xb
+	.long	.LASF402
+	.byte	0xe
+	.byte	0x4f
+	.value	0x384
+	.long	0x1a32
+	.byte	0x90
+	.uleb128 0xb
+	.long	.LASF403
+	.byte	0xe
+	.byte	0x4f
+	.value	0x3ab
+	.long	0x1a32
+	.byte	0x98
+	.uleb128 0xb
+	.long	.LASF404
+	.byte	0xe
+	.byte	0x4f
+	.value	0x3d6
+	.long	0x1935
+	.byte	0xa0
+	.uleb128 0xb
+	.long	.LASF405
+	.byte	0xe
+	.byte	0x4f
+	.value	0x3f5
+	.long	0x195e
+	.byte	0xa8
+	.uleb128 0xb
+	.long	.LASF406
+	.byte	0xe
+	.byte	0x4f
+	.value	0x421
+	.long	0x1a5f
+	.byte	0xb0
+	.uleb128 0xb
+	.long	.LASF407
+	.byte	0xe
+	.byte	0x4f
+	.value	0x458
+	.long	0x1a7d
+	.byte	0xb8
+	.uleb128 0x1d
+	.string	"Map"
+	.byte	0xe
+	.byte	0x4f
+	.value	0x49c
+	.long	0x1a96
+	.byte	0xc0
+	.uleb128 0xb
+	.long	.LASF408
+	.byte	0xe
+	.byte	0x4f
+	.value	0x4cd
+	.long	0x1a96
+	.byte	0xc8
+	.uleb128 0xb
+	.long	.LASF409
+	.byte	0xe
+	.byte	0x4f
+	.value	0x4ff
+	.long	0x1935
+	.byte	0xd0
+	.uleb128 0xb
+	.long	.LASF410
+	.byte	0xe
+	.byte	0x4f
+	.value	0x521
+	.long	0x1935
+	.byte	0xd8
+	.uleb128 0xb
+	.long	.LASF411
+	.byte	0xe
+	.byte	0x4f
+	.value	0x544
+	.long	0x195e
+	.byte	0xe0
+	.uleb128 0xb
+	.long	.LASF412
+	.byte	0xe
+	.byte	0x4f
+	.value	0x570
+	.long	0x195e
+	.byte	0xe8
+	.uleb128 0xb
+	.long	.LASF413
+	.byte	0xe
+	.byte	0x4f
+	.value	0x598
+	.long	0x1aaf
+	.byte	0xf0
+	.uleb128 0xb
+	.long	.LASF414
+	.byte	0xe
+	.byte	0x4f
+	.value	0x5b9
+	.long	0x1acd
+	.byte	0xf8
+	.uleb128 0x10
+	.long	.LASF415
+	.byte	0xe
+	.byte	0x4f
+	.value	0x5f5
+	.long	0x1ae6
+	.value	0x100
+	.uleb128 0x10
+	.long	.LASF416
+	.byte	0xe
+	.byte	0x4f
+	.value	0x621
+	.long	0x1aff
+	.value	0x108
+	.uleb128 0x10
+	.long	.LASF417
+	.byte	0xe
+	.byte	0x4f
+	.value	0x641
+	.long	0x1b1d
+	.value	0x110
+	.uleb128 0x10
+	.long	.LASF418
+	.byte	0xe
+	.byte	0x4f
+	.value	0x684
+	.long	0x1b3b
+	.value	0x118
+	.uleb128 0x10
+	.long	.LASF419
+	.byte	0xe
+	.byte	0x4f
+	.value	0x6c1
+	.long	0x1b55
+	.value	0x120
+	.uleb128 0x10
+	.long	.LASF420
+	.byte	0xe
+	.byte	0x4f
+	.value	0x6e9
+	.long	0x1b8c
+	.value	0x128
+	.uleb128 0x10
+	.long	.LASF421
+	.byte	0xe
+	.byte	0x4f
+	.value	0x726
+	.long	0x1bb9
+	.value	0x130
+	.uleb128 0x10
+	.long	.LASF422
+	.byte	0xe
+	.byte	0x4f
+	.value	0x77c
+	.long	0x1bd7
+	.value	0x138
+	.byte	0
+	.uleb128 0x21
+	.long	0x1619
+	.uleb128 0x9
+	.long	0x160d
+	.long	0x1875
+	.uleb128 0x4
+	.long	0x653
+	.uleb128 0x4
+	.long	0x160d
+	.byte	0
+	.uleb128 0x7
+	.long	0x1861
+	.uleb128 0x9
+	.long	0x160d
+	.long	0x1889
+	.uleb128 0x4
+	.long	0x653
+	.byte	0
+	.uleb128 0x7
+	.long	0x187a
+	.uleb128 0x9
+	.long	0x160d
+	.long	0x189e
+	.uleb128 0x4
+	.long	0x2e
+	.uleb128 0x18
+	.byte	0
+	.uleb128 0x7
+	.long	0x188e
+	.uleb128 0x9
+	.long	0x160d
+	.long	0x18b2
+	.uleb128 0x4
+	.long	0x4d8
+	.byte	0
+	.uleb128 0x7
+	.long	0x18a3
+	.uleb128 0x9
+	.long	0x160d
+	.long	0x18c7
+	.uleb128 0x4
+	.long	0x653
+	.uleb128 0x18
+	.byte	0
+	.uleb128 0x7
+	.long	0x18b7
+	.uleb128 0x9
+	.long	0x315
+	.long	0x18e5
+	.uleb128 0x4
+	.long	0x160d
+	.uleb128 0x4
+	.long	0x160d
+	.uleb128 0x4
+	.long	0x18e5
+	.byte	0
+	.uleb128 0x7
+	.long	0x18ea
+	.uleb128 0x9
+	.long	0x315
+	.long	0x18fe
+	.uleb128 0x4
+	.long	0x653
+	.uleb128 0x4
+	.long	0x653
+	.byte	0
+	.uleb128 0x7
+	.long	0x18cc
+	.uleb128 0x9
+	.long	0x653
+	.long	0x1921
+	.uleb128 0x4
+	.long	0x160d
+	.uleb128 0x4
+	.long	0x653
+	.uleb128 0x4
+	.long	0x18e5
+	.uleb128 0x4
+	.long	0x4dd
+	.byte	0
+	.uleb128 0x7
+	.long	0x1903
+	.uleb128 0x9
+	.long	0x160d
+	.long	0x1935
+	.uleb128 0x4
+	.long	0x160d
+	.byte	0
+	.uleb128 0x7
+	.long	0x1926
+	.uleb128 0x17
+	.long	0x1945
+	.uleb128 0x4
+	.long	0x160d
+	.byte	0
+	.uleb128 0x7
+	.long	0x193a
+	.uleb128 0x9
+	.long	0x160d
+	.long	0x195e
+	.uleb128 0x4
+	.long	0x160d
+	.uleb128 0x4
+	.long	0x160d
+	.byte	0
+	.uleb128 0x7
+	.long	0x194a
+	.uleb128 0x17
+	.long	0x1973
+	.uleb128 0x4
+	.long	0x160d
+	.uleb128 0x4
+	.long	0x1973
+	.byte	0
+	.uleb128 0x7
+	.long	0x1978
+	.uleb128 0x17
+	.long	0x1983
+	.uleb128 0x4
+	.long	0x653
+	.byte	0
+	.uleb128 0x7
+	.long	0x1963
+	.uleb128 0x9
+	.long	0x160d
+	.long	0x19a1
+	.uleb128 0x4
+	.long	0x160d
+	.uleb128 0x4
+	.long	0x160d
+	.uleb128 0x4
+	.long	0x1973
+	.byte	0
+	.uleb128 0x7
+	.long	0x1988
+	.uleb128 0x9
+	.long	0x160d
+	.long	0x19bf
+	.uleb128 0x4
+	.long	0x160d
+	.uleb128 0x4
+	.long	0x1973
+	.uleb128 0x4
+	.long	0x19bf
+	.byte	0
+	.uleb128 0x7
+	.long	0x19c4
+	.uleb128 0x9
+	.long	0x315
+	.long	0x19d3
+	.uleb128 0x4
+	.long	0x653
+	.byte	0
+	.uleb128 0x7
+	.long	0x19a6
+	.uleb128 0x9
+	.long	0x653
+	.long	0x19ec
+	.uleb128 0x4
+	.long	0x160d
+	.uleb128 0x4
+	.long	0x32f
+	.byte	0
+	.uleb128 0x7
+	.long	0x19d8
+	.uleb128 0x9
+	.long	0x160d
+	.long	0x1a05
+	.uleb128 0x4
+	.long	0x160d
+	.uleb128 0x4
+	.long	0x32f
+	.byte	0
+	.uleb128 0x7
+	.long	0x19f1
+	.uleb128 0x9
+	.long	0x32f
+	.long	0x1a19
+	.uleb128 0x4
+	.long	0x160d
+	.byte	0
+	.uleb128 0x7
+	.long	0x1a0a
+	.uleb128 0x9
+	.long	0x315
+	.long	0x1a32
+	.uleb128 0x4
+	.long	0x160d
+	.uleb128 0x4
+	.long	0x32f
+	.byte	0
+	.uleb128 0x7
+	.long	0x1a1e
+	.uleb128 0x9
+	.long	0x160d
+	.long	0x1a4b
+	.uleb128 0x4
+	.long	0x160d
+	.uleb128 0x4
+	.long	0x1a4b
+	.byte	0
+	.uleb128 0x7
+	.long	0x1a50
+	.uleb128 0x9
+	.long	0x653
+	.long	0x1a5f
+	.uleb128 0x4
+	.long	0x653
+	.byte	0
+	.uleb128 0x7
+	.long	0x1a37
+	.uleb128 0x9
+	.long	0x160d
+	.long	0x1a7d
+	.uleb128 0x4
+	.long	0x160d
+	.uleb128 0x4
+	.long	0x160d
+	.uleb128 0x4
+	.long	0x1a4b
+	.byte	0
+	.uleb128 0x7
+	.long	0x1a64
+	.uleb128 0x9
+	.long	0x160d
+	.long	0x1a96
+	.uleb128 0x4
+	.long	0x1a4b
+	.uleb128 0x4
+	.long	0x160d
+	.byte	0
+	.uleb128 0x7
+	.long	0x1a82
+	.uleb128 0x9
+	.long	0x315
+	.long	0x1aaf
+	.uleb128 0x4
+	.long	0x160d
+	.uleb128 0x4
+	.long	0x653
+	.byte	0
+	.uleb128 0x7
+	.long	0x1a9b
+	.uleb128 0x9
+	.long	0x315
+	.long	0x1acd
+	.uleb128 0x4
+	.long	0x160d
+	.uleb128 0x4
+	.long	0x653
+	.uleb128 0x4
+	.long	0x18e5
+	.byte	0
+	.uleb128 0x7
+	.long	0x1ab4
+	.uleb128 0x9
+	.long	0x315
+	.long	0x1ae6
+	.uleb128 0x4
+	.long	0x160d
+	.uleb128 0x4
+	.long	0x160d
+	.byte	0
+	.uleb128 0x7
+	.long	0x1ad2
+	.uleb128 0x9
+	.long	0x2e
+	.long	0x1aff
+	.uleb128 0x4
+	.long	0x160d
+	.uleb128 0x4
+	.long	0x653
+	.byte	0
+	.uleb128 0x7
+	.long	0x1aeb
+	.uleb128 0x9
+	.long	0x2e
+	.long	0x1b1d
+	.uleb128 0x4
+	.long	0x160d
+	.uleb128 0x4
+	.long	0x653
+	.uleb128 0x4
+	.long	0x18e5
+	.byte	0
+	.uleb128 0x7
+	.long	0x1b04
+	.uleb128 0x9
+	.long	0x160d
+	.long	0x1b3b
+	.uleb128 0x4
+	.long	0x160d
+	.uleb128 0x4
+	.long	0x653
+	.uleb128 0x4
+	.long	0x18e5
+	.byte	0
+	.uleb128 0x7
+	.long	0x1b22
+	.uleb128 0x17
+	.long	0x1b50
+	.uleb128 0x4
+	.long	0x1b50
+	.uleb128 0x4
+	.long	0x160d
+	.byte	0
+	.uleb128 0x7
+	.long	0x653
+	.uleb128 0x7
+	.long	0x1b40
+	.uleb128 0x9
+	.long	0x2e
+	.long	0x1b73
+	.uleb128 0x4
+	.long	0x2c3
+	.uleb128 0x4
+	.long	0x160d
+	.uleb128 0x4
+	.long	0x1b73
+	.byte	0
+	.uleb128 0x7
+	.long	0x1b78
+	.uleb128 0x9
+	.long	0x2e
+	.long	0x1b8c
+	.uleb128 0x4
+	.long	0x2c3
+	.uleb128 0x4
+	.long	0x653
+	.byte	0
+	.uleb128 0x7
+	.long	0x1b5a
+	.uleb128 0x9
+	.long	0x2e
+	.long	0x1bb9
+	.uleb128 0x4
+	.long	0x2c3
+	.uleb128 0x4
+	.long	0x160d
+	.uleb128 0x4
+	.long	0x1b73
+	.uleb128 0x4
+	.long	0x80
+	.uleb128 0x4
+	.long	0x80
+	.uleb128 0x4
+	.long	0x80
+	.byte	0
+	.uleb128 0x7
+	.long	0x1b91
+	.uleb128 0x9
+	.long	0x2e
+	.long	0x1bd7
+	.uleb128 0x4
+	.long	0x3d2
+	.uleb128 0x4
+	.long	0x363
+	.uleb128 0x4
+	.long	0x160d
+	.byte	0
+	.uleb128 0x7
+	.long	0x1bbe
+	.uleb128 0x29
+	.long	.LASF437
+	.byte	0xe
+	.byte	0x4f
+	.value	0x7cf
+	.long	0x1be9
+	.uleb128 0x7
+	.long	0x185c
+	.uleb128 0xd
+	.long	.LASF423
+	.byte	0x10
+	.byte	0xe
+	.byte	0x50
+	.byte	0x10
+	.long	0x1c16
+	.uleb128 0x2
+	.long	.LASF367
+	.byte	0xe
+	.byte	0x50
+	.byte	0x28
+	.long	0xa33
+	.byte	0
+	.uleb128 0x2
+	.long	.LASF90
+	.byte	0xe
+	.byte	0x50
+	.byte	0x46
+	.long	0x1c16
+	.byte	0x8
+	.byte	0
+	.uleb128 0x7
+	.long	0x1bee
+	.uleb128 0xa
+	.long	.LASF424
+	.byte	0xe
+	.byte	0x50
+	.byte	0x4f
+	.long	0x1c16
+	.uleb128 0xd
+	.long	.LASF425
+	.byte	0x10
+	.byte	0xe
+	.byte	0x52
+	.byte	0x10
+	.long	0x1c4f
+	.uleb128 0x2
+	.long	.LASF367
+	.byte	0xe
+	.byte	0x52
+	.byte	0x26
+	.long	0xbdf
+	.byte	0
+	.uleb128 0x2
+	.long	.LASF90
+	.byte	0xe
+	.byte	0x52
+	.byte	0x43
+	.long	0x1c4f
+	.byte	0x8
+	.byte	0
+	.uleb128 0x7
+	.long	0x1c27
+	.uleb128 0xa
+	.long	.LASF426
+	.byte	0xe
+	.byte	0x52
+	.byte	0x4c
+	.long	0x1c4f
+	.uleb128 0x7
+	.long	0xbdf
+	.uleb128 0xd
+	.long	.LASF427
+	.byte	0x10
+	.byte	0xe
+	.byte	0x53
+	.byte	0x10
+	.long	0x1c8d
+	.uleb128 0x2
+	.long	.LASF367
+	.byte	0xe
+	.byte	0x53
+	.byte	0x28
+	.long	0xdb3
+	.byte	0
+	.uleb128 0x2
+	.long	.LASF90
+	.byte	0xe
+	.byte	0x53
+	.byte	0x46
+	.long	0x1c8d
+	.byte	0x8
+	.byte	0
+	.uleb128 0x7
+	.long	0x1c65
+	.uleb128 0xa
+	.long	.LASF428
+	.byte	0xe
+	.byte	0x53
+	.byte	0x4f
+	.long	0x1c8d
+	.uleb128 0xd
+	.long	.LASF429
+	.byte	0x10
+	.byte	0xe
+	.byte	0x54
+	.byte	0x10
+	.long	0x1cc6
+	.uleb128 0x2
+	.long	.LASF367
+	.byte	0xe
+	.byte	0x54
+	.byte	0x26
+	.long	0xdc9
+	.byte	0
+	.uleb128 0x2
+	.long	.LASF90
+	.byte	0xe
+	.byte	0x54
+	.byte	0x43
+	.long	0x1cc6
+	.byte	0x8
+	.byte	0
+	.uleb128 0x7
+	.long	0x1c9e
+	.uleb128 0xa
+	.long	.LASF430
+	.byte	0xe
+	.byte	0x54
+	.byte	0x4c
+	.long	0x1cc6
+	.uleb128 0xd
+	.long	.LASF431
+	.byte	0x10
+	.byte	0xe
+	.byte	0x55
+	.byte	0x10
+	.long	0x1cff
+	.uleb128 0x2
+	.long	.LASF367
+	.byte	0xe
+	.byte	0x55
+	.byte	0x24
+	.long	0x14de
+	.byte	0
+	.uleb128 0x2
+	.long	.LASF90
+	.byte	0xe
+	.byte	0x55
+	.byte	0x40
+	.long	0x1cff
+	.byte	0x8
+	.byte	0
+	.uleb128 0x7
+	.long	0x1cd7
+	.uleb128 0xa
+	.long	.LASF432
+	.byte	0xe
+	.byte	0x55
+	.byte	0x49
+	.long	0x1cff
+	.uleb128 0xd
+	.long	.LASF433
+	.byte	0x10
+	.byte	0xe
+	.byte	0x57
+	.byte	0x10
+	.long	0x1d38
+	.uleb128 0x2
+	.long	.LASF367
+	.byte	0xe
+	.byte	0x57
+	.byte	0x24
+	.long	0xb32
+	.byte	0
+	.uleb128 0x2
+	.long	.LASF90
+	.byte	0xe
+	.byte	0x57
+	.byte	0x40
+	.long	0x1d38
+	.byte	0x8
+	.byte	0
+	.uleb128 0x7
+	.long	0x1d10
+	.uleb128 0xa
+	.long	.LASF434
+	.byte	0xe
+	.byte	0x57
+	.byte	0x49
+	.long	0x1d38
+	.uleb128 0x7
+	.long	0xb32
+	.uleb128 0x7
+	.long	0xddf
+	.uleb128 0x7
+	.long	0x2fb
+	.uleb128 0xd
+	.long	.LASF435
+	.byte	0x10
+	.byte	0xe
+	.byte	0x5d
+	.byte	0x10
+	.long	0x1d80
+	.uleb128 0x2
+	.long	.LASF367
+	.byte	0xe
+	.byte	0x5d
+	.byte	0x28
+	.long	0x1539
+	.byte	0
+	.uleb128 0x2
+	.long	.LASF90
+	.byte	0xe
+	.byte	0x5d
+	.byte	0x46
+	.long	0x1d80
+	.byte	0x8
+	.byte	0
+	.uleb128 0x7
+	.long	0x1d58
+	.uleb128 0xa
+	.long	.LASF436
+	.byte	0xe
+	.byte	0x5d
+	.byte	0x4f
+	.long	0x1d80
+	.uleb128 0x15
+	.long	0x356
+	.long	0x1da1
+	.uleb128 0x16
+	.long	0x4a
+	.byte	0x9
+	.byte	0
+	.uleb128 0x34
+	.long	.LASF438
+	.byte	0xc
+	.byte	0x13
+	.byte	0xf
+	.long	0x50e
+	.uleb128 0xa
+	.long	.LASF439
+	.byte	0xd
+	.byte	0xe
+	.byte	0x11
+	.long	0x349
+	.uleb128 0xa
+	.long	.LASF440
+	.byte	0xd
+	.byte	0xf
+	.byte	0x11
+	.long	0x349
+	.uleb128 0xa
+	.long	.LASF441
+	.byte	0xd
+	.byte	0x11
+	.byte	0x11
+	.long	0x1dd1
+	.uleb128 0x7
+	.long	0x1dd6
+	.uleb128 0x9
+	.long	0x322
+	.long	0x1de5
+	.uleb128 0x4
+	.long	0x1dad
+	.byte	0
+	.uleb128 0xa
+	.long	.LASF442
+	.byte	0xd
+	.byte	0x12
+	.byte	0x11
+	.long	0x1df1
+	.uleb128 0x7
+	.long	0x1df6
+	.uleb128 0x9
+	.long	0x315
+	.long	0x1e0a
+	.uleb128 0x4
+	.long	0x1dad
+	.uleb128 0x4
+	.long	0x1dad
+	.byte	0
+	.uleb128 0xd
+	.long	.LASF443
+	.byte	0x20
+	.byte	0xd
+	.byte	0x1a
+	.byte	0x8
+	.long	0x1e4c
+	.uleb128 0xe
+	.string	"key"
+	.byte	0xd
+	.byte	0x1b
+	.byte	0x9
+	.long	0x1dad
+	.byte	0
+	.uleb128 0xe
+	.string	"elt"
+	.byte	0xd
+	.byte	0x1c
+	.byte	0x9
+	.long	0x1db9
+	.byte	0x8
+	.uleb128 0x2
+	.long	.LASF202
+	.byte	0xd
+	.byte	0x1d
+	.byte	0x7
+	.long	0x322
+	.byte	0x10
+	.uleb128 0x2
+	.long	.LASF444
+	.byte	0xd
+	.byte	0x1e
+	.byte	0x12
+	.long	0x1e4c
+	.byte	0x18
+	.byte	0
+	.uleb128 0x7
+	.long	0x1e0a
+	.uleb128 0x7
+	.long	0x1e4c
+	.uleb128 0x7
+	.long	0x38a
+	.uleb128 0xd
+	.long	.LASF445
+	.byte	0x8
+	.byte	0xf
+	.byte	0x2e
+	.byte	0x10
+	.long	0x1e76
+	.uleb128 0x2
+	.long	.LASF94
+	.byte	0xf
+	.byte	0x2e
+	.byte	0x24
+	.long	0x583
+	.byte	0
+	.byte	0
+	.uleb128 0xa
+	.long	.LASF446
+	.byte	0xf
+	.byte	0x2e
+	.byte	0x2e
+	.long	0x1e82
+	.uleb128 0x7
+	.long	0x1e5b
+	.uleb128 0x23
+	.long	.LASF530
+	.long	0x43
+	.byte	0x16
+	.long	0x2082
+	.uleb128 0x8
+	.long	.LASF447
+	.byte	0
+	.uleb128 0x8
+	.long	.LASF448
+	.byte	0
+	.uleb128 0x8
+	.long	.LASF449
+	.byte	0
+	.uleb128 0x8
+	.long	.LASF450
+	.byte	0x1
+	.uleb128 0x8
+	.long	.LASF451
+	.byte	0x2
+	.uleb128 0x8
+	.long	.LASF452
+	.byte	0x3
+	.uleb128 0x8
+	.long	.LASF453
+	.byte	0x3
+	.uleb128 0x8
+	.long	.LASF454
+	.byte	0x3
+	.uleb128 0x8
+	.long	.LASF455
+	.byte	0x4
+	.uleb128 0x8
+	.long	.LASF456
+	.byte	0x4
+	.uleb128 0x8
+	.long	.LASF457
+	.byte	0x4
+	.uleb128 0x8
+	.long	.LASF458
+	.byte	0x5
+	.uleb128 0x8
+	.long	.LASF459
+	.byte	0x6
+	.uleb128 0x8
+	.long	.LASF460
+	.byte	0x7
+	.uleb128 0x8
+	.long	.LASF461
+	.byte	0x7
+	.uleb128 0x8
+	.long	.LASF462
+	.byte	0x7
+	.uleb128 0x8
+	.long	.LASF463
+	.byte	0x8
+	.uleb128 0x8
+	.long	.LASF464
+	.byte	0x9
+	.uleb128 0x8
+	.long	.LASF465
+	.byte	0xa
+	.uleb128 0x8
+	.long	.LASF466
+	.byte	0xb
+	.uleb128 0x8
+	.long	.LASF467
+	.byte	0xc
+	.uleb128 0x8
+	.long	.LASF468
+	.byte	0xd
+	.uleb128 0x8
+	.long	.LASF469
+	.byte	0xe
+	.uleb128 0x8
+	.long	.LASF470
+	.byte	0xf
+	.uleb128 0x8
+	.long	.LASF471
+	.byte	0x10
+	.uleb128 0x8
+	.long	.LASF472
+	.byte	0x11
+	.uleb128 0x8
+	.long	.LASF473
+	.byte	0x12
+	.uleb128 0x8
+	.long	.LASF474
+	.byte	0x13
+	.uleb128 0x8
+	.long	.LASF475
+	.byte	0x14
+	.uleb128 0x8
+	.long	.LASF476
+	.byte	0x15
+	.uleb128 0x8
+	.long	.LASF477
+	.byte	0x16
+	.uleb128 0x8
+	.long	.LASF478
+	.byte	0x17
+	.uleb128 0x8
+	.long	.LASF479
+	.byte	0x18
+	.uleb128 0x8
+	.long	.LASF480
+	.byte	0x19
+	.uleb128 0x8
+	.long	.LASF481
+	.byte	0x1a
+	.uleb128 0x8
+	.long	.LASF482
+	.byte	0x1b
+	.uleb128 0x8
+	.long	.LASF483
+	.byte	0x1c
+	.uleb128 0x8
+	.long	.LASF484
+	.byte	0x1d
+	.uleb128 0x8
+	.long	.LASF485
+	.byte	0x1e
+	.uleb128 0x8
+	.long	.LASF486
+	.byte	0x1f
+	.uleb128 0x8
+	.long	.LASF487
+	.byte	0x20
+	.uleb128 0x8
+	.long	.LASF488
+	.byte	0x21
+	.uleb128 0x8
+	.long	.LASF489
+	.byte	0x22
+	.uleb128 0x8
+	.long	.LASF490
+	.byte	0x23
+	.uleb128 0x8
+	.long	.LASF491
+	.byte	0x24
+	.uleb128 0x8
+	.long	.LASF492
+	.byte	0x25
+	.uleb128 0x8
+	.long	.LASF493
+	.byte	0x26
+	.uleb128 0x8
+	.long	.LASF494
+	.byte	0x27
+	.uleb128 0x8
+	.long	.LASF495
+	.byte	0x28
+	.uleb128 0x8
+	.long	.LASF496
+	.byte	0x29
+	.uleb128 0x8
+	.long	.LASF497
+	.byte	0x2a
+	.uleb128 0x8
+	.long	.LASF498
+	.byte	0x2b
+	.uleb128 0x8
+	.long	.LASF499
+	.byte	0x2c
+	.uleb128 0x8
+	.long	.LASF500
+	.byte	0x2d
+	.uleb128 0x8
+	.long	.LASF501
+	.byte	0x2e
+	.uleb128 0x8
+	.long	.LASF502
+	.byte	0x2f
+	.uleb128 0x8
+	.long	.LASF503
+	.byte	0x30
+	.uleb128 0x8
+	.long	.LASF504
+	.byte	0x31
+	.uleb128 0x8
+	.long	.LASF505
+	.byte	0x32
+	.uleb128 0x8
+	.long	.LASF506
+	.byte	0x33
+	.uleb128 0x8
+	.long	.LASF507
+	.byte	0x34
+	.uleb128 0x8
+	.long	.LASF508
+	.byte	0x35
+	.uleb128 0x8
+	.long	.LASF509
+	.byte	0x36
+	.uleb128 0x8
+	.long	.LASF510
+	.byte	0x37
+	.uleb128 0x8
+	.long	.LASF511
+	.byte	0x38
+	.uleb128 0x8
+	.long	.LASF512
+	.byte	0x39
+	.uleb128 0x8
+	.long	.LASF513
+	.byte	0x3a
+	.uleb128 0x8
+	.long	.LASF514
+	.byte	0x3b
+	.uleb128 0x8
+	.long	.LASF515
+	.byte	0x3c
+	.uleb128 0x8
+	.long	.LASF516
+	.byte	0x3d
+	.uleb128 0x8
+	.long	.LASF517
+	.byte	0x3e
+	.uleb128 0x8
+	.long	.LASF518
+	.byte	0x3f
+	.uleb128 0x8
+	.long	.LASF519
+	.byte	0x40
+	.uleb128 0x8
+	.long	.LASF520
+	.byte	0x41
+	.uleb128 0x8
+	.long	.LASF521
+	.byte	0x42
+	.uleb128 0x8
+	.long	.LASF522
+	.byte	0x43
+	.uleb128 0x8
+	.long	.LASF523
+	.byte	0x44
+	.uleb128 0x8
+	.long	.LASF524
+	.byte	0x45
+	.uleb128 0x8
+	.long	.LASF525
+	.byte	0x46
+	.uleb128 0x8
+	.long	.LASF526
+	.byte	0x47
+	.uleb128 0x8
+	.long	.LASF527
+	.byte	0x48
+	.uleb128 0x8
+	.long	.LASF528
+	.byte	0x48
+	.byte	0
+	.uleb128 0xa
+	.long	.LASF529
+	.byte	0x10
+	.byte	0x75
+	.byte	0x17
+	.long	0x1e87
+	.uleb128 0x23
+	.long	.LASF531
+	.long	0x43
+	.byte	0xdc
+	.long	0x20eb
+	.uleb128 0x8
+	.long	.LASF532
+	.byte	0
+	.uleb128 0x8
+	.long	.LASF533
+	.byte	0x1
+	.uleb128 0x8
+	.long	.LASF534
+	.byte	0x2
+	.uleb128 0x8
+	.long	.LASF535
+	.byte	0x3
+	.uleb128 0x8
+	.long	.LASF536
+	.byte	0x4
+	.uleb128 0x8
+	.long	.LASF537
+	.byte	0x5
+	.uleb128 0x8
+	.long	.LASF538
+	.byte	0x6
+	.uleb128 0x8
+	.long	.LASF539
+	.byte	0x7
+	.uleb128 0x8
+	.long	.LASF540
+	.byte	0x8
+	.uleb128 0x8
+	.long	.LASF541
+	.byte	0x9
+	.uleb128 0x8
+	.long	.LASF542
+	.byte	0xa
+	.uleb128 0x8
+	.long	.LASF543
+	.byte	0xb
+	.uleb128 0x8
+	.long	.LASF544
+	.byte	0xc
+	.byte	0
+	.uleb128 0xa
+	.long	.LASF545
+	.byte	0x10
+	.byte	0xec
+	.byte	0x15
+	.long	0x208e
+	.uleb128 0x23
+	.long	.LASF546
+	.long	0x43
+	.byte	0xf2
+	.long	0x2124
+	.uleb128 0x8
+	.long	.LASF547
+	.byte	0
+	.uleb128 0x8
+	.long	.LASF548
+	.byte	0x1
+	.uleb128 0x8
+	.long	.LASF549
+	.byte	0x2
+	.uleb128 0x8
+	.long	.LASF550
+	.byte	0x3
+	.uleb128 0x8
+	.long	.LASF551
+	.byte	0x4
+	.byte	0
+	.uleb128 0xf
+	.long	.LASF552
+	.byte	0x10
+	.value	0x100
+	.byte	0xf
+	.long	0x2ee
+	.uleb128 0x6
+	.long	.LASF553
+	.byte	0x48
+	.byte	0x10
+	.value	0x11e
+	.long	0x21bd
+	.uleb128 0x1
+	.long	.LASF554
+	.byte	0x10
+	.value	0x11f
+	.byte	0x6
+	.long	0x63f
+	.byte	0
+	.uleb128 0x1
+	.long	.LASF190
+	.byte	0x10
+	.value	0x120
+	.byte	0x7
+	.long	0x14de
+	.byte	0x8
+	.uleb128 0x1
+	.long	.LASF555
+	.byte	0x10
+	.value	0x121
+	.byte	0x6
+	.long	0x2e
+	.byte	0x10
+	.uleb128 0x1
+	.long	.LASF198
+	.byte	0x10
+	.value	0x122
+	.byte	0x7
+	.long	0xb32
+	.byte	0x18
+	.uleb128 0x1
+	.long	.LASF209
+	.byte	0x10
+	.value	0x123
+	.byte	0x8
+	.long	0xbdf
+	.byte	0x20
+	.uleb128 0x1
+	.long	.LASF556
+	.byte	0x10
+	.value	0x124
+	.byte	0x8
+	.long	0x653
+	.byte	0x28
+	.uleb128 0x1
+	.long	.LASF557
+	.byte	0x10
+	.value	0x125
+	.byte	0xa
+	.long	0x2124
+	.byte	0x30
+	.uleb128 0x1
+	.long	.LASF558
+	.byte	0x10
+	.value	0x126
+	.byte	0x8
+	.long	0x157b
+	.byte	0x38
+	.uleb128 0x1
+	.long	.LASF186
+	.byte	0x10
+	.value	0x127
+	.byte	0xb
+	.long	0x1d3d
+	.byte	0x40
+	.byte	0
+	.uleb128 0xf
+	.long	.LASF559
+	.byte	0x10
+	.value	0x12a
+	.byte	0x19
+	.long	0x21ca
+	.uleb128 0x7
+	.long	0x2131
+	.uleb128 0x1e
+	.byte	0x8
+	.byte	0x10
+	.value	0x13a
+	.long	0x21f3
+	.uleb128 0x5
+	.long	.LASF560
+	.byte	0x10
+	.value	0x13b
+	.byte	0x9
+	.long	0xd9d
+	.uleb128 0x5
+	.long	.LASF561
+	.byte	0x10
+	.value	0x13c
+	.byte	0x9
+	.long	0xbdf
+	.byte	0
+	.uleb128 0x6
+	.long	.LASF108
+	.byte	0x28
+	.byte	0x10
+	.value	0x130
+	.long	0x2263
+	.uleb128 0x3
+	.string	"tag"
+	.byte	0x10
+	.value	0x131
+	.byte	0x8
+	.long	0x2d4
+	.byte	0
+	.uleb128 0x3
+	.string	"use"
+	.byte	0x10
+	.value	0x132
+	.byte	0x8
+	.long	0x2d4
+	.byte	0x1
+	.uleb128 0x1
+	.long	.LASF211
+	.byte	0x10
+	.value	0x133
+	.byte	0x8
+	.long	0x2d4
+	.byte	0x2
+	.uleb128 0x1
+	.long	.LASF217
+	.byte	0x10
+	.value	0x135
+	.byte	0x9
+	.long	0x32f
+	.byte	0x8
+	.uleb128 0x3
+	.string	"pos"
+	.byte	0x10
+	.value	0x136
+	.byte	0xe
+	.long	0x553
+	.byte	0x10
+	.uleb128 0x1
+	.long	.LASF562
+	.byte	0x10
+	.value	0x138
+	.byte	0xa
+	.long	0x21bd
+	.byte	0x18
+	.uleb128 0x1
+	.long	.LASF203
+	.byte	0x10
+	.value	0x13d
+	.byte	0x4
+	.long	0x21cf
+	.byte	0x20
+	.byte	0
+	.uleb128 0x1e
+	.byte	0x50
+	.byte	0x10
+	.value	0x142
+	.long	0x22a1
+	.uleb128 0x19
+	.string	"sym"
+	.byte	0x10
+	.value	0x143
+	.byte	0xa
+	.long	0x606
+	.uleb128 0x19
+	.string	"doc"
+	.byte	0x10
+	.value	0x144
+	.byte	0x7
+	.long	0x63f
+	.uleb128 0x19
+	.string	"str"
+	.byte	0x10
+	.value	0x145
+	.byte	0xa
+	.long	0x356
+	.uleb128 0x5
+	.long	.LASF218
+	.byte	0x10
+	.value	0x146
+	.byte	0x9
+	.long	0x22a1
+	.byte	0
+	.uleb128 0x15
+	.long	0x653
+	.long	0x22b1
+	.uleb128 0x16
+	.long	0x4a
+	.byte	0x9
+	.byte	0
+	.uleb128 0x6
+	.long	.LASF109
+	.byte	0x78
+	.byte	0x10
+	.value	0x140
+	.long	0x22db
+	.uleb128 0x3
+	.string	"hdr"
+	.byte	0x10
+	.value	0x141
+	.byte	0xf
+	.long	0x21f3
+	.byte	0
+	.uleb128 0x1
+	.long	.LASF74
+	.byte	0x10
+	.value	0x147
+	.byte	0x4
+	.long	0x2263
+	.byte	0x28
+	.byte	0
+	.uleb128 0x6
+	.long	.LASF110
+	.byte	0x30
+	.byte	0x10
+	.value	0x14e
+	.long	0x2305
+	.uleb128 0x3
+	.string	"hdr"
+	.byte	0x10
+	.value	0x14f
+	.byte	0xf
+	.long	0x21f3
+	.byte	0
+	.uleb128 0x3
+	.string	"sym"
+	.byte	0x10
+	.value	0x150
+	.byte	0x9
+	.long	0x606
+	.byte	0x28
+	.byte	0
+	.uleb128 0x6
+	.long	.LASF111
+	.byte	0x30
+	.byte	0x10
+	.value	0x153
+	.long	0x232f
+	.uleb128 0x3
+	.string	"hdr"
+	.byte	0x10
+	.value	0x154
+	.byte	0xf
+	.long	0x21f3
+	.byte	0
+	.uleb128 0x3
+	.string	"sym"
+	.byte	0x10
+	.value	0x155
+	.byte	0x9
+	.long	0x606
+	.byte	0x28
+	.byte	0
+	.uleb128 0x6
+	.long	.LASF112
+	.byte	0x30
+	.byte	0x10
+	.value	0x158
+	.long	0x2359
+	.uleb128 0x3
+	.string	"hdr"
+	.byte	0x10
+	.value	0x159
+	.byte	0xf
+	.long	0x21f3
+	.byte	0
+	.uleb128 0x3
+	.string	"sym"
+	.byte	0x10
+	.value	0x15a
+	.byte	0x9
+	.long	0x606
+	.byte	0x28
+	.byte	0
+	.uleb128 0x6
+	.long	.LASF113
+	.byte	0x30
+	.byte	0x10
+	.value	0x15d
+	.long	0x2383
+	.uleb128 0x3
+	.string	"hdr"
+	.byte	0x10
+	.value	0x15e
+	.byte	0xf
+	.long	0x21f3
+	.byte	0
+	.uleb128 0x3
+	.string	"doc"
+	.byte	0x10
+	.value	0x15f
+	.byte	0x6
+	.long	0x63f
+	.byte	0x28
+	.byte	0
+	.uleb128 0x6
+	.long	.LASF114
+	.byte	0x30
+	.byte	0x10
+	.value	0x162
+	.long	0x23ad
+	.uleb128 0x3
+	.string	"hdr"
+	.byte	0x10
+	.value	0x163
+	.byte	0xf
+	.long	0x21f3
+	.byte	0
+	.uleb128 0x3
+	.string	"str"
+	.byte	0x10
+	.value	0x164
+	.byte	0x9
+	.long	0x356
+	.byte	0x28
+	.byte	0
+	.uleb128 0x6
+	.long	.LASF116
+	.byte	0x30
+	.byte	0x10
+	.value	0x167
+	.long	0x23d7
+	.uleb128 0x3
+	.string	"hdr"
+	.byte	0x10
+	.value	0x168
+	.byte	0xf
+	.long	0x21f3
+	.byte	0
+	.uleb128 0x3
+	.string	"str"
+	.byte	0x10
+	.value	0x169
+	.byte	0x9
+	.long	0x356
+	.byte	0x28
+	.byte	0
+	.uleb128 0x6
+	.long	.LASF115
+	.byte	0x30
+	.byte	0x10
+	.value	0x16c
+	.long	0x2401
+	.uleb128 0x3
+	.string	"hdr"
+	.byte	0x10
+	.value	0x16d
+	.byte	0xf
+	.long	0x21f3
+	.byte	0
+	.uleb128 0x3
+	.string	"str"
+	.byte	0x10
+	.value	0x16e
+	.byte	0x9
+	.long	0x356
+	.byte	0x28
+	.byte	0
+	.uleb128 0x6
+	.long	.LASF117
+	.byte	0x38
+	.byte	0x10
+	.value	0x175
+	.long	0x2439
+	.uleb128 0x3
+	.string	"hdr"
+	.byte	0x10
+	.value	0x176
+	.byte	0xf
+	.long	0x21f3
+	.byte	0
+	.uleb128 0x1
+	.long	.LASF563
+	.byte	0x10
+	.value	0x177
+	.byte	0x8
+	.long	0x653
+	.byte	0x28
+	.uleb128 0x1
+	.long	.LASF564
+	.byte	0x10
+	.value	0x178
+	.byte	0x8
+	.long	0x653
+	.byte	0x30
+	.byte	0
+	.uleb128 0x6
+	.long	.LASF118
+	.byte	0x78
+	.byte	0x10
+	.value	0x17b
+	.long	0x2463
+	.uleb128 0x3
+	.string	"hdr"
+	.byte	0x10
+	.value	0x17c
+	.byte	0xf
+	.long	0x21f3
+	.byte	0
+	.uleb128 0x1
+	.long	.LASF218
+	.byte	0x10
+	.value	0x17d
+	.byte	0x8
+	.long	0x22a1
+	.byte	0x28
+	.byte	0
+	.uleb128 0x6
+	.long	.LASF119
+	.byte	0x80
+	.byte	0x10
+	.value	0x180
+	.long	0x249a
+	.uleb128 0x3
+	.string	"hdr"
+	.byte	0x10
+	.value	0x181
+	.byte	0xf
+	.long	0x21f3
+	.byte	0
+	.uleb128 0x3
+	.string	"op"
+	.byte	0x10
+	.value	0x182
+	.byte	0x8
+	.long	0x653
+	.byte	0x28
+	.uleb128 0x1
+	.long	.LASF218
+	.byte	0x10
+	.value	0x183
+	.byte	0x8
+	.long	0x22a1
+	.byte	0x30
+	.byte	0
+	.uleb128 0x6
+	.long	.LASF120
+	.byte	0x30
+	.byte	0x10
+	.value	0x186
+	.long	0x24c4
+	.uleb128 0x3
+	.string	"hdr"
+	.byte	0x10
+	.value	0x187
+	.byte	0xf
+	.long	0x21f3
+	.byte	0
+	.uleb128 0x1
+	.long	.LASF565
+	.byte	0x10
+	.value	0x188
+	.byte	0x8
+	.long	0x653
+	.byte	0x28
+	.byte	0
+	.uleb128 0x6
+	.long	.LASF121
+	.byte	0x38
+	.byte	0x10
+	.value	0x18b
+	.long	0x24fc
+	.uleb128 0x3
+	.string	"hdr"
+	.byte	0x10
+	.value	0x18c
+	.byte	0xf
+	.long	0x21f3
+	.byte	0
+	.uleb128 0x3
+	.string	"lhs"
+	.byte	0x10
+	.value	0x18d
+	.byte	0x8
+	.long	0x653
+	.byte	0x28
+	.uleb128 0x3
+	.string	"rhs"
+	.byte	0x10
+	.value	0x18e
+	.byte	0x8
+	.long	0x653
+	.byte	0x30
+	.byte	0
+	.uleb128 0x6
+	.long	.LASF122
+	.byte	0x30
+	.byte	0x10
+	.value	0x191
+	.long	0x2526
+	.uleb128 0x3
+	.string	"hdr"
+	.byte	0x10
+	.value	0x192
+	.byte	0xf
+	.long	0x21f3
+	.byte	0
+	.uleb128 0x1
+	.long	.LASF566
+	.byte	0x10
+	.value	0x193
+	.byte	0x8
+	.long	0x653
+	.byte	0x28
+	.byte	0
+	.uleb128 0x6
+	.long	.LASF123
+	.byte	0x30
+	.byte	0x10
+	.value	0x196
+	.long	0x2550
+	.uleb128 0x3
+	.string	"hdr"
+	.byte	0x10
+	.value	0x197
+	.byte	0xf
+	.long	0x21f3
+	.byte	0
+	.uleb128 0x1
+	.long	.LASF567
+	.byte	0x10
+	.value	0x198
+	.byte	0x8
+	.long	0x653
+	.byte	0x28
+	.byte	0
+	.uleb128 0x6
+	.long	.LASF124
+	.byte	0x38
+	.byte	0x10
+	.value	0x19b
+	.long	0x2587
+	.uleb128 0x3
+	.string	"hdr"
+	.byte	0x10
+	.value	0x19c
+	.byte	0xf
+	.long	0x21f3
+	.byte	0
+	.uleb128 0x3
+	.string	"id"
+	.byte	0x10
+	.value	0x19d
+	.byte	0x8
+	.long	0x653
+	.byte	0x28
+	.uleb128 0x1
+	.long	.LASF203
+	.byte	0x10
+	.value	0x19e
+	.byte	0x8
+	.long	0x653
+	.byte	0x30
+	.byte	0
+	.uleb128 0x6
+	.long	.LASF131
+	.byte	0x30
+	.byte	0x10
+	.value	0x1a1
+	.long	0x25b1
+	.uleb128 0x3
+	.string	"hdr"
+	.byte	0x10
+	.value	0x1a2
+	.byte	0xf
+	.long	0x21f3
+	.byte	0
+	.uleb128 0x1
+	.long	.LASF568
+	.byte	0x10
+	.value	0x1a3
+	.byte	0x8
+	.long	0x653
+	.byte	0x28
+	.byte	0
+	.uleb128 0x6
+	.long	.LASF132
+	.byte	0x38
+	.byte	0x10
+	.value	0x1a6
+	.long	0x25e9
+	.uleb128 0x3
+	.string	"hdr"
+	.byte	0x10
+	.value	0x1a7
+	.byte	0xf
+	.long	0x21f3
+	.byte	0
+	.uleb128 0x1
+	.long	.LASF568
+	.byte	0x10
+	.value	0x1a8
+	.byte	0x8
+	.long	0x653
+	.byte	0x28
+	.uleb128 0x3
+	.string	"doc"
+	.byte	0x10
+	.value	0x1a9
+	.byte	0x8
+	.long	0x653
+	.byte	0x30
+	.byte	0
+	.uleb128 0x6
+	.long	.LASF125
+	.byte	0x38
+	.byte	0x10
+	.value	0x1ac
+	.long	0x2621
+	.uleb128 0x3
+	.string	"hdr"
+	.byte	0x10
+	.value	0x1ad
+	.byte	0xf
+	.long	0x21f3
+	.byte	0
+	.uleb128 0x1
+	.long	.LASF568
+	.byte	0x10
+	.value	0x1ae
+	.byte	0x8
+	.long	0x653
+	.byte	0x28
+	.uleb128 0x1
+	.long	.LASF203
+	.byte	0x10
+	.value	0x1af
+	.byte	0x8
+	.long	0x653
+	.byte	0x30
+	.byte	0
+	.uleb128 0x6
+	.long	.LASF126
+	.byte	0x80
+	.byte	0x10
+	.value	0x1b2
+	.long	0x2659
+	.uleb128 0x3
+	.string	"hdr"
+	.byte	0x10
+	.value	0x1b3
+	.byte	0xf
+	.long	0x21f3
+	.byte	0
+	.uleb128 0x1
+	.long	.LASF569
+	.byte	0x10
+	.value	0x1b4
+	.byte	0x8
+	.long	0x653
+	.byte	0x28
+	.uleb128 0x1
+	.long	.LASF570
+	.byte	0x10
+	.value	0x1b5
+	.byte	0x8
+	.long	0x22a1
+	.byte	0x30
+	.byte	0
+	.uleb128 0x6
+	.long	.LASF127
+	.byte	0x78
+	.byte	0x10
+	.value	0x1b8
+	.long	0x2683
+	.uleb128 0x3
+	.string	"hdr"
+	.byte	0x10
+	.value	0x1b9
+	.byte	0xf
+	.long	0x21f3
+	.byte	0
+	.uleb128 0x1
+	.long	.LASF218
+	.byte	0x10
+	.value	0x1ba
+	.byte	0x8
+	.long	0x22a1
+	.byte	0x28
+	.byte	0
+	.uleb128 0x6
+	.long	.LASF128
+	.byte	0x30
+	.byte	0x10
+	.value	0x1bd
+	.long	0x26ad
+	.uleb128 0x3
+	.string	"hdr"
+	.byte	0x10
+	.value	0x1be
+	.byte	0xf
+	.long	0x21f3
+	.byte	0
+	.uleb128 0x1
+	.long	.LASF569
+	.byte	0x10
+	.value	0x1bf
+	.byte	0x8
+	.long	0x653
+	.byte	0x28
+	.byte	0
+	.uleb128 0x6
+	.long	.LASF129
+	.byte	0x38
+	.byte	0x10
+	.value	0x1c2
+	.long	0x26e5
+	.uleb128 0x3
+	.string	"hdr"
+	.byte	0x10
+	.value	0x1c3
+	.byte	0xf
+	.long	0x21f3
+	.byte	0
+	.uleb128 0x3
+	.string	"lhs"
+	.byte	0x10
+	.value	0x1c4
+	.byte	0x8
+	.long	0x653
+	.byte	0x28
+	.uleb128 0x3
+	.string	"rhs"
+	.byte	0x10
+	.value	0x1c5
+	.byte	0x8
+	.long	0x653
+	.byte	0x30
+	.byte	0
+	.uleb128 0x6
+	.long	.LASF130
+	.byte	0x30
+	.byte	0x10
+	.value	0x1c8
+	.long	0x270f
+	.uleb128 0x3
+	.string	"hdr"
+	.byte	0x10
+	.value	0x1c9
+	.byte	0xf
+	.long	0x21f3
+	.byte	0
+	.uleb128 0x1
+	.long	.LASF569
+	.byte	0x10
+	.value	0x1ca
+	.byte	0x8
+	.long	0x653
+	.byte	0x28
+	.byte	0
+	.uleb128 0x6
+	.long	.LASF133
+	.byte	0x38
+	.byte	0x10
+	.value	0x1cd
+	.long	0x2747
+	.uleb128 0x3
+	.string	"hdr"
+	.byte	0x10
+	.value	0x1ce
+	.byte	0xf
+	.long	0x21f3
+	.byte	0
+	.uleb128 0x1
+	.long	.LASF203
+	.byte	0x10
+	.value	0x1cf
+	.byte	0x8
+	.long	0x653
+	.byte	0x28
+	.uleb128 0x1
+	.long	.LASF571
+	.byte	0x10
+	.value	0x1d0
+	.byte	0x8
+	.long	0x653
+	.byte	0x30
+	.byte	0
+	.uleb128 0x6
+	.long	.LASF134
+	.byte	0x38
+	.byte	0x10
+	.value	0x1d3
+	.long	0x277f
+	.uleb128 0x3
+	.string	"hdr"
+	.byte	0x10
+	.value	0x1d4
+	.byte	0xf
+	.long	0x21f3
+	.byte	0
+	.uleb128 0x1
+	.long	.LASF565
+	.byte	0x10
+	.value	0x1d5
+	.byte	0x8
+	.long	0x653
+	.byte	0x28
+	.uleb128 0x1
+	.long	.LASF572
+	.byte	0x10
+	.value	0x1d6
+	.byte	0x8
+	.long	0x653
+	.byte	0x30
+	.byte	0
+	.uleb128 0x6
+	.long	.LASF135
+	.byte	0x40
+	.byte	0x10
+	.value	0x1d9
+	.long	0x27c5
+	.uleb128 0x3
+	.string	"hdr"
+	.byte	0x10
+	.value	0x1da
+	.byte	0xf
+	.long	0x21f3
+	.byte	0
+	.uleb128 0x1
+	.long	.LASF567
+	.byte	0x10
+	.value	0x1db
+	.byte	0x8
+	.long	0x653
+	.byte	0x28
+	.uleb128 0x1
+	.long	.LASF573
+	.byte	0x10
+	.value	0x1dc
+	.byte	0x8
+	.long	0x653
+	.byte	0x30
+	.uleb128 0x1
+	.long	.LASF574
+	.byte	0x10
+	.value	0x1dd
+	.byte	0x8
+	.long	0x653
+	.byte	0x38
+	.byte	0
+	.uleb128 0x6
+	.long	.LASF136
+	.byte	0x30
+	.byte	0x10
+	.value	0x1e0
+	.long	0x27ef
+	.uleb128 0x3
+	.string	"hdr"
+	.byte	0x10
+	.value	0x1e1
+	.byte	0xf
+	.long	0x21f3
+	.byte	0
+	.uleb128 0x1
+	.long	.LASF569
+	.byte	0x10
+	.value	0x1e2
+	.byte	0x8
+	.long	0x653
+	.byte	0x28
+	.byte	0
+	.uleb128 0x6
+	.long	.LASF137
+	.byte	0x30
+	.byte	0x10
+	.value	0x1e5
+	.long	0x2819
+	.uleb128 0x3
+	.string	"hdr"
+	.byte	0x10
+	.value	0x1e6
+	.byte	0xf
+	.long	0x21f3
+	.byte	0
+	.uleb128 0x1
+	.long	.LASF575
+	.byte	0x10
+	.value	0x1e7
+	.byte	0x8
+	.long	0x653
+	.byte	0x28
+	.byte	0
+	.uleb128 0x6
+	.long	.LASF138
+	.byte	0x78
+	.byte	0x10
+	.value	0x1ea
+	.long	0x2843
+	.uleb128 0x3
+	.string	"hdr"
+	.byte	0x10
+	.value	0x1eb
+	.byte	0xf
+	.long	0x21f3
+	.byte	0
+	.uleb128 0x1
+	.long	.LASF218
+	.byte	0x10
+	.value	0x1ec
+	.byte	0x8
+	.long	0x22a1
+	.byte	0x28
+	.byte	0
+	.uleb128 0x6
+	.long	.LASF139
+	.byte	0x40
+	.byte	0x10
+	.value	0x1ef
+	.long	0x2889
+	.uleb128 0x3
+	.string	"hdr"
+	.byte	0x10
+	.value	0x1f0
+	.byte	0xf
+	.long	0x21f3
+	.byte	0
+	.uleb128 0x3
+	.string	"lhs"
+	.byte	0x10
+	.value	0x1f1
+	.byte	0x8
+	.long	0x653
+	.byte	0x28
+	.uleb128 0x1
+	.long	.LASF576
+	.byte	0x10
+	.value	0x1f2
+	.byte	0x8
+	.long	0x653
+	.byte	0x30
+	.uleb128 0x1
+	.long	.LASF565
+	.byte	0x10
+	.value	0x1f3
+	.byte	0x8
+	.long	0x653
+	.byte	0x38
+	.byte	0
+	.uleb128 0x6
+	.long	.LASF140
+	.byte	0x38
+	.byte	0x10
+	.value	0x1f6
+	.long	0x28c1
+	.uleb128 0x3
+	.string	"hdr"
+	.byte	0x10
+	.value	0x1f7
+	.byte	0xf
+	.long	0x21f3
+	.byte	0
+	.uleb128 0x1
+	.long	.LASF567
+	.byte	0x10
+	.value	0x1f8
+	.byte	0x8
+	.long	0x653
+	.byte	0x28
+	.uleb128 0x1
+	.long	.LASF573
+	.byte	0x10
+	.value	0x1f9
+	.byte	0x8
+	.long	0x653
+	.byte	0x30
+	.byte	0
+	.uleb128 0x6
+	.long	.LASF141
+	.byte	0x38
+	.byte	0x10
+	.value	0x1fc
+	.long	0x28f9
+	.uleb128 0x3
+	.string	"hdr"
+	.byte	0x10
+	.value	0x1fd
+	.byte	0xf
+	.long	0x21f3
+	.byte	0
+	.uleb128 0x1
+	.long	.LASF567
+	.byte	0x10
+	.value	0x1fe
+	.byte	0x8
+	.long	0x653
+	.byte	0x28
+	.uleb128 0x1
+	.long	.LASF577
+	.byte	0x10
+	.value	0x1ff
+	.byte	0x8
+	.long	0x653
+	.byte	0x30
+	.byte	0
+	.uleb128 0x6
+	.long	.LASF142
+	.byte	0x78
+	.byte	0x10
+	.value	0x202
+	.long	0x2923
+	.uleb128 0x3
+	.string	"hdr"
+	.byte	0x10
+	.value	0x203
+	.byte	0xf
+	.long	0x21f3
+	.byte	0
+	.uleb128 0x1
+	.long	.LASF218
+	.byte	0x10
+	.value	0x204
+	.byte	0x8
+	.long	0x22a1
+	.byte	0x28
+	.byte	0
+	.uleb128 0x6
+	.long	.LASF143
+	.byte	0x38
+	.byte	0x10
+	.value	0x207
+	.long	0x295b
+	.uleb128 0x3
+	.string	"hdr"
+	.byte	0x10
+	.value	0x208
+	.byte	0xf
+	.long	0x21f3
+	.byte	0
+	.uleb128 0x1
+	.long	.LASF98
+	.byte	0x10
+	.value	0x209
+	.byte	0x8
+	.long	0x653
+	.byte	0x28
+	.uleb128 0x1
+	.long	.LASF569
+	.byte	0x10
+	.value	0x20a
+	.byte	0x8
+	.long	0x653
+	.byte	0x30
+	.byte	0
+	.uleb128 0x6
+	.long	.LASF144
+	.byte	0x30
+	.byte	0x10
+	.value	0x20d
+	.long	0x2985
+	.uleb128 0x3
+	.string	"hdr"
+	.byte	0x10
+	.value	0x20e
+	.byte	0xf
+	.long	0x21f3
+	.byte	0
+	.uleb128 0x1
+	.long	.LASF566
+	.byte	0x10
+	.value	0x20f
+	.byte	0x8
+	.long	0x653
+	.byte	0x28
+	.byte	0
+	.uleb128 0x6
+	.long	.LASF145
+	.byte	0x38
+	.byte	0x10
+	.value	0x212
+	.long	0x29bd
+	.uleb128 0x3
+	.string	"hdr"
+	.byte	0x10
+	.value	0x213
+	.byte	0xf
+	.long	0x21f3
+	.byte	0
+	.uleb128 0x1
+	.long	.LASF568
+	.byte	0x10
+	.value	0x214
+	.byte	0x8
+	.long	0x653
+	.byte	0x28
+	.uleb128 0x1
+	.long	.LASF578
+	.byte	0x10
+	.value	0x215
+	.byte	0x8
+	.long	0x653
+	.byte	0x30
+	.byte	0
+	.uleb128 0x6
+	.long	.LASF146
+	.byte	0x30
+	.byte	0x10
+	.value	0x218
+	.long	0x29e7
+	.uleb128 0x3
+	.string	"hdr"
+	.byte	0x10
+	.value	0x219
+	.byte	0xf
+	.long	0x21f3
+	.byte	0
+	.uleb128 0x1
+	.long	.LASF203
+	.byte	0x10
+	.value	0x21a
+	.byte	0x8
+	.long	0x653
+	.byte	0x28
+	.byte	0
+	.uleb128 0x6
+	.long	.LASF147
+	.byte	0x30
+	.byte	0x10
+	.value	0x21d
+	.long	0x2a11
+	.uleb128 0x3
+	.string	"hdr"
+	.byte	0x10
+	.value	0x21e
+	.byte	0xf
+	.long	0x21f3
+	.byte	0
+	.uleb128 0x1
+	.long	.LASF568
+	.byte	0x10
+	.value	0x21f
+	.byte	0x8
+	.long	0x653
+	.byte	0x28
+	.byte	0
+	.uleb128 0x6
+	.long	.LASF148
+	.byte	0x40
+	.byte	0x10
+	.value	0x222
+	.long	0x2a57
+	.uleb128 0x3
+	.string	"hdr"
+	.byte	0x10
+	.value	0x223
+	.byte	0xf
+	.long	0x21f3
+	.byte	0
+	.uleb128 0x1
+	.long	.LASF565
+	.byte	0x10
+	.value	0x224
+	.byte	0x8
+	.long	0x653
+	.byte	0x28
+	.uleb128 0x1
+	.long	.LASF579
+	.byte	0x10
+	.value	0x225
+	.byte	0x8
+	.long	0x653
+	.byte	0x30
+	.uleb128 0x1
+	.long	.LASF580
+	.byte	0x10
+	.value	0x226
+	.byte	0x8
+	.long	0x653
+	.byte	0x38
+	.byte	0
+	.uleb128 0x6
+	.long	.LASF149
+	.byte	0x38
+	.byte	0x10
+	.value	0x229
+	.long	0x2a8f
+	.uleb128 0x3
+	.string	"hdr"
+	.byte	0x10
+	.value	0x22a
+	.byte	0xf
+	.long	0x21f3
+	.byte	0
+	.uleb128 0x1
+	.long	.LASF567
+	.byte	0x10
+	.value	0x22b
+	.byte	0x8
+	.long	0x653
+	.byte	0x28
+	.uleb128 0x1
+	.long	.LASF573
+	.byte	0x10
+	.value	0x22c
+	.byte	0x8
+	.long	0x653
+	.byte	0x30
+	.byte	0
+	.uleb128 0x6
+	.long	.LASF150
+	.byte	0x38
+	.byte	0x10
+	.value	0x22f
+	.long	0x2ac7
+	.uleb128 0x3
+	.string	"hdr"
+	.byte	0x10
+	.value	0x230
+	.byte	0xf
+	.long	0x21f3
+	.byte	0
+	.uleb128 0x1
+	.long	.LASF567
+	.byte	0x10
+	.value	0x231
+	.byte	0x8
+	.long	0x653
+	.byte	0x28
+	.uleb128 0x1
+	.long	.LASF573
+	.byte	0x10
+	.value	0x232
+	.byte	0x8
+	.long	0x653
+	.byte	0x30
+	.byte	0
+	.uleb128 0x6
+	.long	.LASF151
+	.byte	0x30
+	.byte	0x10
+	.value	0x235
+	.long	0x2af1
+	.uleb128 0x3
+	.string	"hdr"
+	.byte	0x10
+	.value	0x236
+	.byte	0xf
+	.long	0x21f3
+	.byte	0
+	.uleb128 0x1
+	.long	.LASF566
+	.byte	0x10
+	.value	0x237
+	.byte	0x8
+	.long	0x653
+	.byte	0x28
+	.byte	0
+	.uleb128 0x6
+	.long	.LASF152
+	.byte	0x38
+	.byte	0x10
+	.value	0x23a
+	.long	0x2b29
+	.uleb128 0x3
+	.string	"hdr"
+	.byte	0x10
+	.value	0x23b
+	.byte	0xf
+	.long	0x21f3
+	.byte	0
+	.uleb128 0x1
+	.long	.LASF566
+	.byte	0x10
+	.value	0x23c
+	.byte	0x8
+	.long	0x653
+	.byte	0x28
+	.uleb128 0x1
+	.long	.LASF568
+	.byte	0x10
+	.value	0x23d
+	.byte	0x8
+	.long	0x653
+	.byte	0x30
+	.byte	0
+	.uleb128 0x6
+	.long	.LASF153
+	.byte	0x40
+	.byte	0x10
+	.value	0x240
+	.long	0x2b6f
+	.uleb128 0x3
+	.string	"hdr"
+	.byte	0x10
+	.value	0x241
+	.byte	0xf
+	.long	0x21f3
+	.byte	0
+	.uleb128 0x1
+	.long	.LASF581
+	.byte	0x10
+	.value	0x242
+	.byte	0x8
+	.long	0x653
+	.byte	0x28
+	.uleb128 0x1
+	.long	.LASF582
+	.byte	0x10
+	.value	0x243
+	.byte	0x8
+	.long	0x653
+	.byte	0x30
+	.uleb128 0x1
+	.long	.LASF569
+	.byte	0x10
+	.value	0x244
+	.byte	0x8
+	.long	0x653
+	.byte	0x38
+	.byte	0
+	.uleb128 0x6
+	.long	.LASF154
+	.byte	0x38
+	.byte	0x10
+	.value	0x247
+	.long	0x2ba7
+	.uleb128 0x3
+	.string	"hdr"
+	.byte	0x10
+	.value	0x248
+	.byte	0xf
+	.long	0x21f3
+	.byte	0
+	.uleb128 0x1
+	.long	.LASF583
+	.byte	0x10
+	.value	0x249
+	.byte	0x8
+	.long	0x653
+	.byte	0x28
+	.uleb128 0x1
+	.long	.LASF568
+	.byte	0x10
+	.value	0x24a
+	.byte	0x8
+	.long	0x653
+	.byte	0x30
+	.byte	0
+	.uleb128 0x6
+	.long	.LASF155
+	.byte	0x78
+	.byte	0x10
+	.value	0x24d
+	.long	0x2bd1
+	.uleb128 0x3
+	.string	"hdr"
+	.byte	0x10
+	.value	0x24e
+	.byte	0xf
+	.long	0x21f3
+	.byte	0
+	.uleb128 0x1
+	.long	.LASF218
+	.byte	0x10
+	.value	0x24f
+	.byte	0x8
+	.long	0x22a1
+	.byte	0x28
+	.byte	0
+	.uleb128 0x6
+	.long	.LASF156
+	.byte	0x30
+	.byte	0x10
+	.value	0x252
+	.long	0x2bfb
+	.uleb128 0x3
+	.string	"hdr"
+	.byte	0x10
+	.value	0x253
+	.byte	0xf
+	.long	0x21f3
+	.byte	0
+	.uleb128 0x1
+	.long	.LASF568
+	.byte	0x10
+	.value	0x254
+	.byte	0x8
+	.long	0x653
+	.byte	0x28
+	.byte	0
+	.uleb128 0x6
+	.long	.LASF157
+	.byte	0x38
+	.byte	0x10
+	.value	0x257
+	.long	0x2c33
+	.uleb128 0x3
+	.string	"hdr"
+	.byte	0x10
+	.value	0x258
+	.byte	0xf
+	.long	0x21f3
+	.byte	0
+	.uleb128 0x3
+	.string	"lhs"
+	.byte	0x10
+	.value	0x259
+	.byte	0x8
+	.long	0x653
+	.byte	0x28
+	.uleb128 0x3
+	.string	"rhs"
+	.byte	0x10
+	.value	0x25a
+	.byte	0x8
+	.long	0x653
+	.byte	0x30
+	.byte	0
+	.uleb128 0x6
+	.long	.LASF158
+	.byte	0x38
+	.byte	0x10
+	.value	0x25d
+	.long	0x2c6b
+	.uleb128 0x3
+	.string	"hdr"
+	.byte	0x10
+	.value	0x25e
+	.byte	0xf
+	.long	0x21f3
+	.byte	0
+	.uleb128 0x1
+	.long	.LASF581
+	.byte	0x10
+	.value	0x25f
+	.byte	0x8
+	.long	0x653
+	.byte	0x28
+	.uleb128 0x1
+	.long	.LASF569
+	.byte	0x10
+	.value	0x260
+	.byte	0x8
+	.long	0x653
+	.byte	0x30
+	.byte	0
+	.uleb128 0x6
+	.long	.LASF159
+	.byte	0x28
+	.byte	0x10
+	.value	0x263
+	.long	0x2c87
+	.uleb128 0x3
+	.string	"hdr"
+	.byte	0x10
+	.value	0x264
+	.byte	0xf
+	.long	0x21f3
+	.byte	0
+	.byte	0
+	.uleb128 0x6
+	.long	.LASF160
+	.byte	0x30
+	.byte	0x10
+	.value	0x267
+	.long	0x2cb1
+	.uleb128 0x3
+	.string	"hdr"
+	.byte	0x10
+	.value	0x268
+	.byte	0xf
+	.long	0x21f3
+	.byte	0
+	.uleb128 0x1
+	.long	.LASF568
+	.byte	0x10
+	.value	0x269
+	.byte	0x8
+	.long	0x653
+	.byte	0x28
+	.byte	0
+	.uleb128 0x6
+	.long	.LASF161
+	.byte	0x28
+	.byte	0x10
+	.value	0x26c
+	.long	0x2ccd
+	.uleb128 0x3
+	.string	"hdr"
+	.byte	0x10
+	.value	0x26d
+	.byte	0xf
+	.long	0x21f3
+	.byte	0
+	.byte	0
+	.uleb128 0x6
+	.long	.LASF162
+	.byte	0x78
+	.byte	0x10
+	.value	0x270
+	.long	0x2cf7
+	.uleb128 0x3
+	.string	"hdr"
+	.byte	0x10
+	.value	0x271
+	.byte	0xf
+	.long	0x21f3
+	.byte	0
+	.uleb128 0x1
+	.long	.LASF218
+	.byte	0x10
+	.value	0x272
+	.byte	0x8
+	.long	0x22a1
+	.byte	0x28
+	.byte	0
+	.uleb128 0x6
+	.long	.LASF163
+	.byte	0x30
+	.byte	0x10
+	.value	0x275
+	.long	0x2d21
+	.uleb128 0x3
+	.string	"hdr"
+	.byte	0x10
+	.value	0x276
+	.byte	0xf
+	.long	0x21f3
+	.byte	0
+	.uleb128 0x1
+	.long	.LASF568
+	.byte	0x10
+	.value	0x277
+	.byte	0x8
+	.long	0x653
+	.byte	0x28
+	.byte	0
+	.uleb128 0x6
+	.long	.LASF164
+	.byte	0x40
+	.byte	0x10
+	.value	0x27a
+	.long	0x2d67
+	.uleb128 0x3
+	.string	"hdr"
+	.byte	0x10
+	.value	0x27b
+	.byte	0xf
+	.long	0x21f3
+	.byte	0
+	.uleb128 0x1
+	.long	.LASF581
+	.byte	0x10
+	.value	0x27c
+	.byte	0x8
+	.long	0x653
+	.byte	0x28
+	.uleb128 0x1
+	.long	.LASF582
+	.byte	0x10
+	.value	0x27d
+	.byte	0x8
+	.long	0x653
+	.byte	0x30
+	.uleb128 0x1
+	.long	.LASF569
+	.byte	0x10
+	.value	0x27e
+	.byte	0x8
+	.long	0x653
+	.byte	0x38
+	.byte	0
+	.uleb128 0x6
+	.long	.LASF165
+	.byte	0x38
+	.byte	0x10
+	.value	0x281
+	.long	0x2d9f
+	.uleb128 0x3
+	.string	"hdr"
+	.byte	0x10
+	.value	0x282
+	.byte	0xf
+	.long	0x21f3
+	.byte	0
+	.uleb128 0x1
+	.long	.LASF568
+	.byte	0x10
+	.value	0x283
+	.byte	0x8
+	.long	0x653
+	.byte	0x28
+	.uleb128 0x1
+	.long	.LASF203
+	.byte	0x10
+	.value	0x284
+	.byte	0x8
+	.long	0x653
+	.byte	0x30
+	.byte	0
+	.uleb128 0x6
+	.long	.LASF166
+	.byte	0x38
+	.byte	0x10
+	.value	0x287
+	.long	0x2dd7
+	.uleb128 0x3
+	.string	"hdr"
+	.byte	0x10
+	.value	0x288
+	.byte	0xf
+	.long	0x21f3
+	.byte	0
+	.uleb128 0x1
+	.long	.LASF567
+	.byte	0x10
+	.value	0x289
+	.byte	0x8
+	.long	0x653
+	.byte	0x28
+	.uleb128 0x1
+	.long	.LASF573
+	.byte	0x10
+	.value	0x28a
+	.byte	0x8
+	.long	0x653
+	.byte	0x30
+	.byte	0
+	.uleb128 0x6
+	.long	.LASF167
+	.byte	0x30
+	.byte	0x10
+	.value	0x28d
+	.long	0x2e01
+	.uleb128 0x3
+	.string	"hdr"
+	.byte	0x10
+	.value	0x28e
+	.byte	0xf
+	.long	0x21f3
+	.byte	0
+	.uleb128 0x1
+	.long	.LASF568
+	.byte	0x10
+	.value	0x28f
+	.byte	0x8
+	.long	0x653
+	.byte	0x28
+	.byte	0
+	.uleb128 0x6
+	.long	.LASF168
+	.byte	0x30
+	.byte	0x10
+	.value	0x292
+	.long	0x2e2b
+	.uleb128 0x3
+	.string	"hdr"
+	.byte	0x10
+	.value	0x293
+	.byte	0xf
+	.long	0x21f3
+	.byte	0
+	.uleb128 0x1
+	.long	.LASF569
+	.byte	0x10
+	.value	0x294
+	.byte	0x8
+	.long	0x653
+	.byte	0x28
+	.byte	0
+	.uleb128 0x6
+	.long	.LASF169
+	.byte	0x80
+	.byte	0x10
+	.value	0x297
+	.long	0x2e63
+	.uleb128 0x3
+	.string	"hdr"
+	.byte	0x10
+	.value	0x298
+	.byte	0xf
+	.long	0x21f3
+	.byte	0
+	.uleb128 0x1
+	.long	.LASF569
+	.byte	0x10
+	.value	0x299
+	.byte	0x8
+	.long	0x653
+	.byte	0x28
+	.uleb128 0x1
+	.long	.LASF570
+	.byte	0x10
+	.value	0x29a
+	.byte	0x8
+	.long	0x22a1
+	.byte	0x30
+	.byte	0
+	.uleb128 0x6
+	.long	.LASF170
+	.byte	0x38
+	.byte	0x10
+	.value	0x29d
+	.long	0x2e9b
+	.uleb128 0x3
+	.string	"hdr"
+	.byte	0x10
+	.value	0x29e
+	.byte	0xf
+	.long	0x21f3
+	.byte	0
+	.uleb128 0x1
+	.long	.LASF568
+	.byte	0x10
+	.value	0x29f
+	.byte	0x8
+	.long	0x653
+	.byte	0x28
+	.uleb128 0x1
+	.long	.LASF203
+	.byte	0x10
+	.value	0x2a0
+	.byte	0x8
+	.long	0x653
+	.byte	0x30
+	.byte	0
+	.uleb128 0x6
+	.long	.LASF171
+	.byte	0x38
+	.byte	0x10
+	.value	0x2a3
+	.long	0x2ed3
+	.uleb128 0x3
+	.string	"hdr"
+	.byte	0x10
+	.value	0x2a4
+	.byte	0xf
+	.long	0x21f3
+	.byte	0
+	.uleb128 0x1
+	.long	.LASF568
+	.byte	0x10
+	.value	0x2a5
+	.byte	0x8
+	.long	0x653
+	.byte	0x28
+	.uleb128 0x1
+	.long	.LASF203
+	.byte	0x10
+	.value	0x2a6
+	.byte	0x8
+	.long	0x653
+	.byte	0x30
+	.byte	0
+	.uleb128 0x6
+	.long	.LASF172
+	.byte	0x30
+	.byte	0x10
+	.value	0x2a9
+	.long	0x2efd
+	.uleb128 0x3
+	.string	"hdr"
+	.byte	0x10
+	.value	0x2aa
+	.byte	0xf
+	.long	0x21f3
+	.byte	0
+	.uleb128 0x1
+	.long	.LASF572
+	.byte	0x10
+	.value	0x2ab
+	.byte	0x8
+	.long	0x653
+	.byte	0x28
+	.byte	0
+	.uleb128 0x6
+	.long	.LASF173
+	.byte	0x38
+	.byte	0x10
+	.value	0x2ae
+	.long	0x2f35
+	.uleb128 0x3
+	.string	"hdr"
+	.byte	0x10
+	.value	0x2af
+	.byte	0xf
+	.long	0x21f3
+	.byte	0
+	.uleb128 0x1
+	.long	.LASF584
+	.byte	0x10
+	.value	0x2b0
+	.byte	0x8
+	.long	0x653
+	.byte	0x28
+	.uleb128 0x1
+	.long	.LASF585
+	.byte	0x10
+	.value	0x2b1
+	.byte	0x8
+	.long	0x653
+	.byte	0x30
+	.byte	0
+	.uleb128 0x6
+	.long	.LASF174
+	.byte	0x78
+	.byte	0x10
+	.value	0x2b4
+	.long	0x2f5f
+	.uleb128 0x3
+	.string	"hdr"
+	.byte	0x10
+	.value	0x2b5
+	.byte	0xf
+	.long	0x21f3
+	.byte	0
+	.uleb128 0x1
+	.long	.LASF218
+	.byte	0x10
+	.value	0x2b6
+	.byte	0x8
+	.long	0x22a1
+	.byte	0x28
+	.byte	0
+	.uleb128 0x6
+	.long	.LASF175
+	.byte	0x30
+	.byte	0x10
+	.value	0x2b9
+	.long	0x2f89
+	.uleb128 0x3
+	.string	"hdr"
+	.byte	0x10
+	.value	0x2ba
+	.byte	0xf
+	.long	0x21f3
+	.byte	0
+	.uleb128 0x1
+	.long	.LASF586
+	.byte	0x10
+	.value	0x2bb
+	.byte	0x8
+	.long	0x653
+	.byte	0x28
+	.byte	0
+	.uleb128 0x6
+	.long	.LASF176
+	.byte	0x48
+	.byte	0x10
+	.value	0x2be
+	.long	0x2fdc
+	.uleb128 0x3
+	.string	"hdr"
+	.byte	0x10
+	.value	0x2bf
+	.byte	0xf
+	.long	0x21f3
+	.byte	0
+	.uleb128 0x1
+	.long	.LASF568
+	.byte	0x10
+	.value	0x2c0
+	.byte	0x8
+	.long	0x653
+	.byte	0x28
+	.uleb128 0x3
+	.string	"id"
+	.byte	0x10
+	.value	0x2c1
+	.byte	0x8
+	.long	0x653
+	.byte	0x30
+	.uleb128 0x1
+	.long	.LASF571
+	.byte	0x10
+	.value	0x2c2
+	.byte	0x8
+	.long	0x653
+	.byte	0x38
+	.uleb128 0x1
+	.long	.LASF587
+	.byte	0x10
+	.value	0x2c3
+	.byte	0x8
+	.long	0x653
+	.byte	0x40
+	.byte	0
+	.uleb128 0x6
+	.long	.LASF177
+	.byte	0x38
+	.byte	0x10
+	.value	0x2c6
+	.long	0x3014
+	.uleb128 0x3
+	.string	"hdr"
+	.byte	0x10
+	.value	0x2c7
+	.byte	0xf
+	.long	0x21f3
+	.byte	0
+	.uleb128 0x1
+	.long	.LASF583
+	.byte	0x10
+	.value	0x2c8
+	.byte	0x8
+	.long	0x653
+	.byte	0x28
+	.uleb128 0x1
+	.long	.LASF568
+	.byte	0x10
+	.value	0x2c9
+	.byte	0x8
+	.long	0x653
+	.byte	0x30
+	.byte	0
+	.uleb128 0x6
+	.long	.LASF178
+	.byte	0x30
+	.byte	0x10
+	.value	0x2cc
+	.long	0x303e
+	.uleb128 0x3
+	.string	"hdr"
+	.byte	0x10
+	.value	0x2cd
+	.byte	0xf
+	.long	0x21f3
+	.byte	0
+	.uleb128 0x1
+	.long	.LASF565
+	.byte	0x10
+	.value	0x2ce
+	.byte	0x8
+	.long	0x653
+	.byte	0x28
+	.byte	0
+	.uleb128 0x6
+	.long	.LASF179
+	.byte	0x38
+	.byte	0x10
+	.value	0x2d1
+	.long	0x3076
+	.uleb128 0x3
+	.string	"hdr"
+	.byte	0x10
+	.value	0x2d2
+	.byte	0xf
+	.long	0x21f3
+	.byte	0
+	.uleb128 0x1
+	.long	.LASF563
+	.byte	0x10
+	.value	0x2d3
+	.byte	0x8
+	.long	0x653
+	.byte	0x28
+	.uleb128 0x1
+	.long	.LASF588
+	.byte	0x10
+	.value	0x2d4
+	.byte	0x8
+	.long	0x653
+	.byte	0x30
+	.byte	0
+	.uleb128 0x6
+	.long	.LASF180
+	.byte	0x30
+	.byte	0x10
+	.value	0x2d7
+	.long	0x30a0
+	.uleb128 0x3
+	.string	"hdr"
+	.byte	0x10
+	.value	0x2d8
+	.byte	0xf
+	.long	0x21f3
+	.byte	0
+	.uleb128 0x1
+	.long	.LASF572
+	.byte	0x10
+	.value	0x2d9
+	.byte	0x8
+	.long	0x653
+	.byte	0x28
+	.byte	0
+	.uleb128 0x1e
+	.byte	0x8
+	.byte	0x15
+	.value	0x1fd
+	.long	0x312c
+	.uleb128 0x19
+	.string	"opt"
+	.byte	0x15
+	.value	0x1fe
+	.byte	0xb
+	.long	0x1517
+	.uleb128 0x5
+	.long	.LASF589
+	.byte	0x15
+	.value	0x1ff
+	.byte	0x8
+	.long	0x315
+	.uleb128 0x5
+	.long	.LASF590
+	.byte	0x15
+	.value	0x200
+	.byte	0x8
+	.long	0x315
+	.uleb128 0x19
+	.string	"sym"
+	.byte	0x15
+	.value	0x201
+	.byte	0xa
+	.long	0x606
+	.uleb128 0x5
+	.long	.LASF187
+	.byte	0x15
+	.value	0x202
+	.byte	0x8
+	.long	0x315
+	.uleb128 0x5
+	.long	.LASF591
+	.byte	0x15
+	.value	0x203
+	.byte	0x8
+	.long	0x2e
+	.uleb128 0x5
+	.long	.LASF592
+	.byte	0x15
+	.value	0x204
+	.byte	0xf
+	.long	0x1d85
+	.uleb128 0x5
+	.long	.LASF593
+	.byte	0x15
+	.value	0x205
+	.byte	0xb
+	.long	0x154f
+	.uleb128 0x5
+	.long	.LASF594
+	.byte	0x15
+	.value	0x206
+	.byte	0x19
+	.long	0x1565
+	.uleb128 0x5
+	.long	.LASF595
+	.byte	0x15
+	.value	0x208
+	.byte	0xc
+	.long	0x1591
+	.byte	0
+	.uleb128 0x6
+	.long	.LASF596
+	.byte	0x30
+	.byte	0x15
+	.value	0x1f8
+	.long	0x31aa
+	.uleb128 0x3
+	.string	"tag"
+	.byte	0x15
+	.value	0x1f9
+	.byte	0x8
+	.long	0x2d4
+	.byte	0
+	.uleb128 0x1
+	.long	.LASF597
+	.byte	0x15
+	.value	0x1fa
+	.byte	0x8
+	.long	0x2d4
+	.byte	0x1
+	.uleb128 0x1
+	.long	.LASF598
+	.byte	0x15
+	.value	0x1fb
+	.byte	0x8
+	.long	0x2d4
+	.byte	0x2
+	.uleb128 0x3
+	.string	"pos"
+	.byte	0x15
+	.value	0x1fc
+	.byte	0x9
+	.long	0x50e
+	.byte	0x8
+	.uleb128 0x1
+	.long	.LASF97
+	.byte	0x15
+	.value	0x20a
+	.byte	0x4
+	.long	0x30a0
+	.byte	0x10
+	.uleb128 0x1
+	.long	.LASF599
+	.byte	0x15
+	.value	0x20b
+	.byte	0x6
+	.long	0x2e
+	.byte	0x18
+	.uleb128 0x1
+	.long	.LASF198
+	.byte	0x15
+	.value	0x20c
+	.byte	0x7
+	.long	0xb32
+	.byte	0x20
+	.uleb128 0x1
+	.long	.LASF217
+	.byte	0x15
+	.value	0x20d
+	.byte	0x9
+	.long	0x32f
+	.byte	0x28
+	.byte	0
+	.uleb128 0x1e
+	.byte	0x8
+	.byte	0x15
+	.value	0x212
+	.long	0x31f5
+	.uleb128 0x5
+	.long	.LASF600
+	.byte	0x15
+	.value	0x213
+	.byte	0x8
+	.long	0xddf
+	.uleb128 0x5
+	.long	.LASF74
+	.byte	0x15
+	.value	0x214
+	.byte	0x8
+	.long	0x2fb
+	.uleb128 0x19
+	.string	"str"
+	.byte	0x15
+	.value	0x215
+	.byte	0xa
+	.long	0x356
+	.uleb128 0x5
+	.long	.LASF102
+	.byte	0x15
+	.value	0x216
+	.byte	0x8
+	.long	0x5f0
+	.uleb128 0x5
+	.long	.LASF601
+	.byte	0x15
+	.value	0x217
+	.byte	0xa
+	.long	0x370
+	.byte	0
+	.uleb128 0x6
+	.long	.LASF243
+	.byte	0x80
+	.byte	0x15
+	.value	0x210
+	.long	0x321f
+	.uleb128 0x3
+	.string	"hdr"
+	.byte	0x15
+	.value	0x211
+	.byte	0x11
+	.long	0x312c
+	.byte	0
+	.uleb128 0x1
+	.long	.LASF218
+	.byte	0x15
+	.value	0x218
+	.byte	0x4
+	.long	0x321f
+	.byte	0x30
+	.byte	0
+	.uleb128 0x15
+	.long	0x31aa
+	.long	0x322f
+	.uleb128 0x16
+	.long	0x4a
+	.byte	0x9
+	.byte	0
+	.uleb128 0x6
+	.long	.LASF244
+	.byte	0x30
+	.byte	0x15
+	.value	0x21e
+	.long	0x324b
+	.uleb128 0x3
+	.string	"hdr"
+	.byte	0x15
+	.value	0x21f
+	.byte	0x11
+	.long	0x312c
+	.byte	0
+	.byte	0
+	.uleb128 0x6
+	.long	.LASF245
+	.byte	0x38
+	.byte	0x15
+	.value	0x225
+	.long	0x3275
+	.uleb128 0x3
+	.string	"hdr"
+	.byte	0x15
+	.value	0x226
+	.byte	0x11
+	.long	0x312c
+	.byte	0
+	.uleb128 0x1
+	.long	.LASF602
+	.byte	0x15
+	.value	0x227
+	.byte	0x7
+	.long	0x2fb
+	.byte	0x30
+	.byte	0
+	.uleb128 0x6
+	.long	.LASF246
+	.byte	0x38
+	.byte	0x15
+	.value	0x22d
+	.long	0x329f
+	.uleb128 0x3
+	.string	"hdr"
+	.byte	0x15
+	.value	0x22e
+	.byte	0x11
+	.long	0x312c
+	.byte	0
+	.uleb128 0x1
+	.long	.LASF603
+	.byte	0x15
+	.value	0x22f
+	.byte	0x7
+	.long	0x2fb
+	.byte	0x30
+	.byte	0
+	.uleb128 0x6
+	.long	.LASF247
+	.byte	0x38
+	.byte	0x15
+	.value	0x235
+	.long	0x32c9
+	.uleb128 0x3
+	.string	"hdr"
+	.byte	0x15
+	.value	0x236
+	.byte	0x11
+	.long	0x312c
+	.byte	0
+	.uleb128 0x1
+	.long	.LASF604
+	.byte	0x15
+	.value	0x237
+	.byte	0x7
+	.long	0x2fb
+	.byte	0x30
+	.byte	0
+	.uleb128 0x6
+	.long	.LASF248
+	.byte	0x38
+	.byte	0x15
+	.value	0x23d
+	.long	0x32f3
+	.uleb128 0x3
+	.string	"hdr"
+	.byte	0x15
+	.value	0x23e
+	.byte	0x11
+	.long	0x312c
+	.byte	0
+	.uleb128 0x1
+	.long	.LASF605
+	.byte	0x15
+	.value	0x23f
+	.byte	0x7
+	.long	0x2fb
+	.byte	0x30
+	.byte	0
+	.uleb128 0x6
+	.long	.LASF249
+	.byte	0x38
+	.byte	0x15
+	.value	0x245
+	.long	0x331d
+	.uleb128 0x3
+	.string	"hdr"
+	.byte	0x15
+	.value	0x246
+	.byte	0x11
+	.long	0x312c
+	.byte	0
+	.uleb128 0x1
+	.long	.LASF606
+	.byte	0x15
+	.value	0x247
+	.byte	0x7
+	.long	0x2fb
+	.byte	0x30
+	.byte	0
+	.uleb128 0x6
+	.long	.LASF250
+	.byte	0x38
+	.byte	0x15
+	.value	0x24d
+	.long	0x3347
+	.uleb128 0x3
+	.string	"hdr"
+	.byte	0x15
+	.value	0x24e
+	.byte	0x11
+	.long	0x312c
+	.byte	0
+	.uleb128 0x1
+	.long	.LASF607
+	.byte	0x15
+	.value	0x24f
+	.byte	0x7
+	.long	0x5f0
+	.byte	0x30
+	.byte	0
+	.uleb128 0x6
+	.long	.LASF251
+	.byte	0x38
+	.byte	0x15
+	.value	0x255
+	.long	0x3371
+	.uleb128 0x3
+	.string	"hdr"
+	.byte	0x15
+	.value	0x256
+	.byte	0x11
+	.long	0x312c
+	.byte	0
+	.uleb128 0x1
+	.long	.LASF608
+	.byte	0x15
+	.value	0x257
+	.byte	0x9
+	.long	0x370
+	.byte	0x30
+	.byte	0
+	.uleb128 0x6
+	.long	.LASF252
+	.byte	0x38
+	.byte	0x15
+	.value	0x25d
+	.long	0x339b
+	.uleb128 0x3
+	.string	"hdr"
+	.byte	0x15
+	.value	0x25e
+	.byte	0x11
+	.long	0x312c
+	.byte	0
+	.uleb128 0x1
+	.long	.LASF609
+	.byte	0x15
+	.value	0x25f
+	.byte	0x9
+	.long	0x37d
+	.byte	0x30
+	.byte	0
+	.uleb128 0x6
+	.long	.LASF253
+	.byte	0x38
+	.byte	0x15
+	.value	0x262
+	.long	0x33c5
+	.uleb128 0x3
+	.string	"hdr"
+	.byte	0x15
+	.value	0x263
+	.byte	0x11
+	.long	0x312c
+	.byte	0
+	.uleb128 0x1
+	.long	.LASF74
+	.byte	0x15
+	.value	0x264
+	.byte	0x7
+	.long	0x2fb
+	.byte	0x30
+	.byte	0
+	.uleb128 0x6
+	.long	.LASF254
+	.byte	0x40
+	.byte	0x15
+	.value	0x267
+	.long	0x33ef
+	.uleb128 0x3
+	.string	"hdr"
+	.byte	0x15
+	.value	0x268
+	.byte	0x11
+	.long	0x312c
+	.byte	0
+	.uleb128 0x1
+	.long	.LASF74
+	.byte	0x15
+	.value	0x269
+	.byte	0x7
+	.long	0x33ef
+	.byte	0x30
+	.byte	0
+	.uleb128 0x15
+	.long	0x2fb
+	.long	0x33ff
+	.uleb128 0x16
+	.long	0x4a
+	.byte	0x1
+	.byte	0
+	.uleb128 0x6
+	.long	.LASF255
+	.byte	0x88
+	.byte	0x15
+	.value	0x26c
+	.long	0x3437
+	.uleb128 0x3
+	.string	"hdr"
+	.byte	0x15
+	.value	0x26d
+	.byte	0x11
+	.long	0x312c
+	.byte	0
+	.uleb128 0x1
+	.long	.LASF610
+	.byte	0x15
+	.value	0x26e
+	.byte	0x7
+	.long	0x2fb
+	.byte	0x30
+	.uleb128 0x1
+	.long	.LASF611
+	.byte	0x15
+	.value	0x26f
+	.byte	0x7
+	.long	0x3437
+	.byte	0x38
+	.byte	0
+	.uleb128 0x15
+	.long	0x2fb
+	.long	0x3447
+	.uleb128 0x16
+	.long	0x4a
+	.byte	0x9
+	.byte	0
+	.uleb128 0x6
+	.long	.LASF256
+	.byte	0x88
+	.byte	0x15
+	.value	0x274
+	.long	0x347f
+	.uleb128 0x3
+	.string	"hdr"
+	.byte	0x15
+	.value	0x275
+	.byte	0x11
+	.long	0x312c
+	.byte	0
+	.uleb128 0x1
+	.long	.LASF612
+	.byte	0x15
+	.value	0x276
+	.byte	0x7
+	.long	0x2fb
+	.byte	0x30
+	.uleb128 0x1
+	.long	.LASF611
+	.byte	0x15
+	.value	0x277
+	.byte	0x7
+	.long	0x347f
+	.byte	0x38
+	.byte	0
+	.uleb128 0x15
+	.long	0xddf
+	.long	0x348f
+	.uleb128 0x16
+	.long	0x4a
+	.byte	0x9
+	.byte	0
+	.uleb128 0x6
+	.long	.LASF257
+	.byte	0x48
+	.byte	0x15
+	.value	0x27a
+	.long	0x34d5
+	.uleb128 0x3
+	.string	"hdr"
+	.byte	0x15
+	.value	0x27b
+	.byte	0x11
+	.long	0x312c
+	.byte	0
+	.uleb128 0x1
+	.long	.LASF613
+	.byte	0x15
+	.value	0x27c
+	.byte	0x7
+	.long	0x2fb
+	.byte	0x30
+	.uleb128 0x3
+	.string	"fmt"
+	.byte	0x15
+	.value	0x27d
+	.byte	0x7
+	.long	0xddf
+	.byte	0x38
+	.uleb128 0x1
+	.long	.LASF614
+	.byte	0x15
+	.value	0x27e
+	.byte	0x7
+	.long	0xddf
+	.byte	0x40
+	.byte	0
+	.uleb128 0x6
+	.long	.LASF258
+	.byte	0x98
+	.byte	0x15
+	.value	0x28d
+	.long	0x35a7
+	.uleb128 0x3
+	.string	"hdr"
+	.byte	0x15
+	.value	0x28e
+	.byte	0x11
+	.long	0x312c
+	.byte	0
+	.uleb128 0x1
+	.long	.LASF615
+	.byte	0x15
+	.value	0x28f
+	.byte	0x7
+	.long	0x2fb
+	.byte	0x30
+	.uleb128 0x1
+	.long	.LASF616
+	.byte	0x15
+	.value	0x290
+	.byte	0x7
+	.long	0x2fb
+	.byte	0x38
+	.uleb128 0x1
+	.long	.LASF617
+	.byte	0x15
+	.value	0x291
+	.byte	0x7
+	.long	0x2fb
+	.byte	0x40
+	.uleb128 0x1
+	.long	.LASF612
+	.byte	0x15
+	.value	0x292
+	.byte	0x7
+	.long	0x2fb
+	.byte	0x48
+	.uleb128 0x1
+	.long	.LASF618
+	.byte	0x15
+	.value	0x293
+	.byte	0x7
+	.long	0x2fb
+	.byte	0x50
+	.uleb128 0x1
+	.long	.LASF619
+	.byte	0x15
+	.value	0x295
+	.byte	0x7
+	.long	0x2fb
+	.byte	0x58
+	.uleb128 0x1
+	.long	.LASF620
+	.byte	0x15
+	.value	0x296
+	.byte	0x7
+	.long	0x2fb
+	.byte	0x60
+	.uleb128 0x1
+	.long	.LASF621
+	.byte	0x15
+	.value	0x297
+	.byte	0x7
+	.long	0x2fb
+	.byte	0x68
+	.uleb128 0x1
+	.long	.LASF622
+	.byte	0x15
+	.value	0x29c
+	.byte	0x7
+	.long	0xddf
+	.byte	0x70
+	.uleb128 0x1
+	.long	.LASF623
+	.byte	0x15
+	.value	0x29e
+	.byte	0x7
+	.long	0xddf
+	.byte	0x78
+	.uleb128 0x1
+	.long	.LASF624
+	.byte	0x15
+	.value	0x29f
+	.byte	0x7
+	.long	0xddf
+	.byte	0x80
+	.uleb128 0x1
+	.long	.LASF625
+	.byte	0x15
+	.value	0x2a0
+	.byte	0x7
+	.long	0xddf
+	.byte	0x88
+	.uleb128 0x1
+	.long	.LASF569
+	.byte	0x15
+	.value	0x2a1
+	.byte	0x7
+	.long	0xddf
+	.byte	0x90
+	.byte	0
+	.uleb128 0x6
+	.long	.LASF259
+	.byte	0x40
+	.byte	0x15
+	.value	0x2a6
+	.long	0x35df
+	.uleb128 0x3
+	.string	"hdr"
+	.byte	0x15
+	.value	0x2a7
+	.byte	0x11
+	.long	0x312c
+	.byte	0
+	.uleb128 0x3
+	.string	"env"
+	.byte	0x15
+	.value	0x2a8
+	.byte	0x7
+	.long	0xddf
+	.byte	0x30
+	.uleb128 0x1
+	.long	.LASF626
+	.byte	0x15
+	.value	0x2a9
+	.byte	0x7
+	.long	0xddf
+	.byte	0x38
+	.byte	0
+	.uleb128 0x6
+	.long	.LASF261
+	.byte	0x60
+	.byte	0x15
+	.value	0x2b4
+	.long	0x364e
+	.uleb128 0x3
+	.string	"hdr"
+	.byte	0x15
+	.value	0x2b5
+	.byte	0x11
+	.long	0x312c
+	.byte	0
+	.uleb128 0x1
+	.long	.LASF203
+	.byte	0x15
+	.value	0x2b6
+	.byte	0x7
+	.long	0x2fb
+	.byte	0x30
+	.uleb128 0x3
+	.string	"id"
+	.byte	0x15
+	.value	0x2b7
+	.byte	0x9
+	.long	0x356
+	.byte	0x38
+	.uleb128 0x1
+	.long	.LASF582
+	.byte	0x15
+	.value	0x2b8
+	.byte	0x7
+	.long	0x2fb
+	.byte	0x40
+	.uleb128 0x1
+	.long	.LASF612
+	.byte	0x15
+	.value	0x2b9
+	.byte	0x7
+	.long	0x2fb
+	.byte	0x48
+	.uleb128 0x3
+	.string	"dir"
+	.byte	0x15
+	.value	0x2ba
+	.byte	0x7
+	.long	0x2fb
+	.byte	0x50
+	.uleb128 0x1
+	.long	.LASF627
+	.byte	0x15
+	.value	0x2bb
+	.byte	0x7
+	.long	0x2fb
+	.byte	0x58
+	.byte	0
+	.uleb128 0x6
+	.long	.LASF260
+	.byte	0x50
+	.byte	0x15
+	.value	0x2c1
+	.long	0x36a1
+	.uleb128 0x3
+	.string	"hdr"
+	.byte	0x15
+	.value	0x2c2
+	.byte	0x11
+	.long	0x312c
+	.byte	0
+	.uleb128 0x1
+	.long	.LASF203
+	.byte	0x15
+	.value	0x2c3
+	.byte	0x7
+	.long	0x2fb
+	.byte	0x30
+	.uleb128 0x3
+	.string	"id"
+	.byte	0x15
+	.value	0x2c4
+	.byte	0x9
+	.long	0x356
+	.byte	0x38
+	.uleb128 0x1
+	.long	.LASF628
+	.byte	0x15
+	.value	0x2c5
+	.byte	0x7
+	.long	0x2fb
+	.byte	0x40
+	.uleb128 0x1
+	.long	.LASF612
+	.byte	0x15
+	.value	0x2c6
+	.byte	0x7
+	.long	0x2fb
+	.byte	0x48
+	.byte	0
+	.uleb128 0x6
+	.long	.LASF262
+	.byte	0x88
+	.byte	0x15
+	.value	0x2cd
+	.long	0x36d9
+	.uleb128 0x3
+	.string	"hdr"
+	.byte	0x15
+	.value	0x2ce
+	.byte	0x11
+	.long	0x312c
+	.byte	0
+	.uleb128 0x1
+	.long	.LASF629
+	.byte	0x15
+	.value	0x2cf
+	.byte	0x7
+	.long	0x2fb
+	.byte	0x30
+	.uleb128 0x1
+	.long	.LASF218
+	.byte	0x15
+	.value	0x2d0
+	.byte	0x7
+	.long	0x347f
+	.byte	0x38
+	.byte	0
+	.uleb128 0x6
+	.long	.LASF263
+	.byte	0x80
+	.byte	0x15
+	.value	0x2d7
+	.long	0x3703
+	.uleb128 0x3
+	.string	"hdr"
+	.byte	0x15
+	.value	0x2d8
+	.byte	0x11
+	.long	0x312c
+	.byte	0
+	.uleb128 0x1
+	.long	.LASF218
+	.byte	0x15
+	.value	0x2d9
+	.byte	0x7
+	.long	0x3437
+	.byte	0x30
+	.byte	0
+	.uleb128 0x6
+	.long	.LASF264
+	.byte	0x80
+	.byte	0x15
+	.value	0x2de
+	.long	0x372d
+	.uleb128 0x3
+	.string	"hdr"
+	.byte	0x15
+	.value	0x2df
+	.byte	0x11
+	.long	0x312c
+	.byte	0
+	.uleb128 0x1
+	.long	.LASF218
+	.byte	0x15
+	.value	0x2e0
+	.byte	0x7
+	.long	0x3437
+	.byte	0x30
+	.byte	0
+	.uleb128 0x6
+	.long	.LASF265
+	.byte	0x80
+	.byte	0x15
+	.value	0x2e5
+	.long	0x3757
+	.uleb128 0x3
+	.string	"hdr"
+	.byte	0x15
+	.value	0x2e6
+	.byte	0x11
+	.long	0x312c
+	.byte	0
+	.uleb128 0x1
+	.long	.LASF218
+	.byte	0x15
+	.value	0x2e7
+	.byte	0x7
+	.long	0x347f
+	.byte	0x30
+	.byte	0
+	.uleb128 0x6
+	.long	.LASF266
+	.byte	0x40
+	.byte	0x15
+	.value	0x2ed
+	.long	0x378f
+	.uleb128 0x3
+	.string	"hdr"
+	.byte	0x15
+	.value	0x2ee
+	.byte	0x11
+	.long	0x312c
+	.byte	0
+	.uleb128 0x3
+	.string	"lhs"
+	.byte	0x15
+	.value	0x2ef
+	.byte	0x7
+	.long	0xddf
+	.byte	0x30
+	.uleb128 0x3
+	.string	"rhs"
+	.byte	0x15
+	.value	0x2f0
+	.byte	0x7
+	.long	0xddf
+	.byte	0x38
+	.byte	0
+	.uleb128 0x6
+	.long	.LASF267
+	.byte	0x80
+	.byte	0x15
+	.value	0x2f3
+	.long	0x37b9
+	.uleb128 0x3
+	.string	"hdr"
+	.byte	0x15
+	.value	0x2f4
+	.byte	0x11
+	.long	0x312c
+	.byte	0
+	.uleb128 0x1
+	.long	.LASF218
+	.byte	0x15
+	.value	0x2f5
+	.byte	0x7
+	.long	0x347f
+	.byte	0x30
+	.byte	0
+	.uleb128 0x6
+	.long	.LASF268
+	.byte	0x38
+	.byte	0x15
+	.value	0x2fa
+	.long	0x37e3
+	.uleb128 0x3
+	.string	"hdr"
+	.byte	0x15
+	.value	0x2fb
+	.byte	0x11
+	.long	0x312c
+	.byte	0
+	.uleb128 0x1
+	.long	.LASF630
+	.byte	0x15
+	.value	0x2fc
+	.byte	0x7
+	.long	0x2fb
+	.byte	0x30
+	.byte	0
+	.uleb128 0x6
+	.long	.LASF269
+	.byte	0x38
+	.byte	0x15
+	.value	0x303
+	.long	0x380d
+	.uleb128 0x3
+	.string	"hdr"
+	.byte	0x15
+	.value	0x304
+	.byte	0x11
+	.long	0x312c
+	.byte	0
+	.uleb128 0x1
+	.long	.LASF630
+	.byte	0x15
+	.value	0x305
+	.byte	0x7
+	.long	0x2fb
+	.byte	0x30
+	.byte	0
+	.uleb128 0x6
+	.long	.LASF270
+	.byte	0x40
+	.byte	0x15
+	.value	0x30b
+	.long	0x3845
+	.uleb128 0x3
+	.string	"hdr"
+	.byte	0x15
+	.value	0x30c
+	.byte	0x11
+	.long	0x312c
+	.byte	0
+	.uleb128 0x1
+	.long	.LASF631
+	.byte	0x15
+	.value	0x30d
+	.byte	0x7
+	.long	0x2fb
+	.byte	0x30
+	.uleb128 0x1
+	.long	.LASF630
+	.byte	0x15
+	.value	0x30e
+	.byte	0x7
+	.long	0x2fb
+	.byte	0x38
+	.byte	0
+	.uleb128 0x6
+	.long	.LASF271
+	.byte	0x38
+	.byte	0x15
+	.value	0x313
+	.long	0x386f
+	.uleb128 0x3
+	.string	"hdr"
+	.byte	0x15
+	.value	0x314
+	.byte	0x11
+	.long	0x312c
+	.byte	0
+	.uleb128 0x1
+	.long	.LASF630
+	.byte	0x15
+	.value	0x315
+	.byte	0x7
+	.long	0x2fb
+	.byte	0x30
+	.byte	0
+	.uleb128 0x6
+	.long	.LASF273
+	.byte	0x38
+	.byte	0x15
+	.value	0x31a
+	.long	0x3899
+	.uleb128 0x3
+	.string	"hdr"
+	.byte	0x15
+	.value	0x31b
+	.byte	0x11
+	.long	0x312c
+	.byte	0
+	.uleb128 0x1
+	.long	.LASF630
+	.byte	0x15
+	.value	0x31c
+	.byte	0x7
+	.long	0x2fb
+	.byte	0x30
+	.byte	0
+	.uleb128 0x6
+	.long	.LASF272
+	.byte	0x38
+	.byte	0x15
+	.value	0x321
+	.long	0x38c3
+	.uleb128 0x3
+	.string	"hdr"
+	.byte	0x15
+	.value	0x322
+	.byte	0x11
+	.long	0x312c
+	.byte	0
+	.uleb128 0x1
+	.long	.LASF630
+	.byte	0x15
+	.value	0x323
+	.byte	0x7
+	.long	0x2fb
+	.byte	0x30
+	.byte	0
+	.uleb128 0x6
+	.long	.LASF274
+	.byte	0x38
+	.byte	0x15
+	.value	0x328
+	.long	0x38ed
+	.uleb128 0x3
+	.string	"hdr"
+	.byte	0x15
+	.value	0x329
+	.byte	0x11
+	.long	0x312c
+	.byte	0
+	.uleb128 0x1
+	.long	.LASF631
+	.byte	0x15
+	.value	0x32a
+	.byte	0x7
+	.long	0x2fb
+	.byte	0x30
+	.byte	0
+	.uleb128 0x6
+	.long	.LASF275
+	.byte	0x40
+	.byte	0x15
+	.value	0x32f
+	.long	0x3925
+	.uleb128 0x3
+	.string	"hdr"
+	.byte	0x15
+	.value	0x330
+	.byte	0x11
+	.long	0x312c
+	.byte	0
+	.uleb128 0x1
+	.long	.LASF631
+	.byte	0x15
+	.value	0x331
+	.byte	0x7
+	.long	0x2fb
+	.byte	0x30
+	.uleb128 0x3
+	.string	"env"
+	.byte	0x15
+	.value	0x332
+	.byte	0x7
+	.long	0xddf
+	.byte	0x38
+	.byte	0
+	.uleb128 0x6
+	.long	.LASF276
+	.byte	0x40
+	.byte	0x15
+	.value	0x337
+	.long	0x395d
+	.uleb128 0x3
+	.string	"hdr"
+	.byte	0x15
+	.value	0x338
+	.byte	0x11
+	.long	0x312c
+	.byte	0
+	.uleb128 0x3
+	.string	"idx"
+	.byte	0x15
+	.value	0x339
+	.byte	0x7
+	.long	0x2fb
+	.byte	0x30
+	.uleb128 0x1
+	.long	.LASF626
+	.byte	0x15
+	.value	0x33a
+	.byte	0x7
+	.long	0xddf
+	.byte	0x38
+	.byte	0
+	.uleb128 0x6
+	.long	.LASF277
+	.byte	0x38
+	.byte	0x15
+	.value	0x33f
+	.long	0x3987
+	.uleb128 0x3
+	.string	"hdr"
+	.byte	0x15
+	.value	0x340
+	.byte	0x11
+	.long	0x312c
+	.byte	0
+	.uleb128 0x1
+	.long	.LASF566
+	.byte	0x15
+	.value	0x341
+	.byte	0x7
+	.long	0x2fb
+	.byte	0x30
+	.byte	0
+	.uleb128 0x6
+	.long	.LASF278
+	.byte	0x38
+	.byte	0x15
+	.value	0x346
+	.long	0x39b1
+	.uleb128 0x3
+	.string	"hdr"
+	.byte	0x15
+	.value	0x347
+	.byte	0x11
+	.long	0x312c
+	.byte	0
+	.uleb128 0x3
+	.string	"val"
+	.byte	0x15
+	.value	0x348
+	.byte	0x7
+	.long	0xddf
+	.byte	0x30
+	.byte	0
+	.uleb128 0x6
+	.long	.LASF279
+	.byte	0x38
+	.byte	0x15
+	.value	0x34d
+	.long	0x39db
+	.uleb128 0x3
+	.string	"hdr"
+	.byte	0x15
+	.value	0x34e
+	.byte	0x11
+	.long	0x312c
+	.byte	0
+	.uleb128 0x1
+	.long	.LASF626
+	.byte	0x15
+	.value	0x34f
+	.byte	0x7
+	.long	0xddf
+	.byte	0x30
+	.byte	0
+	.uleb128 0x6
+	.long	.LASF280
+	.byte	0x38
+	.byte	0x15
+	.value	0x354
+	.long	0x3a05
+	.uleb128 0x3
+	.string	"hdr"
+	.byte	0x15
+	.value	0x355
+	.byte	0x11
+	.long	0x312c
+	.byte	0
+	.uleb128 0x3
+	.string	"env"
+	.byte	0x15
+	.value	0x356
+	.byte	0x7
+	.long	0xddf
+	.byte	0x30
+	.byte	0
+	.uleb128 0x6
+	.long	.LASF281
+	.byte	0x38
+	.byte	0x15
+	.value	0x35b
+	.long	0x3a2f
+	.uleb128 0x3
+	.string	"hdr"
+	.byte	0x15
+	.value	0x35c
+	.byte	0x11
+	.long	0x312c
+	.byte	0
+	.uleb128 0x3
+	.string	"loc"
+	.byte	0x15
+	.value	0x35d
+	.byte	0x7
+	.long	0xddf
+	.byte	0x30
+	.byte	0
+	.uleb128 0x6
+	.long	.LASF282
+	.byte	0x38
+	.byte	0x15
+	.value	0x362
+	.long	0x3a59
+	.uleb128 0x3
+	.string	"hdr"
+	.byte	0x15
+	.value	0x363
+	.byte	0x11
+	.long	0x312c
+	.byte	0
+	.uleb128 0x3
+	.string	"env"
+	.byte	0x15
+	.value	0x364
+	.byte	0x7
+	.long	0xddf
+	.byte	0x30
+	.byte	0
+	.uleb128 0x6
+	.long	.LASF283
+	.byte	0x38
+	.byte	0x15
+	.value	0x369
+	.long	0x3a83
+	.uleb128 0x3
+	.string	"hdr"
+	.byte	0x15
+	.value	0x36a
+	.byte	0x11
+	.long	0x312c
+	.byte	0
+	.uleb128 0x3
+	.string	"env"
+	.byte	0x15
+	.value	0x36b
+	.byte	0x7
+	.long	0xddf
+	.byte	0x30
+	.byte	0
+	.uleb128 0x6
+	.long	.LASF284
+	.byte	0x48
+	.byte	0x15
+	.value	0x370
+	.long	0x3ac9
+	.uleb128 0x3
+	.string	"hdr"
+	.byte	0x15
+	.value	0x371
+	.byte	0x11
+	.long	0x312c
+	.byte	0
+	.uleb128 0x1
+	.long	.LASF610
+	.byte	0x15
+	.value	0x372
+	.byte	0x7
+	.long	0x2fb
+	.byte	0x30
+	.uleb128 0x1
+	.long	.LASF630
+	.byte	0x15
+	.value	0x373
+	.byte	0x7
+	.long	0xddf
+	.byte	0x38
+	.uleb128 0x1
+	.long	.LASF568
+	.byte	0x15
+	.value	0x374
+	.byte	0x7
+	.long	0xddf
+	.byte	0x40
+	.byte	0
+	.uleb128 0x6
+	.long	.LASF299
+	.byte	0x40
+	.byte	0x15
+	.value	0x379
+	.long	0x3b01
+	.uleb128 0x3
+	.string	"hdr"
+	.byte	0x15
+	.value	0x37a
+	.byte	0x11
+	.long	0x312c
+	.byte	0
+	.uleb128 0x1
+	.long	.LASF217
+	.byte	0x15
+	.value	0x37b
+	.byte	0x7
+	.long	0x2fb
+	.byte	0x30
+	.uleb128 0x3
+	.string	"fmt"
+	.byte	0x15
+	.value	0x37c
+	.byte	0x7
+	.long	0xddf
+	.byte	0x38
+	.byte	0
+	.uleb128 0x6
+	.long	.LASF286
+	.byte	0x48
+	.byte	0x15
+	.value	0x382
+	.long	0x3b47
+	.uleb128 0x3
+	.string	"hdr"
+	.byte	0x15
+	.value	0x383
+	.byte	0x11
+	.long	0x312c
+	.byte	0
+	.uleb128 0x1
+	.long	.LASF632
+	.byte	0x15
+	.value	0x384
+	.byte	0x7
+	.long	0x2fb
+	.byte	0x30
+	.uleb128 0x3
+	.string	"fmt"
+	.byte	0x15
+	.value	0x385
+	.byte	0x7
+	.long	0xddf
+	.byte	0x38
+	.uleb128 0x1
+	.long	.LASF74
+	.byte	0x15
+	.value	0x386
+	.byte	0x7
+	.long	0xddf
+	.byte	0x40
+	.byte	0
+	.uleb128 0x6
+	.long	.LASF311
+	.byte	0x38
+	.byte	0x15
+	.value	0x38c
+	.long	0x3b71
+	.uleb128 0x3
+	.string	"hdr"
+	.byte	0x15
+	.value	0x38d
+	.byte	0x11
+	.long	0x312c
+	.byte	0
+	.uleb128 0x3
+	.string	"fmt"
+	.byte	0x15
+	.value	0x38e
+	.byte	0x7
+	.long	0xddf
+	.byte	0x30
+	.byte	0
+	.uleb128 0x6
+	.long	.LASF285
+	.byte	0x48
+	.byte	0x15
+	.value	0x394
+	.long	0x3bb7
+	.uleb128 0x3
+	.string	"hdr"
+	.byte	0x15
+	.value	0x395
+	.byte	0x11
+	.long	0x312c
+	.byte	0
+	.uleb128 0x1
+	.long	.LASF612
+	.byte	0x15
+	.value	0x396
+	.byte	0x7
+	.long	0x2fb
+	.byte	0x30
+	.uleb128 0x1
+	.long	.LASF568
+	.byte	0x15
+	.value	0x397
+	.byte	0x7
+	.long	0xddf
+	.byte	0x38
+	.uleb128 0x1
+	.long	.LASF632
+	.byte	0x15
+	.value	0x398
+	.byte	0x7
+	.long	0x2fb
+	.byte	0x40
+	.byte	0
+	.uleb128 0x6
+	.long	.LASF287
+	.byte	0x48
+	.byte	0x15
+	.value	0x39d
+	.long	0x3bfd
+	.uleb128 0x3
+	.string	"hdr"
+	.byte	0x15
+	.value	0x39e
+	.byte	0x11
+	.long	0x312c
+	.byte	0
+	.uleb128 0x1
+	.long	.LASF612
+	.byte	0x15
+	.value	0x39f
+	.byte	0x7
+	.long	0x2fb
+	.byte	0x30
+	.uleb128 0x1
+	.long	.LASF568
+	.byte	0x15
+	.value	0x3a0
+	.byte	0x7
+	.long	0xddf
+	.byte	0x38
+	.uleb128 0x1
+	.long	.LASF632
+	.byte	0x15
+	.value	0x3a1
+	.byte	0x7
+	.long	0x2fb
+	.byte	0x40
+	.byte	0
+	.uleb128 0x6
+	.long	.LASF288
+	.byte	0x50
+	.byte	0x15
+	.value	0x3a6
+	.long	0x3c51
+	.uleb128 0x3
+	.string	"hdr"
+	.byte	0x15
+	.value	0x3a7
+	.byte	0x11
+	.long	0x312c
+	.byte	0
+	.uleb128 0x1
+	.long	.LASF612
+	.byte	0x15
+	.value	0x3a8
+	.byte	0x7
+	.long	0x2fb
+	.byte	0x30
+	.uleb128 0x1
+	.long	.LASF568
+	.byte	0x15
+	.value	0x3a9
+	.byte	0x7
+	.long	0xddf
+	.byte	0x38
+	.uleb128 0x1
+	.long	.LASF630
+	.byte	0x15
+	.value	0x3aa
+	.byte	0x7
+	.long	0xddf
+	.byte	0x40
+	.uleb128 0x1
+	.long	.LASF632
+	.byte	0x15
+	.value	0x3ab
+	.byte	0x7
+	.long	0x2fb
+	.byte	0x48
+	.byte	0
+	.uleb128 0x6
+	.long	.LASF289
+	.byte	0x50
+	.byte	0x15
+	.value	0x3b0
+	.long	0x3ca5
+	.uleb128 0x3
+	.string	"hdr"
+	.byte	0x15
+	.value	0x3b1
+	.byte	0x11
+	.long	0x312c
+	.byte	0
+	.uleb128 0x3
+	.string	"env"
+	.byte	0x15
+	.value	0x3b2
+	.byte	0x7
+	.long	0x2fb
+	.byte	0x30
+	.uleb128 0x3
+	.string	"ref"
+	.byte	0x15
+	.value	0x3b3
+	.byte	0x7
+	.long	0xddf
+	.byte	0x38
+	.uleb128 0x1
+	.long	.LASF631
+	.byte	0x15
+	.value	0x3b4
+	.byte	0x7
+	.long	0x2fb
+	.byte	0x40
+	.uleb128 0x3
+	.string	"lex"
+	.byte	0x15
+	.value	0x3b5
+	.byte	0x7
+	.long	0x2fb
+	.byte	0x48
+	.byte	0
+	.uleb128 0x6
+	.long	.LASF290
+	.byte	0x38
+	.byte	0x15
+	.value	0x3bb
+	.long	0x3ccf
+	.uleb128 0x3
+	.string	"hdr"
+	.byte	0x15
+	.value	0x3bc
+	.byte	0x11
+	.long	0x312c
+	.byte	0
+	.uleb128 0x1
+	.long	.LASF633
+	.byte	0x15
+	.value	0x3bd
+	.byte	0x7
+	.long	0x2fb
+	.byte	0x30
+	.byte	0
+	.uleb128 0x6
+	.long	.LASF291
+	.byte	0x38
+	.byte	0x15
+	.value	0x3c3
+	.long	0x3cf9
+	.uleb128 0x3
+	.string	"hdr"
+	.byte	0x15
+	.value	0x3c4
+	.byte	0x11
+	.long	0x312c
+	.byte	0
+	.uleb128 0x3
+	.string	"str"
+	.byte	0x15
+	.value	0x3c5
+	.byte	0x9
+	.long	0x356
+	.byte	0x30
+	.byte	0
+	.uleb128 0x6
+	.long	.LASF292
+	.byte	0x30
+	.byte	0x15
+	.value	0x3cb
+	.long	0x3d15
+	.uleb128 0x3
+	.string	"hdr"
+	.byte	0x15
+	.value	0x3cc
+	.byte	0x11
+	.long	0x312c
+	.byte	0
+	.byte	0
+	.uleb128 0x6
+	.long	.LASF293
+	.byte	0x40
+	.byte	0x15
+	.value	0x3d1
+	.long	0x3d4d
+	.uleb128 0x3
+	.string	"hdr"
+	.byte	0x15
+	.value	0x3d2
+	.byte	0x11
+	.long	0x312c
+	.byte	0
+	.uleb128 0x3
+	.string	"lhs"
+	.byte	0x15
+	.value	0x3d3
+	.byte	0x7
+	.long	0xddf
+	.byte	0x30
+	.uleb128 0x3
+	.string	"rhs"
+	.byte	0x15
+	.value	0x3d4
+	.byte	0x7
+	.long	0xddf
+	.byte	0x38
+	.byte	0
+	.uleb128 0x6
+	.long	.LASF294
+	.byte	0x40
+	.byte	0x15
+	.value	0x3d9
+	.long	0x3d85
+	.uleb128 0x3
+	.string	"hdr"
+	.byte	0x15
+	.value	0x3da
+	.byte	0x11
+	.long	0x312c
+	.byte	0
+	.uleb128 0x1
+	.long	.LASF565
+	.byte	0x15
+	.value	0x3db
+	.byte	0x7
+	.long	0xddf
+	.byte	0x30
+	.uleb128 0x1
+	.long	.LASF566
+	.byte	0x15
+	.value	0x3dc
+	.byte	0x7
+	.long	0x2fb
+	.byte	0x38
+	.byte	0
+	.uleb128 0x6
+	.long	.LASF295
+	.byte	0x80
+	.byte	0x15
+	.value	0x3e1
+	.long	0x3daf
+	.uleb128 0x3
+	.string	"hdr"
+	.byte	0x15
+	.value	0x3e2
+	.byte	0x11
+	.long	0x312c
+	.byte	0
+	.uleb128 0x1
+	.long	.LASF218
+	.byte	0x15
+	.value	0x3e3
+	.byte	0x7
+	.long	0x347f
+	.byte	0x30
+	.byte	0
+	.uleb128 0x6
+	.long	.LASF297
+	.byte	0x40
+	.byte	0x15
+	.value	0x3e8
+	.long	0x3de7
+	.uleb128 0x3
+	.string	"hdr"
+	.byte	0x15
+	.value	0x3e9
+	.byte	0x11
+	.long	0x312c
+	.byte	0
+	.uleb128 0x1
+	.long	.LASF634
+	.byte	0x15
+	.value	0x3ea
+	.byte	0x7
+	.long	0x2fb
+	.byte	0x30
+	.uleb128 0x1
+	.long	.LASF619
+	.byte	0x15
+	.value	0x3eb
+	.byte	0x7
+	.long	0xddf
+	.byte	0x38
+	.byte	0
+	.uleb128 0x6
+	.long	.LASF298
+	.byte	0x38
+	.byte	0x15
+	.value	0x3f0
+	.long	0x3e11
+	.uleb128 0x3
+	.string	"hdr"
+	.byte	0x15
+	.value	0x3f1
+	.byte	0x11
+	.long	0x312c
+	.byte	0
+	.uleb128 0x1
+	.long	.LASF612
+	.byte	0x15
+	.value	0x3f2
+	.byte	0x7
+	.long	0x2fb
+	.byte	0x30
+	.byte	0
+	.uleb128 0x6
+	.long	.LASF300
+	.byte	0x40
+	.byte	0x15
+	.value	0x3f7
+	.long	0x3e49
+	.uleb128 0x3
+	.string	"hdr"
+	.byte	0x15
+	.value	0x3f8
+	.byte	0x11
+	.long	0x312c
+	.byte	0
+	.uleb128 0x1
+	.long	.LASF612
+	.byte	0x15
+	.value	0x3f9
+	.byte	0x7
+	.long	0x2fb
+	.byte	0x30
+	.uleb128 0x1
+	.long	.LASF619
+	.byte	0x15
+	.value	0x3fa
+	.byte	0x7
+	.long	0xddf
+	.byte	0x38
+	.byte	0
+	.uleb128 0x6
+	.long	.LASF301
+	.byte	0x40
+	.byte	0x15
+	.value	0x3ff
+	.long	0x3e81
+	.uleb128 0x3
+	.string	"hdr"
+	.byte	0x15
+	.value	0x400
+	.byte	0x11
+	.long	0x312c
+	.byte	0
+	.uleb128 0x1
+	.long	.LASF203
+	.byte	0x15
+	.value	0x401
+	.byte	0x7
+	.long	0x2fb
+	.byte	0x30
+	.uleb128 0x1
+	.long	.LASF568
+	.byte	0x15
+	.value	0x402
+	.byte	0x7
+	.long	0xddf
+	.byte	0x38
+	.byte	0
+	.uleb128 0x6
+	.long	.LASF302
+	.byte	0x98
+	.byte	0x15
+	.value	0x408
+	.long	0x3ed4
+	.uleb128 0x3
+	.string	"hdr"
+	.byte	0x15
+	.value	0x409
+	.byte	0x11
+	.long	0x312c
+	.byte	0
+	.uleb128 0x1
+	.long	.LASF627
+	.byte	0x15
+	.value	0x40a
+	.byte	0x7
+	.long	0x2fb
+	.byte	0x30
+	.uleb128 0x1
+	.long	.LASF203
+	.byte	0x15
+	.value	0x40b
+	.byte	0x7
+	.long	0x2fb
+	.byte	0x38
+	.uleb128 0x3
+	.string	"op"
+	.byte	0x15
+	.value	0x40c
+	.byte	0x7
+	.long	0xddf
+	.byte	0x40
+	.uleb128 0x1
+	.long	.LASF218
+	.byte	0x15
+	.value	0x40d
+	.byte	0x7
+	.long	0x347f
+	.byte	0x48
+	.byte	0
+	.uleb128 0x6
+	.long	.LASF303
+	.byte	0x88
+	.byte	0x15
+	.value	0x418
+	.long	0x3f0b
+	.uleb128 0x3
+	.string	"hdr"
+	.byte	0x15
+	.value	0x419
+	.byte	0x11
+	.long	0x312c
+	.byte	0
+	.uleb128 0x3
+	.string	"op"
+	.byte	0x15
+	.value	0x41a
+	.byte	0x7
+	.long	0x2fb
+	.byte	0x30
+	.uleb128 0x1
+	.long	.LASF218
+	.byte	0x15
+	.value	0x41b
+	.byte	0x7
+	.long	0x347f
+	.byte	0x38
+	.byte	0
+	.uleb128 0x6
+	.long	.LASF304
+	.byte	0x90
+	.byte	0x15
+	.value	0x421
+	.long	0x3f50
+	.uleb128 0x3
+	.string	"hdr"
+	.byte	0x15
+	.value	0x422
+	.byte	0x11
+	.long	0x312c
+	.byte	0
+	.uleb128 0x1
+	.long	.LASF203
+	.byte	0x15
+	.value	0x423
+	.byte	0x7
+	.long	0x2fb
+	.byte	0x30
+	.uleb128 0x3
+	.string	"op"
+	.byte	0x15
+	.value	0x424
+	.byte	0x7
+	.long	0xddf
+	.byte	0x38
+	.uleb128 0x1
+	.long	.LASF218
+	.byte	0x15
+	.value	0x425
+	.byte	0x7
+	.long	0x347f
+	.byte	0x40
+	.byte	0
+	.uleb128 0x6
+	.long	.LASF305
+	.byte	0x98
+	.byte	0x15
+	.value	0x42d
+	.long	0x3fa3
+	.uleb128 0x3
+	.string	"hdr"
+	.byte	0x15
+	.value	0x42e
+	.byte	0x11
+	.long	0x312c
+	.byte	0
+	.uleb128 0x1
+	.long	.LASF203
+	.byte	0x15
+	.value	0x42f
+	.byte	0x7
+	.long	0x2fb
+	.byte	0x30
+	.uleb128 0x3
+	.string	"op"
+	.byte	0x15
+	.value	0x430
+	.byte	0x7
+	.long	0xddf
+	.byte	0x38
+	.uleb128 0x3
+	.string	"env"
+	.byte	0x15
+	.value	0x431
+	.byte	0x7
+	.long	0xddf
+	.byte	0x40
+	.uleb128 0x1
+	.long	.LASF218
+	.byte	0x15
+	.value	0x432
+	.byte	0x7
+	.long	0x347f
+	.byte	0x48
+	.byte	0
+	.uleb128 0x6
+	.long	.LASF306
+	.byte	0x50
+	.byte	0x15
+	.value	0x438
+	.long	0x3ff7
+	.uleb128 0x3
+	.string	"hdr"
+	.byte	0x15
+	.value	0x439
+	.byte	0x11
+	.long	0x312c
+	.byte	0
+	.uleb128 0x1
+	.long	.LASF635
+	.byte	0x15
+	.value	0x43a
+	.byte	0x7
+	.long	0xddf
+	.byte	0x30
+	.uleb128 0x3
+	.string	"fmt"
+	.byte	0x15
+	.value	0x43b
+	.byte	0x7
+	.long	0x2fb
+	.byte	0x38
+	.uleb128 0x1
+	.long	.LASF636
+	.byte	0x15
+	.value	0x43c
+	.byte	0x7
+	.long	0x2fb
+	.byte	0x40
+	.uleb128 0x1
+	.long	.LASF637
+	.byte	0x15
+	.value	0x43d
+	.byte	0x7
+	.long	0xddf
+	.byte	0x48
+	.byte	0
+	.uleb128 0x6
+	.long	.LASF307
+	.byte	0x58
+	.byte	0x15
+	.value	0x443
+	.long	0x4059
+	.uleb128 0x3
+	.string	"hdr"
+	.byte	0x15
+	.value	0x444
+	.byte	0x11
+	.long	0x312c
+	.byte	0
+	.uleb128 0x1
+	.long	.LASF626
+	.byte	0x15
+	.value	0x445
+	.byte	0x7
+	.long	0xddf
+	.byte	0x30
+	.uleb128 0x3
+	.string	"env"
+	.byte	0x15
+	.value	0x446
+	.byte	0x7
+	.long	0xddf
+	.byte	0x38
+	.uleb128 0x3
+	.string	"fmt"
+	.byte	0x15
+	.value	0x447
+	.byte	0x7
+	.long	0x2fb
+	.byte	0x40
+	.uleb128 0x1
+	.long	.LASF636
+	.byte	0x15
+	.value	0x448
+	.byte	0x7
+	.long	0x2fb
+	.byte	0x48
+	.uleb128 0x1
+	.long	.LASF637
+	.byte	0x15
+	.value	0x449
+	.byte	0x7
+	.long	0xddf
+	.byte	0x50
+	.byte	0
+	.uleb128 0x6
+	.long	.LASF296
+	.byte	0x88
+	.byte	0x15
+	.value	0x44f
+	.long	0x4090
+	.uleb128 0x3
+	.string	"hdr"
+	.byte	0x15
+	.value	0x450
+	.byte	0x11
+	.long	0x312c
+	.byte	0
+	.uleb128 0x3
+	.string	"op"
+	.byte	0x15
+	.value	0x451
+	.byte	0x7
+	.long	0xddf
+	.byte	0x30
+	.uleb128 0x1
+	.long	.LASF218
+	.byte	0x15
+	.value	0x452
+	.byte	0x7
+	.long	0x3437
+	.byte	0x38
+	.byte	0
+	.uleb128 0x6
+	.long	.LASF313
+	.byte	0x40
+	.byte	0x15
+	.value	0x457
+	.long	0x40c8
+	.uleb128 0x3
+	.string	"hdr"
+	.byte	0x15
+	.value	0x458
+	.byte	0x11
+	.long	0x312c
+	.byte	0
+	.uleb128 0x1
+	.long	.LASF346
+	.byte	0x15
+	.value	0x459
+	.byte	0x7
+	.long	0xddf
+	.byte	0x30
+	.uleb128 0x1
+	.long	.LASF638
+	.byte	0x15
+	.value	0x45a
+	.byte	0x7
+	.long	0xddf
+	.byte	0x38
+	.byte	0
+	.uleb128 0x6
+	.long	.LASF308
+	.byte	0x40
+	.byte	0x15
+	.value	0x461
+	.long	0x4100
+	.uleb128 0x3
+	.string	"hdr"
+	.byte	0x15
+	.value	0x462
+	.byte	0x11
+	.long	0x312c
+	.byte	0
+	.uleb128 0x1
+	.long	.LASF612
+	.byte	0x15
+	.value	0x463
+	.byte	0x7
+	.long	0x2fb
+	.byte	0x30
+	.uleb128 0x1
+	.long	.LASF233
+	.byte	0x15
+	.value	0x464
+	.byte	0x7
+	.long	0xddf
+	.byte	0x38
+	.byte	0
+	.uleb128 0x6
+	.long	.LASF309
+	.byte	0x30
+	.byte	0x15
+	.value	0x469
+	.long	0x411c
+	.uleb128 0x3
+	.string	"hdr"
+	.byte	0x15
+	.value	0x46a
+	.byte	0x11
+	.long	0x312c
+	.byte	0
+	.byte	0
+	.uleb128 0x6
+	.long	.LASF310
+	.byte	0x40
+	.byte	0x15
+	.value	0x46f
+	.long	0x4154
+	.uleb128 0x3
+	.string	"hdr"
+	.byte	0x15
+	.value	0x470
+	.byte	0x11
+	.long	0x312c
+	.byte	0
+	.uleb128 0x1
+	.long	.LASF612
+	.byte	0x15
+	.value	0x471
+	.byte	0x7
+	.long	0x2fb
+	.byte	0x30
+	.uleb128 0x1
+	.long	.LASF572
+	.byte	0x15
+	.value	0x472
+	.byte	0x7
+	.long	0xddf
+	.byte	0x38
+	.byte	0
+	.uleb128 0x6
+	.long	.LASF312
+	.byte	0x80
+	.byte	0x15
+	.value	0x476
+	.long	0x417e
+	.uleb128 0x3
+	.string	"hdr"
+	.byte	0x15
+	.value	0x477
+	.byte	0x11
+	.long	0x312c
+	.byte	0
+	.uleb128 0x1
+	.long	.LASF218
+	.byte	0x15
+	.value	0x478
+	.byte	0x7
+	.long	0x347f
+	.byte	0x30
+	.byte	0
+	.uleb128 0x6
+	.long	.LASF314
+	.byte	0x38
+	.byte	0x15
+	.value	0x47b
+	.long	0x41a8
+	.uleb128 0x3
+	.string	"hdr"
+	.byte	0x15
+	.value	0x47c
+	.byte	0x11
+	.long	0x312c
+	.byte	0
+	.uleb128 0x1
+	.long	.LASF639
+	.byte	0x15
+	.value	0x47d
+	.byte	0x7
+	.long	0xddf
+	.byte	0x30
+	.byte	0
+	.uleb128 0x6
+	.long	.LASF315
+	.byte	0x38
+	.byte	0x15
+	.value	0x482
+	.long	0x41d2
+	.uleb128 0x3
+	.string	"hdr"
+	.byte	0x15
+	.value	0x483
+	.byte	0x11
+	.long	0x312c
+	.byte	0
+	.uleb128 0x1
+	.long	.LASF639
+	.byte	0x15
+	.value	0x484
+	.byte	0x7
+	.long	0xddf
+	.byte	0x30
+	.byte	0
+	.uleb128 0x6
+	.long	.LASF316
+	.byte	0x38
+	.byte	0x15
+	.value	0x489
+	.long	0x41fc
+	.uleb128 0x3
+	.string	"hdr"
+	.byte	0x15
+	.value	0x48a
+	.byte	0x11
+	.long	0x312c
+	.byte	0
+	.uleb128 0x1
+	.long	.LASF566
+	.byte	0x15
+	.value	0x48b
+	.byte	0x7
+	.long	0x2fb
+	.byte	0x30
+	.byte	0
+	.uleb128 0x6
+	.long	.LASF317
+	.byte	0x40
+	.byte	0x15
+	.value	0x490
+	.long	0x4234
+	.uleb128 0x3
+	.string	"hdr"
+	.byte	0x15
+	.value	0x491
+	.byte	0x11
+	.long	0x312c
+	.byte	0
+	.uleb128 0x3
+	.string	"tag"
+	.byte	0x15
+	.value	0x492
+	.byte	0x7
+	.long	0xddf
+	.byte	0x30
+	.uleb128 0x3
+	.string	"val"
+	.byte	0x15
+	.value	0x493
+	.byte	0x7
+	.long	0xddf
+	.byte	0x38
+	.byte	0
+	.uleb128 0x6
+	.long	.LASF318
+	.byte	0x40
+	.byte	0x15
+	.value	0x498
+	.long	0x426c
+	.uleb128 0x3
+	.string	"hdr"
+	.byte	0x15
+	.value	0x499
+	.byte	0x11
+	.long	0x312c
+	.byte	0
+	.uleb128 0x3
+	.string	"ref"
+	.byte	0x15
+	.value	0x49a
+	.byte	0x7
+	.long	0xddf
+	.byte	0x30
+	.uleb128 0x1
+	.long	.LASF568
+	.byte	0x15
+	.value	0x49b
+	.byte	0x7
+	.long	0xddf
+	.byte	0x38
+	.byte	0
+	.uleb128 0x6
+	.long	.LASF319
+	.byte	0x48
+	.byte	0x15
+	.value	0x4a0
+	.long	0x42b2
+	.uleb128 0x3
+	.string	"hdr"
+	.byte	0x15
+	.value	0x4a1
+	.byte	0x11
+	.long	0x312c
+	.byte	0
+	.uleb128 0x3
+	.string	"val"
+	.byte	0x15
+	.value	0x4a2
+	.byte	0x7
+	.long	0xddf
+	.byte	0x30
+	.uleb128 0x1
+	.long	.LASF568
+	.byte	0x15
+	.value	0x4a3
+	.byte	0x7
+	.long	0xddf
+	.byte	0x38
+	.uleb128 0x1
+	.long	.LASF640
+	.byte	0x15
+	.value	0x4a4
+	.byte	0x7
+	.long	0xddf
+	.byte	0x40
+	.byte	0
+	.uleb128 0x6
+	.long	.LASF320
+	.byte	0x38
+	.byte	0x15
+	.value	0x4a9
+	.long	0x42dc
+	.uleb128 0x3
+	.string	"hdr"
+	.byte	0x15
+	.value	0x4aa
+	.byte	0x11
+	.long	0x312c
+	.byte	0
+	.uleb128 0x1
+	.long	.LASF572
+	.byte	0x15
+	.value	0x4ab
+	.byte	0x7
+	.long	0xddf
+	.byte	0x30
+	.byte	0
+	.uleb128 0xd
+	.long	.LASF641
+	.byte	0x10
+	.byte	0x18
+	.byte	0x14
+	.byte	0x10
+	.long	0x4304
+	.uleb128 0x2
+	.long	.LASF367
+	.byte	0x18
+	.byte	0x14
+	.byte	0x28
+	.long	0x356
+	.byte	0
+	.uleb128 0x2
+	.long	.LASF90
+	.byte	0x18
+	.byte	0x14
+	.byte	0x46
+	.long	0x4304
+	.byte	0x8
+	.byte	0
+	.uleb128 0x7
+	.long	0x42dc
+	.uleb128 0xa
+	.long	.LASF642
+	.byte	0x18
+	.byte	0x14
+	.byte	0x4f
+	.long	0x4304
+	.uleb128 0x22
+	.long	.LASF643
+	.value	0x140
+	.byte	0x18
+	.byte	0x14
+	.byte	0x62
+	.long	0x4558
+	.uleb128 0x2
+	.long	.LASF385
+	.byte	0x18
+	.byte	0x14
+	.byte	0x86
+	.long	0x4571
+	.byte	0
+	.uleb128 0x2
+	.long	.LASF386
+	.byte	0x18
+	.byte	0x14
+	.byte	0xaf
+	.long	0x4585
+	.byte	0x8
+	.uleb128 0x2
+	.long	.LASF387
+	.byte	0x18
+	.byte	0x14
+	.byte	0xd1
+	.long	0x459a
+	.byte	0x10
+	.uleb128 0x2
+	.long	.LASF388
+	.byte	0x18
+	.byte	0x14
+	.byte	0xf2
+	.long	0x45ae
+	.byte	0x18
+	.uleb128 0xb
+	.long	.LASF389
+	.byte	0x18
+	.byte	0x14
+	.value	0x116
+	.long	0x45c3
+	.byte	0x20
+	.uleb128 0xb
+	.long	.LASF390
+	.byte	0x18
+	.byte	0x14
+	.value	0x136
+	.long	0x45fa
+	.byte	0x28
+	.uleb128 0xb
+	.long	.LASF391
+	.byte	0x18
+	.byte	0x14
+	.value	0x17c
+	.long	0x461d
+	.byte	0x30
+	.uleb128 0xb
+	.long	.LASF392
+	.byte	0x18
+	.byte	0x14
+	.value	0x1c7
+	.long	0x4631
+	.byte	0x38
+	.uleb128 0xb
+	.long	.LASF393
+	.byte	0x18
+	.byte	0x14
+	.value	0x1e6
+	.long	0x4641
+	.byte	0x40
+	.uleb128 0xb
+	.long	.LASF394
+	.byte	0x18
+	.byte	0x14
+	.value	0x207
+	.long	0x465a
+	.byte	0x48
+	.uleb128 0xb
+	.long	.LASF395
+	.byte	0x18
+	.byte	0x14
+	.value	0x230
+	.long	0x467f
+	.byte	0x50
+	.uleb128 0xb
+	.long	.LASF396
+	.byte	0x18
+	.byte	0x14
+	.value	0x26a
+	.long	0x469d
+	.byte	0x58
+	.uleb128 0xb
+	.long	.LASF397
+	.byte	0x18
+	.byte	0x14
+	.value	0x2b4
+	.long	0x46cf
+	.byte	0x60
+	.uleb128 0x1d
+	.string	"Elt"
+	.byte	0x18
+	.byte	0x14
+	.value	0x2fc
+	.long	0x46e8
+	.byte	0x68
+	.uleb128 0xb
+	.long	.LASF398
+	.byte	0x18
+	.byte	0x14
+	.value	0x324
+	.long	0x4701
+	.byte	0x70
+	.uleb128 0xb
+	.long	.LASF399
+	.byte	0x18
+	.byte	0x14
+	.value	0x34d
+	.long	0x4631
+	.byte	0x78
+	.uleb128 0xb
+	.long	.LASF400
+	.byte	0x18
+	.byte	0x14
+	.value	0x36e
+	.long	0x4715
+	.byte	0x80
+	.uleb128 0xb
+	.long	.LASF401
+	.byte	0x18
+	.byte	0x14
+	.value	0x38c
+	.long	0x472e
+	.byte	0x88
+	.uleb128 0xb
+	.long	.LASF402
+	.byte	0x18
+	.byte	0x14
+	.value	0x3b3
+	.long	0x472e
+	.byte	0x90
+	.uleb128 0xb
+	.long	.LASF403
+	.byte	0x18
+	.byte	0x14
+	.value	0x3db
+	.long	0x472e
+	.byte	0x98
+	.uleb128 0xb
+	.long	.LASF404
+	.byte	0x18
+	.byte	0x14
+	.value	0x408
+	.long	0x4631
+	.byte	0xa0
+	.uleb128 0xb
+	.long	.LASF405
+	.byte	0x18
+	.byte	0x14
+	.value	0x429
+	.long	0x465a
+	.byte	0xa8
+	.uleb128 0xb
+	.long	.LASF406
+	.byte	0x18
+	.byte	0x14
+	.value	0x458
+	.long	0x475b
+	.byte	0xb0
+	.uleb128 0xb
+	.long	.LASF407
+	.byte	0x18
+	.byte	0x14
+	.value	0x493
+	.long	0x4779
+	.byte	0xb8
+	.uleb128 0x1d
+	.string	"Map"
+	.byte	0x18
+	.byte	0x14
+	.value	0x4dc
+	.long	0x4792
+	.byte	0xc0
+	.uleb128 0xb
+	.long	.LASF408
+	.byte	0x18
+	.byte	0x14
+	.value	0x511
+	.long	0x4792
+	.byte	0xc8
+	.uleb128 0xb
+	.long	.LASF409
+	.byte	0x18
+	.byte	0x14
+	.value	0x547
+	.long	0x4631
+	.byte	0xd0
+	.uleb128 0xb
+	.long	.LASF410
+	.byte	0x18
+	.byte	0x14
+	.value	0x56b
+	.long	0x4631
+	.byte	0xd8
+	.uleb128 0xb
+	.long	.LASF411
+	.byte	0x18
+	.byte	0x14
+	.value	0x590
+	.long	0x465a
+	.byte	0xe0
+	.uleb128 0xb
+	.long	.LASF412
+	.byte	0x18
+	.byte	0x14
+	.value	0x5bf
+	.long	0x465a
+	.byte	0xe8
+	.uleb128 0xb
+	.long	.LASF413
+	.byte	0x18
+	.byte	0x14
+	.value	0x5e9
+	.long	0x47ab
+	.byte	0xf0
+	.uleb128 0xb
+	.long	.LASF414
+	.byte	0x18
+	.byte	0x14
+	.value	0x60c
+	.long	0x47c9
+	.byte	0xf8
+	.uleb128 0x10
+	.long	.LASF415
+	.byte	0x18
+	.byte	0x14
+	.value	0x64c
+	.long	0x47e2
+	.value	0x100
+	.uleb128 0x10
+	.long	.LASF416
+	.byte	0x18
+	.byte	0x14
+	.value	0x67a
+	.long	0x47fb
+	.value	0x108
+	.uleb128 0x10
+	.long	.LASF417
+	.byte	0x18
+	.byte	0x14
+	.value	0x69c
+	.long	0x4819
+	.value	0x110
+	.uleb128 0x10
+	.long	.LASF418
+	.byte	0x18
+	.byte	0x14
+	.value	0x6e4
+	.long	0x4837
+	.value	0x118
+	.uleb128 0x10
+	.long	.LASF419
+	.byte	0x18
+	.byte	0x14
+	.value	0x725
+	.long	0x4851
+	.value	0x120
+	.uleb128 0x10
+	.long	.LASF420
+	.byte	0x18
+	.byte	0x14
+	.value	0x74f
+	.long	0x4888
+	.value	0x128
+	.uleb128 0x10
+	.long	.LASF421
+	.byte	0x18
+	.byte	0x14
+	.value	0x78e
+	.long	0x48b5
+	.value	0x130
+	.uleb128 0x10
+	.long	.LASF422
+	.byte	0x18
+	.byte	0x14
+	.value	0x7e6
+	.long	0x48d3
+	.value	0x138
+	.byte	0
+	.uleb128 0x21
+	.long	0x4315
+	.uleb128 0x9
+	.long	0x4309
+	.long	0x4571
+	.uleb128 0x4
+	.long	0x356
+	.uleb128 0x4
+	.long	0x4309
+	.byte	0
+	.uleb128 0x7
+	.long	0x455d
+	.uleb128 0x9
+	.long	0x4309
+	.long	0x4585
+	.uleb128 0x4
+	.long	0x356
+	.byte	0
+	.uleb128 0x7
+	.long	0x4576
+	.uleb128 0x9
+	.long	0x4309
+	.long	0x459a
+	.uleb128 0x4
+	.long	0x2e
+	.uleb128 0x18
+	.byte	0
+	.uleb128 0x7
+	.long	0x458a
+	.uleb128 0x9
+	.long	0x4309
+	.long	0x45ae
+	.uleb128 0x4
+	.long	0x4d8
+	.byte	0
+	.uleb128 0x7
+	.long	0x459f
+	.uleb128 0x9
+	.long	0x4309
+	.long	0x45c3
+	.uleb128 0x4
+	.long	0x356
+	.uleb128 0x18
+	.byte	0
+	.uleb128 0x7
+	.long	0x45b3
+	.uleb128 0x9
+	.long	0x315
+	.long	0x45e1
+	.uleb128 0x4
+	.long	0x4309
+	.uleb128 0x4
+	.long	0x4309
+	.uleb128 0x4
+	.long	0x45e1
+	.byte	0
+	.uleb128 0x7
+	.long	0x45e6
+	.uleb128 0x9
+	.long	0x315
+	.long	0x45fa
+	.uleb128 0x4
+	.long	0x356
+	.uleb128 0x4
+	.long	0x356
+	.byte	0
+	.uleb128 0x7
+	.long	0x45c8
+	.uleb128 0x9
+	.long	0x356
+	.long	0x461d
+	.uleb128 0x4
+	.long	0x4309
+	.uleb128 0x4
+	.long	0x356
+	.uleb128 0x4
+	.long	0x45e1
+	.uleb128 0x4
+	.long	0x4dd
+	.byte	0
+	.uleb128 0x7
+	.long	0x45ff
+	.uleb128 0x9
+	.long	0x4309
+	.long	0x4631
+	.uleb128 0x4
+	.long	0x4309
+	.byte	0
+	.uleb128 0x7
+	.long	0x4622
+	.uleb128 0x17
+	.long	0x4641
+	.uleb128 0x4
+	.long	0x4309
+	.byte	0
+	.uleb128 0x7
+	.long	0x4636
+	.uleb128 0x9
+	.long	0x4309
+	.long	0x465a
+	.uleb128 0x4
+	.long	0x4309
+	.uleb128 0x4
+	.long	0x4309
+	.byte	0
+	.uleb128 0x7
+	.long	0x4646
+	.uleb128 0x17
+	.long	0x466f
+	.uleb128 0x4
+	.long	0x4309
+	.uleb128 0x4
+	.long	0x466f
+	.byte	0
+	.uleb128 0x7
+	.long	0x4674
+	.uleb128 0x17
+	.long	0x467f
+	.uleb128 0x4
+	.long	0x356
+	.byte	0
+	.uleb128 0x7
+	.long	0x465f
+	.uleb128 0x9
+	.long	0x4309
+	.long	0x469d
+	.uleb128 0x4
+	.long	0x4309
+	.uleb128 0x4
+	.long	0x4309
+	.uleb128 0x4
+	.long	0x466f
+	.byte	0
+	.uleb128 0x7
+	.long	0x4684
+	.uleb128 0x9
+	.long	0x4309
+	.long	0x46bb
+	.uleb128 0x4
+	.long	0x4309
+	.uleb128 0x4
+	.long	0x466f
+	.uleb128 0x4
+	.long	0x46bb
+	.byte	0
+	.uleb128 0x7
+	.long	0x46c0
+	.uleb128 0x9
+	.long	0x315
+	.long	0x46cf
+	.uleb128 0x4
+	.long	0x356
+	.byte	0
+	.uleb128 0x7
+	.long	0x46a2
+	.uleb128 0x9
+	.long	0x356
+	.long	0x46e8
+	.uleb128 0x4
+	.long	0x4309
+	.uleb128 0x4
+	.long	0x32f
+	.byte	0
+	.uleb128 0x7
+	.long	0x46d4
+	.uleb128 0x9
+	.long	0x4309
+	.long	0x4701
+	.uleb128 0x4
+	.long	0x4309
+	.uleb128 0x4
+	.long	0x32f
+	.byte	0
+	.uleb128 0x7
+	.long	0x46ed
+	.uleb128 0x9
+	.long	0x32f
+	.long	0x4715
+	.uleb128 0x4
+	.long	0x4309
+	.byte	0
+	.uleb128 0x7
+	.long	0x4706
+	.uleb128 0x9
+	.long	0x315
+	.long	0x472e
+	.uleb128 0x4
+	.long	0x4309
+	.uleb128 0x4
+	.long	0x32f
+	.byte	0
+	.uleb128 0x7
+	.long	0x471a
+	.uleb128 0x9
+	.long	0x4309
+	.long	0x4747
+	.uleb128 0x4
+	.long	0x4309
+	.uleb128 0x4
+	.long	0x4747
+	.byte	0
+	.uleb128 0x7
+	.long	0x474c
+	.uleb128 0x9
+	.long	0x356
+	.long	0x475b
+	.uleb128 0x4
+	.long	0x356
+	.byte	0
+	.uleb128 0x7
+	.long	0x4733
+	.uleb128 0x9
+	.long	0x4309
+	.long	0x4779
+	.uleb128 0x4
+	.long	0x4309
+	.uleb128 0x4
+	.long	0x4309
+	.uleb128 0x4
+	.long	0x4747
+	.byte	0
+	.uleb128 0x7
+	.long	0x4760
+	.uleb128 0x9
+	.long	0x4309
+	.long	0x4792
+	.uleb128 0x4
+	.long	0x4747
+	.uleb128 0x4
+	.long	0x4309
+	.byte	0
+	.uleb128 0x7
+	.long	0x477e
+	.uleb128 0x9
+	.long	0x315
+	.long	0x47ab
+	.uleb128 0x4
+	.long	0x4309
+	.uleb128 0x4
+	.long	0x356
+	.byte	0
+	.uleb128 0x7
+	.long	0x4797
+	.uleb128 0x9
+	.long	0x315
+	.long	0x47c9
+	.uleb128 0x4
+	.long	0x4309
+	.uleb128 0x4
+	.long	0x356
+	.uleb128 0x4
+	.long	0x45e1
+	.byte	0
+	.uleb128 0x7
+	.long	0x47b0
+	.uleb128 0x9
+	.long	0x315
+	.long	0x47e2
+	.uleb128 0x4
+	.long	0x4309
+	.uleb128 0x4
+	.long	0x4309
+	.byte	0
+	.uleb128 0x7
+	.long	0x47ce
+	.uleb128 0x9
+	.long	0x2e
+	.long	0x47fb
+	.uleb128 0x4
+	.long	0x4309
+	.uleb128 0x4
+	.long	0x356
+	.byte	0
+	.uleb128 0x7
+	.long	0x47e7
+	.uleb128 0x9
+	.long	0x2e
+	.long	0x4819
+	.uleb128 0x4
+	.long	0x4309
+	.uleb128 0x4
+	.long	0x356
+	.uleb128 0x4
+	.long	0x45e1
+	.byte	0
+	.uleb128 0x7
+	.long	0x4800
+	.uleb128 0x9
+	.long	0x4309
+	.long	0x4837
+	.uleb128 0x4
+	.long	0x4309
+	.uleb128 0x4
+	.long	0x356
+	.uleb128 0x4
+	.long	0x45e1
+	.byte	0
+	.uleb128 0x7
+	.long	0x481e
+	.uleb128 0x17
+	.long	0x484c
+	.uleb128 0x4
+	.long	0x484c
+	.uleb128 0x4
+	.long	0x4309
+	.byte	0
+	.uleb128 0x7
+	.long	0x356
+	.uleb128 0x7
+	.long	0x483c
+	.uleb128 0x9
+	.long	0x2e
+	.long	0x486f
+	.uleb128 0x4
+	.long	0x2c3
+	.uleb128 0x4
+	.long	0x4309
+	.uleb128 0x4
+	.long	0x486f
+	.byte	0
+	.uleb128 0x7
+	.long	0x4874
+	.uleb128 0x9
+	.long	0x2e
+	.long	0x4888
+	.uleb128 0x4
+	.long	0x2c3
+	.uleb128 0x4
+	.long	0x356
+	.byte	0
+	.uleb128 0x7
+	.long	0x4856
+	.uleb128 0x9
+	.long	0x2e
+	.long	0x48b5
+	.uleb128 0x4
+	.long	0x2c3
+	.uleb128 0x4
+	.long	0x4309
+	.uleb128 0x4
+	.long	0x486f
+	.uleb128 0x4
+	.long	0x80
+	.uleb128 0x4
+	.long	0x80
+	.uleb128 0x4
+	.long	0x80
+	.byte	0
+	.uleb128 0x7
+	.long	0x488d
+	.uleb128 0x9
+	.long	0x2e
+	.long	0x48d3
+	.uleb128 0x4
+	.long	0x3d2
+	.uleb128 0x4
+	.long	0x363
+	.uleb128 0x4
+	.long	0x4309
+	.byte	0
+	.uleb128 0x7
+	.long	0x48ba
+	.uleb128 0x29
+	.long	.LASF644
+	.byte	0x18
+	.byte	0x14
+	.value	0x83b
+	.long	0x48e5
+	.uleb128 0x7
+	.long	0x4558
+	.uleb128 0xd
+	.long	.LASF645
+	.byte	0x18
+	.byte	0x16
+	.byte	0x33
+	.byte	0x8
+	.long	0x491f
+	.uleb128 0x2
+	.long	.LASF321
+	.byte	0x16
+	.byte	0x34
+	.byte	0x8
+	.long	0x2d4
+	.byte	0
+	.uleb128 0x2
+	.long	.LASF328
+	.byte	0x16
+	.byte	0x35
+	.byte	0x9
+	.long	0x33c
+	.byte	0x8
+	.uleb128 0x2
+	.long	.LASF646
+	.byte	0x16
+	.byte	0x36
+	.byte	0x9
+	.long	0x33c
+	.byte	0x10
+	.byte	0
+	.uleb128 0x22
+	.long	.LASF647
+	.value	0x228
+	.byte	0x16
+	.byte	0x53
+	.byte	0x8
+	.long	0x497d
+	.uleb128 0x2
+	.long	.LASF648
+	.byte	0x16
+	.byte	0x54
+	.byte	0x9
+	.long	0x2e1
+	.byte	0
+	.uleb128 0x2
+	.long	.LASF649
+	.byte	0x16
+	.byte	0x55
+	.byte	0x8
+	.long	0x2ee
+	.byte	0x8
+	.uleb128 0x2
+	.long	.LASF650
+	.byte	0x16
+	.byte	0x56
+	.byte	0x8
+	.long	0x2ee
+	.byte	0x10
+	.uleb128 0x2
+	.long	.LASF651
+	.byte	0x16
+	.byte	0x57
+	.byte	0x9
+	.long	0x2e1
+	.byte	0x18
+	.uleb128 0x2
+	.long	.LASF652
+	.byte	0x16
+	.byte	0x59
+	.byte	0x11
+	.long	0x497d
+	.byte	0x20
+	.uleb128 0x35
+	.long	.LASF653
+	.byte	0x16
+	.byte	0x5a
+	.byte	0x9
+	.long	0x498d
+	.value	0x200
+	.byte	0
+	.uleb128 0x15
+	.long	0x48ea
+	.long	0x498d
+	.uleb128 0x16
+	.long	0x4a
+	.byte	0x13
+	.byte	0
+	.uleb128 0x15
+	.long	0x2e1
+	.long	0x499d
+	.uleb128 0x16
+	.long	0x4a
+	.byte	0x13
+	.byte	0
+	.uleb128 0x7
+	.long	0x2ee
+	.uleb128 0x7
+	.long	0x2e1
+	.uleb128 0xd
+	.long	.LASF654
+	.byte	0x18
+	.byte	0x19
+	.byte	0x7
+	.byte	0x10
+	.long	0x49dc
+	.uleb128 0x2
+	.long	.LASF190
+	.byte	0x19
+	.byte	0x8
+	.byte	0x7
+	.long	0x14de
+	.byte	0
+	.uleb128 0x2
+	.long	.LASF655
+	.byte	0x19
+	.byte	0x9
+	.byte	0xc
+	.long	0x160d
+	.byte	0x8
+	.uleb128 0x2
+	.long	.LASF656
+	.byte	0x19
+	.byte	0xa
+	.byte	0xa
+	.long	0xaf0
+	.byte	0x10
+	.byte	0
+	.uleb128 0xa
+	.long	.LASF657
+	.byte	0x19
+	.byte	0xb
+	.byte	0x4
+	.long	0x49e8
+	.uleb128 0x7
+	.long	0x49a7
+	.uleb128 0xd
+	.long	.LASF658
+	.byte	0x10
+	.byte	0x19
+	.byte	0xd
+	.byte	0x10
+	.long	0x4a15
+	.uleb128 0x2
+	.long	.LASF367
+	.byte	0x19
+	.byte	0xd
+	.byte	0x2e
+	.long	0x49dc
+	.byte	0
+	.uleb128 0x2
+	.long	.LASF90
+	.byte	0x19
+	.byte	0xd
+	.byte	0x4f
+	.long	0x4a15
+	.byte	0x8
+	.byte	0
+	.uleb128 0x7
+	.long	0x49ed
+	.uleb128 0xa
+	.long	.LASF659
+	.byte	0x19
+	.byte	0xd
+	.byte	0x58
+	.long	0x4a15
+	.uleb128 0xd
+	.long	.LASF660
+	.byte	0x18
+	.byte	0x19
+	.byte	0xf
+	.byte	0x10
+	.long	0x4a5b
+	.uleb128 0x2
+	.long	.LASF661
+	.byte	0x19
+	.byte	0x10
+	.byte	0x7
+	.long	0x315
+	.byte	0
+	.uleb128 0x2
+	.long	.LASF230
+	.byte	0x19
+	.byte	0x11
+	.byte	0x10
+	.long	0x4a1a
+	.byte	0x8
+	.uleb128 0x2
+	.long	.LASF656
+	.byte	0x19
+	.byte	0x12
+	.byte	0xa
+	.long	0xaf0
+	.byte	0x10
+	.byte	0
+	.uleb128 0xa
+	.long	.LASF662
+	.byte	0x19
+	.byte	0x13
+	.byte	0x4
+	.long	0x4a67
+	.uleb128 0x7
+	.long	0x4a26
+	.uleb128 0xd
+	.long	.LASF663
+	.byte	0x10
+	.byte	0x1a
+	.byte	0xc
+	.byte	0x10
+	.long	0x4a94
+	.uleb128 0x2
+	.long	.LASF664
+	.byte	0x1a
+	.byte	0xd
+	.byte	0xd
+	.long	0x1e76
+	.byte	0
+	.uleb128 0x2
+	.long	.LASF221
+	.byte	0x1a
+	.byte	0xe
+	.byte	0xb
+	.long	0x1d3d
+	.byte	0x8
+	.byte	0
+	.uleb128 0xa
+	.long	.LASF663
+	.byte	0x1a
+	.byte	0xf
+	.byte	0x4
+	.long	0x4aa0
+	.uleb128 0x7
+	.long	0x4a6c
+	.uleb128 0x7
+	.long	0x32f
+	.uleb128 0xa
+	.long	.LASF665
+	.byte	0x17
+	.byte	0x16
+	.byte	0x1b
+	.long	0x4ab6
+	.uleb128 0x7
+	.long	0x4abb
+	.uleb128 0xd
+	.long	.LASF666
+	.byte	0xb0
+	.byte	0x17
+	.byte	0x1a
+	.byte	0x8
+	.long	0x4c1a
+	.uleb128 0x2
+	.long	.LASF667
+	.byte	0x17
+	.byte	0x1b
+	.byte	0x8
+	.long	0x2d4
+	.byte	0
+	.uleb128 0x2
+	.long	.LASF668
+	.byte	0x17
+	.byte	0x1c
+	.byte	0x8
+	.long	0x2d4
+	.byte	0x1
+	.uleb128 0x2
+	.long	.LASF669
+	.byte	0x17
+	.byte	0x1d
+	.byte	0x8
+	.long	0x2d4
+	.byte	0x2
+	.uleb128 0x2
+	.long	.LASF670
+	.byte	0x17
+	.byte	0x1e
+	.byte	0x8
+	.long	0x2d4
+	.byte	0x3
+	.uleb128 0x2
+	.long	.LASF671
+	.byte	0x17
+	.byte	0x1f
+	.byte	0x8
+	.long	0x2d4
+	.byte	0x4
+	.uleb128 0xe
+	.string	"tf"
+	.byte	0x17
+	.byte	0x20
+	.byte	0x8
+	.long	0xbdf
+	.byte	0x8
+	.uleb128 0x2
+	.long	.LASF672
+	.byte	0x17
+	.byte	0x21
+	.byte	0x8
+	.long	0xdc9
+	.byte	0x10
+	.uleb128 0x2
+	.long	.LASF673
+	.byte	0x17
+	.byte	0x22
+	.byte	0x8
+	.long	0xdc9
+	.byte	0x18
+	.uleb128 0x2
+	.long	.LASF674
+	.byte	0x17
+	.byte	0x23
+	.byte	0x8
+	.long	0xdc9
+	.byte	0x20
+	.uleb128 0x2
+	.long	.LASF229
+	.byte	0x17
+	.byte	0x24
+	.byte	0xc
+	.long	0x1ccb
+	.byte	0x28
+	.uleb128 0x2
+	.long	.LASF675
+	.byte	0x17
+	.byte	0x25
+	.byte	0xc
+	.long	0x160d
+	.byte	0x30
+	.uleb128 0x2
+	.long	.LASF676
+	.byte	0x17
+	.byte	0x26
+	.byte	0xc
+	.long	0x160d
+	.byte	0x38
+	.uleb128 0x2
+	.long	.LASF677
+	.byte	0x17
+	.byte	0x27
+	.byte	0xd
+	.long	0x15d4
+	.byte	0x40
+	.uleb128 0x2
+	.long	.LASF678
+	.byte	0x17
+	.byte	0x28
+	.byte	0x10
+	.long	0x4c47
+	.byte	0x48
+	.uleb128 0x2
+	.long	.LASF679
+	.byte	0x17
+	.byte	0x29
+	.byte	0x10
+	.long	0x4c47
+	.byte	0x50
+	.uleb128 0x2
+	.long	.LASF680
+	.byte	0x17
+	.byte	0x2a
+	.byte	0x9
+	.long	0x32f
+	.byte	0x58
+	.uleb128 0x2
+	.long	.LASF681
+	.byte	0x17
+	.byte	0x2b
+	.byte	0x9
+	.long	0x32f
+	.byte	0x60
+	.uleb128 0x2
+	.long	.LASF682
+	.byte	0x17
+	.byte	0x2c
+	.byte	0x10
+	.long	0x4c47
+	.byte	0x68
+	.uleb128 0x2
+	.long	.LASF683
+	.byte	0x17
+	.byte	0x2d
+	.byte	0x10
+	.long	0x4c47
+	.byte	0x70
+	.uleb128 0x2
+	.long	.LASF684
+	.byte	0x17
+	.byte	0x2e
+	.byte	0x9
+	.long	0x32f
+	.byte	0x78
+	.uleb128 0x2
+	.long	.LASF685
+	.byte	0x17
+	.byte	0x2f
+	.byte	0x9
+	.long	0x32f
+	.byte	0x80
+	.uleb128 0x2
+	.long	.LASF686
+	.byte	0x17
+	.byte	0x30
+	.byte	0x7
+	.long	0x315
+	.byte	0x88
+	.uleb128 0x2
+	.long	.LASF687
+	.byte	0x17
+	.byte	0x31
+	.byte	0x10
+	.long	0x4c47
+	.byte	0x90
+	.uleb128 0x2
+	.long	.LASF688
+	.byte	0x17
+	.byte	0x32
+	.byte	0x9
+	.long	0x32f
+	.byte	0x98
+	.uleb128 0x2
+	.long	.LASF689
+	.byte	0x17
+	.byte	0x33
+	.byte	0x7
+	.long	0x315
+	.byte	0xa0
+	.uleb128 0x2
+	.long	.LASF690
+	.byte	0x17
+	.byte	0x34
+	.byte	0xc
+	.long	0x4aaa
+	.byte	0xa8
+	.byte	0
+	.uleb128 0xd
+	.long	.LASF691
+	.byte	0x10
+	.byte	0x17
+	.byte	0x18
+	.byte	0x10
+	.long	0x4c42
+	.uleb128 0x2
+	.long	.LASF367
+	.byte	0x17
+	.byte	0x18
+	.byte	0x2e
+	.long	0x4aaa
+	.byte	0
+	.uleb128 0x2
+	.long	.LASF90
+	.byte	0x17
+	.byte	0x18
+	.byte	0x4f
+	.long	0x4c42
+	.byte	0x8
+	.byte	0
+	.uleb128 0x7
+	.long	0x4c1a
+	.uleb128 0xa
+	.long	.LASF692
+	.byte	0x17
+	.byte	0x18
+	.byte	0x58
+	.long	0x4c42
+	.uleb128 0x36
+	.byte	0x10
+	.byte	0x17
+	.byte	0x4c
+	.byte	0x2
+	.long	0x4c77
+	.uleb128 0x2
+	.long	.LASF655
+	.byte	0x17
+	.byte	0x4d
+	.byte	0x11
+	.long	0x4c47
+	.byte	0
+	.uleb128 0x2
+	.long	.LASF94
+	.byte	0x17
+	.byte	0x4e
+	.byte	0x9
+	.long	0x583
+	.byte	0x8
+	.byte	0
+	.uleb128 0xa
+	.long	.LASF693
+	.byte	0x1b
+	.byte	0x14
+	.byte	0xf
+	.long	0x2ee
+	.uleb128 0x1b
+	.long	.LASF694
+	.byte	0x1c
+	.byte	0xd
+	.byte	0x6
+	.long	0x4c9a
+	.uleb128 0x4
+	.long	0x356
+	.uleb128 0x4
+	.long	0x315
+	.byte	0
+	.uleb128 0x14
+	.long	.LASF696
+	.byte	0x1d
+	.byte	0x4b
+	.byte	0x7
+	.long	0xbdf
+	.long	0x4cb5
+	.uleb128 0x4
+	.long	0x14de
+	.uleb128 0x4
+	.long	0x356
+	.byte	0
+	.uleb128 0x1b
+	.long	.LASF695
+	.byte	0x1d
+	.byte	0x46
+	.byte	0x6
+	.long	0x4cc7
+	.uleb128 0x4
+	.long	0x14de
+	.byte	0
+	.uleb128 0x14
+	.long	.LASF697
+	.byte	0x1b
+	.byte	0x38
+	.byte	0xd
+	.long	0x315
+	.long	0x4ce2
+	.uleb128 0x4
+	.long	0xbdf
+	.uleb128 0x4
+	.long	0xbdf
+	.byte	0
+	.uleb128 0x14
+	.long	.LASF698
+	.byte	0x1e
+	.byte	0x28
+	.byte	0xc
+	.long	0x2e
+	.long	0x4cf9
+	.uleb128 0x4
+	.long	0x2cf
+	.uleb128 0x18
+	.byte	0
+	.uleb128 0x24
+	.long	.LASF706
+	.byte	0x1f
+	.byte	0x49
+	.byte	0xc
+	.long	0x2e
+	.uleb128 0x1a
+	.long	.LASF699
+	.byte	0x14
+	.value	0x338
+	.byte	0xe
+	.long	0xbdf
+	.long	0x4d21
+	.uleb128 0x4
+	.long	0xbdf
+	.uleb128 0x4
+	.long	0xbdf
+	.byte	0
+	.uleb128 0x1f
+	.long	.LASF718
+	.byte	0x1a
+	.uleb128 0x1a
+	.long	.LASF700
+	.byte	0x14
+	.value	0x2d6
+	.byte	0xe
+	.long	0xbdf
+	.long	0x4d43
+	.uleb128 0x4
+	.long	0xa6c
+	.uleb128 0x4
+	.long	0xbdf
+	.byte	0
+	.uleb128 0x1b
+	.long	.LASF701
+	.byte	0x1c
+	.byte	0x8
+	.byte	0x6
+	.long	0x4d5f
+	.uleb128 0x4
+	.long	0x356
+	.uleb128 0x4
+	.long	0x2e
+	.uleb128 0x4
+	.long	0x2e
+	.byte	0
+	.uleb128 0x14
+	.long	.LASF702
+	.byte	0x1b
+	.byte	0x2b
+	.byte	0x10
+	.long	0x2124
+	.long	0x4d75
+	.uleb128 0x4
+	.long	0x4c77
+	.byte	0
+	.uleb128 0x1b
+	.long	.LASF703
+	.byte	0x1c
+	.byte	0xc
+	.byte	0x6
+	.long	0x4d8c
+	.uleb128 0x4
+	.long	0x356
+	.uleb128 0x4
+	.long	0x315
+	.byte	0
+	.uleb128 0x14
+	.long	.LASF704
+	.byte	0x1b
+	.byte	0x1d
+	.byte	0xd
+	.long	0x315
+	.long	0x4da2
+	.uleb128 0x4
+	.long	0x4c77
+	.byte	0
+	.uleb128 0x14
+	.long	.LASF705
+	.byte	0x1b
+	.byte	0x68
+	.byte	0x10
+	.long	0x4c77
+	.long	0x4dc2
+	.uleb128 0x4
+	.long	0x4c77
+	.uleb128 0x4
+	.long	0xbdf
+	.uleb128 0x4
+	.long	0xbdf
+	.byte	0
+	.uleb128 0x24
+	.long	.LASF707
+	.byte	0x1b
+	.byte	0x18
+	.byte	0x10
+	.long	0x4c77
+	.uleb128 0x14
+	.long	.LASF708
+	.byte	0x11
+	.byte	0x3a
+	.byte	0xe
+	.long	0xa6c
+	.long	0x4de4
+	.uleb128 0x4
+	.long	0x14de
+	.byte	0
+	.uleb128 0x1a
+	.long	.LASF709
+	.byte	0x14
+	.value	0x262
+	.byte	0xe
+	.long	0xbdf
+	.long	0x4dfc
+	.uleb128 0x4
+	.long	0x32f
+	.uleb128 0x18
+	.byte	0
+	.uleb128 0x1a
+	.long	.LASF710
+	.byte	0x14
+	.value	0x256
+	.byte	0xe
+	.long	0xbdf
+	.long	0x4e14
+	.uleb128 0x4
+	.long	0x32f
+	.uleb128 0x18
+	.byte	0
+	.uleb128 0x1a
+	.long	.LASF711
+	.byte	0x13
+	.value	0x138
+	.byte	0xe
+	.long	0xbdf
+	.long	0x4e2b
+	.uleb128 0x4
+	.long	0xb32
+	.byte	0
+	.uleb128 0x14
+	.long	.LASF712
+	.byte	0x1d
+	.byte	0x48
+	.byte	0x6
+	.long	0xb32
+	.long	0x4e46
+	.uleb128 0x4
+	.long	0x14de
+	.uleb128 0x4
+	.long	0x356
+	.byte	0
+	.uleb128 0x14
+	.long	.LASF713
+	.byte	0x20
+	.byte	0x16
+	.byte	0xe
+	.long	0xbdf
+	.long	0x4e61
+	.uleb128 0x4
+	.long	0x14de
+	.uleb128 0x4
+	.long	0x653
+	.byte	0
+	.uleb128 0x1b
+	.long	.LASF714
+	.byte	0x21
+	.byte	0xe
+	.byte	0xd
+	.long	0x4e78
+	.uleb128 0x4
+	.long	0x14de
+	.uleb128 0x4
+	.long	0x653
+	.byte	0
+	.uleb128 0x1a
+	.long	.LASF715
+	.byte	0x10
+	.value	0x3ce
+	.byte	0xc
+	.long	0x2e
+	.long	0x4e8f
+	.uleb128 0x4
+	.long	0x653
+	.byte	0
+	.uleb128 0x14
+	.long	.LASF716
+	.byte	0x22
+	.byte	0xe
+	.byte	0xe
+	.long	0x653
+	.long	0x4eaa
+	.uleb128 0x4
+	.long	0x653
+	.uleb128 0x4
+	.long	0x20eb
+	.byte	0
+	.uleb128 0x24
+	.long	.LASF717
+	.byte	0x17
+	.byte	0x85
+	.byte	0xd
+	.long	0x14de
+	.uleb128 0x1f
+	.long	.LASF719
+	.byte	0x19
+	.uleb128 0x1a
+	.long	.LASF720
+	.byte	0x10
+	.value	0x3b9
+	.byte	0xe
+	.long	0x653
+	.long	0x4edd
+	.uleb128 0x4
+	.long	0x2082
+	.uleb128 0x4
+	.long	0x50e
+	.uleb128 0x4
+	.long	0x160d
+	.byte	0
+	.uleb128 0x37
+	.long	.LASF721
+	.byte	0x1d
+	.byte	0x45
+	.byte	0x7
+	.long	0x653
+	.long	0x4eef
+	.uleb128 0x18
+	.byte	0
+	.uleb128 0x14
+	.long	.LASF722
+	.byte	0x1d
+	.byte	0x42
+	.byte	0xb
+	.long	0x160d
+	.long	0x4f05
+	.uleb128 0x4
+	.long	0x4309
+	.byte	0
+	.uleb128 0x1f
+	.long	.LASF723
+	.byte	0x18
+	.uleb128 0x1b
+	.long	.LASF724
+	.byte	0x1c
+	.byte	0x15
+	.byte	0x6
+	.long	0x4f22
+	.uleb128 0x4
+	.long	0x80
+	.uleb128 0x4
+	.long	0x4f22
+	.byte	0
+	.uleb128 0x7
+	.long	0x4f27
+	.uleb128 0x38
+	.uleb128 0x1f
+	.long	.LASF725
+	.byte	0x17
+	.uleb128 0x20
+	.long	.LASF729
+	.byte	0xc7
+	.quad	.LFB4
+	.quad	.LFE4-.LFB4
+	.uleb128 0x1
+	.byte	0x9c
+	.long	0x4fb0
+	.uleb128 0xc
+	.long	.LASF726
+	.byte	0xc9
+	.byte	0x9
+	.long	0x356
+	.uleb128 0x2
+	.byte	0x91
+	.sleb128 -40
+	.uleb128 0xc
+	.long	.LASF727
+	.byte	0xca
+	.byte	0xd
+	.long	0x4309
+	.uleb128 0x2
+	.byte	0x91
+	.sleb128 -48
+	.uleb128 0xc
+	.long	.LASF600
+	.byte	0xcb
+	.byte	0xc
+	.long	0x160d
+	.uleb128 0x2
+	.byte	0x91
+	.sleb128 -56
+	.uleb128 0xc
+	.long	.LASF728
+	.byte	0xcc
+	.byte	0x8
+	.long	0x653
+	.uleb128 0x2
+	.byte	0x91
+	.sleb128 -64
+	.uleb128 0x12
+	.string	"tf1"
+	.byte	0xcd
+	.byte	0x8
+	.long	0xbdf
+	.uleb128 0x3
+	.byte	0x91
+	.sleb128 -80
+	.uleb128 0x12
+	.string	"tf2"
+	.byte	0xcd
+	.byte	0xd
+	.long	0xbdf
+	.uleb128 0x3
+	.byte	0x91
+	.sleb128 -88
+	.uleb128 0xc
+	.long	.LASF190
+	.byte	0xce
+	.byte	0x7
+	.long	0x14de
+	.uleb128 0x3
+	.byte	0x91
+	.sleb128 -72
+	.byte	0
+	.uleb128 0x20
+	.long	.LASF730
+	.byte	0x9d
+	.quad	.LFB3
+	.quad	.LFE3-.LFB3
+	.uleb128 0x1
+	.byte	0x9c
+	.long	0x5079
+	.uleb128 0xc
+	.long	.LASF726
+	.byte	0x9f
+	.byte	0x9
+	.long	0x356
+	.uleb128 0x2
+	.byte	0x91
+	.sleb128 -40
+	.uleb128 0xc
+	.long	.LASF731
+	.byte	0xa0
+	.byte	0x9
+	.long	0x356
+	.uleb128 0x2
+	.byte	0x91
+	.sleb128 -48
+	.uleb128 0xc
+	.long	.LASF732
+	.byte	0xa1
+	.byte	0x9
+	.long	0x356
+	.uleb128 0x2
+	.byte	0x91
+	.sleb128 -56
+	.uleb128 0xc
+	.long	.LASF733
+	.byte	0xa2
+	.byte	0x9
+	.long	0x356
+	.uleb128 0x2
+	.byte	0x91
+	.sleb128 -64
+	.uleb128 0xc
+	.long	.LASF727
+	.byte	0xa4
+	.byte	0xd
+	.long	0x4309
+	.uleb128 0x3
+	.byte	0x91
+	.sleb128 -72
+	.uleb128 0xc
+	.long	.LASF600
+	.byte	0xa6
+	.byte	0xc
+	.long	0x160d
+	.uleb128 0x3
+	.byte	0x91
+	.sleb128 -80
+	.uleb128 0xc
+	.long	.LASF728
+	.byte	0xa7
+	.byte	0x8
+	.long	0x653
+	.uleb128 0x3
+	.byte	0x91
+	.sleb128 -88
+	.uleb128 0xc
+	.long	.LASF190
+	.byte	0xa8
+	.byte	0x7
+	.long	0x14de
+	.uleb128 0x3
+	.byte	0x91
+	.sleb128 -96
+	.uleb128 0x12
+	.string	"r"
+	.byte	0xaa
+	.byte	0x7
+	.long	0xb32
+	.uleb128 0x3
+	.byte	0x91
+	.sleb128 -104
+	.uleb128 0x12
+	.string	"s"
+	.byte	0xaa
+	.byte	0xa
+	.long	0xb32
+	.uleb128 0x3
+	.byte	0x91
+	.sleb128 -120
+	.uleb128 0x12
+	.string	"rtf"
+	.byte	0xab
+	.byte	0x8
+	.long	0xbdf
+	.uleb128 0x3
+	.byte	0x91
+	.sleb128 -112
+	.uleb128 0x12
+	.string	"stf"
+	.byte	0xab
+	.byte	0xd
+	.long	0xbdf
+	.uleb128 0x3
+	.byte	0x91
+	.sleb128 -128
+	.byte	0
+	.uleb128 0x20
+	.long	.LASF734
+	.byte	0x5b
+	.quad	.LFB2
+	.quad	.LFE2-.LFB2
+	.uleb128 0x1
+	.byte	0x9c
+	.long	0x517e
+	.uleb128 0xc
+	.long	.LASF190
+	.byte	0x5d
+	.byte	0x7
+	.long	0x14de
+	.uleb128 0x3
+	.byte	0x91
+	.sleb128 -104
+	.uleb128 0xc
+	.long	.LASF735
+	.byte	0x5e
+	.byte	0x6
+	.long	0x2e
+	.uleb128 0x3
+	.byte	0x91
+	.sleb128 -132
+	.uleb128 0xc
+	.long	.LASF736
+	.byte	0x5f
+	.byte	0xa
+	.long	0x4c77
+	.uleb128 0x3
+	.byte	0x91
+	.sleb128 -144
+	.uleb128 0x12
+	.string	"T"
+	.byte	0x61
+	.byte	0x8
+	.long	0xbdf
+	.uleb128 0x3
+	.byte	0x91
+	.sleb128 -112
+	.uleb128 0x12
+	.string	"E"
+	.byte	0x62
+	.byte	0x8
+	.long	0xbdf
+	.uleb128 0x3
+	.byte	0x91
+	.sleb128 -120
+	.uleb128 0xc
+	.long	.LASF737
+	.byte	0x63
+	.byte	0x8
+	.long	0xbdf
+	.uleb128 0x3
+	.byte	0x91
+	.sleb128 -128
+	.uleb128 0xc
+	.long	.LASF738
+	.byte	0x64
+	.byte	0x8
+	.long	0xbdf
+	.uleb128 0x3
+	.byte	0x91
+	.sleb128 -152
+	.uleb128 0xc
+	.long	.LASF739
+	.byte	0x65
+	.byte	0x8
+	.long	0xbdf
+	.uleb128 0x3
+	.byte	0x91
+	.sleb128 -160
+	.uleb128 0xc
+	.long	.LASF740
+	.byte	0x67
+	.byte	0x9
+	.long	0x356
+	.uleb128 0x2
+	.byte	0x91
+	.sleb128 -40
+	.uleb128 0xc
+	.long	.LASF741
+	.byte	0x68
+	.byte	0x9
+	.long	0x356
+	.uleb128 0x2
+	.byte	0x91
+	.sleb128 -48
+	.uleb128 0xc
+	.long	.LASF726
+	.byte	0x69
+	.byte	0x9
+	.long	0x356
+	.uleb128 0x2
+	.byte	0x91
+	.sleb128 -56
+	.uleb128 0xc
+	.long	.LASF742
+	.byte	0x6a
+	.byte	0x9
+	.long	0x356
+	.uleb128 0x2
+	.byte	0x91
+	.sleb128 -64
+	.uleb128 0xc
+	.long	.LASF743
+	.byte	0x6b
+	.byte	0x9
+	.long	0x356
+	.uleb128 0x3
+	.byte	0x91
+	.sleb128 -72
+	.uleb128 0xc
+	.long	.LASF727
+	.byte	0x6d
+	.byte	0xd
+	.long	0x4309
+	.uleb128 0x3
+	.byte	0x91
+	.sleb128 -80
+	.uleb128 0xc
+	.long	.LASF744
+	.byte	0x6e
+	.byte	0xc
+	.long	0x160d
+	.uleb128 0x3
+	.byte	0x91
+	.sleb128 -88
+	.uleb128 0xc
+	.long	.LASF728
+	.byte	0x6f
+	.byte	0x8
+	.long	0x653
+	.uleb128 0x3
+	.byte	0x91
+	.sleb128 -96
+	.byte	0
+	.uleb128 0x20
+	.long	.LASF745
+	.byte	0x20
+	.quad	.LFB1
+	.quad	.LFE1-.LFB1
+	.uleb128 0x1
+	.byte	0x9c
+	.long	0x5265
+	.uleb128 0xc
+	.long	.LASF190
+	.byte	0x22
+	.byte	0x7
+	.long	0x14de
+	.uleb128 0x3
+	.byte	0x91
+	.sleb128 -88
+	.uleb128 0xc
+	.long	.LASF735
+	.byte	0x24
+	.byte	0x6
+	.long	0x2e
+	.uleb128 0x3
+	.byte	0x91
+	.sleb128 -132
+	.uleb128 0xc
+	.long	.LASF736
+	.byte	0x25
+	.byte	0xa
+	.long	0x4c77
+	.uleb128 0x3
+	.byte	0x91
+	.sleb128 -144
+	.uleb128 0x12
+	.string	"g"
+	.byte	0x27
+	.byte	0x7
+	.long	0xb32
+	.uleb128 0x3
+	.byte	0x91
+	.sleb128 -96
+	.uleb128 0x12
+	.string	"E"
+	.byte	0x28
+	.byte	0x8
+	.long	0xbdf
+	.uleb128 0x3
+	.byte	0x91
+	.sleb128 -104
+	.uleb128 0x12
+	.string	"tf1"
+	.byte	0x28
+	.byte	0xb
+	.long	0xbdf
+	.uleb128 0x3
+	.byte	0x91
+	.sleb128 -112
+	.uleb128 0x12
+	.string	"tf2"
+	.byte	0x28
+	.byte	0x10
+	.long	0xbdf
+	.uleb128 0x3
+	.byte	0x91
+	.sleb128 -120
+	.uleb128 0xc
+	.long	.LASF231
+	.byte	0x2a
+	.byte	0x8
+	.long	0xa6c
+	.uleb128 0x3
+	.byte	0x91
+	.sleb128 -128
+	.uleb128 0xc
+	.long	.LASF740
+	.byte	0x2c
+	.byte	0x9
+	.long	0x356
+	.uleb128 0x2
+	.byte	0x91
+	.sleb128 -40
+	.uleb128 0xc
+	.long	.LASF741
+	.byte	0x2d
+	.byte	0x9
+	.long	0x356
+	.uleb128 0x2
+	.byte	0x91
+	.sleb128 -48
+	.uleb128 0xc
+	.long	.LASF746
+	.byte	0x2e
+	.byte	0x9
+	.long	0x356
+	.uleb128 0x2
+	.byte	0x91
+	.sleb128 -56
+	.uleb128 0xc
+	.long	.LASF727
+	.byte	0x30
+	.byte	0xd
+	.long	0x4309
+	.uleb128 0x2
+	.byte	0x91
+	.sleb128 -64
+	.uleb128 0xc
+	.long	.LASF744
+	.byte	0x31
+	.byte	0xc
+	.long	0x160d
+	.uleb128 0x3
+	.byte	0x91
+	.sleb128 -72
+	.uleb128 0xc
+	.long	.LASF728
+	.byte	0x32
+	.byte	0x8
+	.long	0x653
+	.uleb128 0x3
+	.byte	0x91
+	.sleb128 -80
+	.byte	0
+	.uleb128 0x39
+	.long	.LASF751
+	.byte	0x1
+	.byte	0x15
+	.byte	0x1
+	.quad	.LFB0
+	.quad	.LFE0-.LFB0
+	.uleb128 0x1
+	.byte	0x9c
+	.byte	0
+	.section	.debug_abbrev,"",@progbits
+.Ldebug_abbrev0:
+	.uleb128 0x1
+	.uleb128 0xd
+	.byte	0
+	.uleb128 0x3
+	.uleb128 0xe
+	.uleb128 0x3a
+	.uleb128 0xb
+	.uleb128 0x3b
+	.uleb128 0x5
+	.uleb128 0x39
+	.uleb128 0xb
+	.uleb128 0x49
+	.uleb128 0x13
+	.uleb128 0x38
+	.uleb128 0xb
+	.byte	0
+	.byte	0
+	.uleb128 0x2
+	.uleb128 0xd
+	.byte	0
+	.uleb128 0x3
+	.uleb128 0xe
+	.uleb128 0x3a
+	.uleb128 0xb
+	.uleb128 0x3b
+	.uleb128 0xb
+	.uleb128 0x39
+	.uleb128 0xb
+	.uleb128 0x49
+	.uleb128 0x13
+	.uleb128 0x38
+	.uleb128 0xb
+	.byte	0
+	.byte	0
+	.uleb128 0x3
+	.uleb128 0xd
+	.byte	0
+	.uleb128 0x3
+	.uleb128 0x8
+	.uleb128 0x3a
+	.uleb128 0xb
+	.uleb128 0x3b
+	.uleb128 0x5
+	.uleb128 0x39
+	.uleb128 0xb
+	.uleb128 0x49
+	.uleb128 0x13
+	.uleb128 0x38
+	.uleb128 0xb
+	.byte	0
+	.byte	0
+	.uleb128 0x4
+	.uleb128 0x5
+	.byte	0
+	.uleb128 0x49
+	.uleb128 0x13
+	.byte	0
+	.byte	0
+	.uleb128 0x5
+	.uleb128 0xd
+	.byte	0
+	.uleb128 0x3
+	.uleb128 0xe
+	.uleb128 0x3a
+	.uleb128 0xb
+	.uleb128 0x3b
+	.uleb128 0x5
+	.uleb128 0x39
+	.uleb128 0xb
+	.uleb128 0x49
+	.uleb128 0x13
+	.byte	0
+	.byte	0
+	.uleb128 0x6
+	.uleb128 0x13
+	.byte	0x1
+	.uleb128 0x3
+	.uleb128 0xe
+	.uleb128 0xb
+	.uleb128 0xb
+	.uleb128 0x3a
+	.uleb128 0xb
+	.uleb128 0x3b
+	.uleb128 0x5
+	.uleb128 0x39
+	.uleb128 0x21
+	.sleb128 8
+	.uleb128 0x1
+	.uleb128 0x13
+	.byte	0
+	.byte	0
+	.uleb128 0x7
+	.uleb128 0xf
+	.byte	0
+	.uleb128 0xb
+	.uleb128 0x21
+	.sleb128 8
+	.uleb128 0x49
+	.uleb128 0x13
+	.byte	0
+	.byte	0
+	.uleb128 0x8
+	.uleb128 0x28
+	.byte	0
+	.uleb128 0x3
+	.uleb128 0xe
+	.uleb128 0x1c
+	.uleb128 0xb
+	.byte	0
+	.byte	0
+	.uleb128 0x9
+	.uleb128 0x15
+	.byte	0x1
+	.uleb128 0x27
+	.uleb128 0x19
+	.uleb128 0x49
+	.uleb128 0x13
+	.uleb128 0x1
+	.uleb128 0x13
+	.byte	0
+	.byte	0
+	.uleb128 0xa
+	.uleb128 0x16
+	.byte	0
+	.uleb128 0x3
+	.uleb128 0xe
+	.uleb128 0x3a
+	.uleb128 0xb
+	.uleb128 0x3b
+	.uleb128 0xb
+	.uleb128 0x39
+	.uleb128 0xb
+	.uleb128 0x49
+	.uleb128 0x13
+	.byte	0
+	.byte	0
+	.uleb128 0xb
+	.uleb128 0xd
+	.byte	0
+	.uleb128 0x3
+	.uleb128 0xe
+	.uleb128 0x3a
+	.uleb128 0xb
+	.uleb128 0x3b
+	.uleb128 0xb
+	.uleb128 0x39
+	.uleb128 0x5
+	.uleb128 0x49
+	.uleb128 0x13
+	.uleb128 0x38
+	.uleb128 0xb
+	.byte	0
+	.byte	0
+	.uleb128 0xc
+	.uleb128 0x34
+	.byte	0
+	.uleb128 0x3
+	.uleb128 0xe
+	.uleb128 0x3a
+	.uleb128 0x21
+	.sleb128 1
+	.uleb128 0x3b
+	.uleb128 0xb
+	.uleb128 0x39
+	.uleb128 0xb
+	.uleb128 0x49
+	.uleb128 0x13
+	.uleb128 0x2
+	.uleb128 0x18
+	.byte	0
+	.byte	0
+	.uleb128 0xd
+	.uleb128 0x13
+	.byte	0x1
+	.uleb128 0x3
+	.uleb128 0xe
+	.uleb128 0xb
+	.uleb128 0xb
+	.uleb128 0x3a
+	.uleb128 0xb
+	.uleb128 0x3b
+	.uleb128 0xb
+	.uleb128 0x39
+	.uleb128 0xb
+	.uleb128 0x1
+	.uleb128 0x13
+	.byte	0
+	.byte	0
+	.uleb128 0xe
+	.uleb128 0xd
+	.byte	0
+	.uleb128 0x3
+	.uleb128 0x8
+	.uleb128 0x3a
+	.uleb128 0xb
+	.uleb128 0x3b
+	.uleb128 0xb
+	.uleb128 0x39
+	.uleb128 0xb
+	.uleb128 0x49
+	.uleb128 0x13
+	.uleb128 0x38
+	.uleb128 0xb
+	.byte	0
+	.byte	0
+	.uleb128 0xf
+	.uleb128 0x16
+	.byte	0
+	.uleb128 0x3
+	.uleb128 0xe
+	.uleb128 0x3a
+	.uleb128 0xb
+	.uleb128 0x3b
+	.uleb128 0x5
+	.uleb128 0x39
+	.uleb128 0xb
+	.uleb128 0x49
+	.uleb128 0x13
+	.byte	0
+	.byte	0
+	.uleb128 0x10
+	.uleb128 0xd
+	.byte	0
+	.uleb128 0x3
+	.uleb128 0xe
+	.uleb128 0x3a
+	.uleb128 0xb
+	.uleb128 0x3b
+	.uleb128 0xb
+	.uleb128 0x39
+	.uleb128 0x5
+	.uleb128 0x49
+	.uleb128 0x13
+	.uleb128 0x38
+	.uleb128 0x5
+	.byte	0
+	.byte	0
+	.uleb128 0x11
+	.uleb128 0x13
+	.byte	0
+	.uleb128 0x3
+	.uleb128 0xe
+	.uleb128 0x3c
+	.uleb128 0x19
+	.byte	0
+	.byte	0
+	.uleb128 0x12
+	.uleb128 0x34
+	.byte	0
+	.uleb128 0x3
+	.uleb128 0x8
+	.uleb128 0x3a
+	.uleb128 0x21
+	.sleb128 1
+	.uleb128 0x3b
+	.uleb128 0xb
+	.uleb128 0x39
+	.uleb128 0xb
+	.uleb128 0x49
+	.uleb128 0x13
+	.uleb128 0x2
+	.uleb128 0x18
+	.byte	0
+	.byte	0
+	.uleb128 0x13
+	.uleb128 0x24
+	.byte	0
+	.uleb128 0xb
+	.uleb128 0xb
+	.uleb128 0x3e
+	.uleb128 0xb
+	.uleb128 0x3
+	.uleb128 0xe
+	.byte	0
+	.byte	0
+	.uleb128 0x14
+	.uleb128 0x2e
+	.byte	0x1
+	.uleb128 0x3f
+	.uleb128 0x19
+	.uleb128 0x3
+	.uleb128 0xe
+	.uleb128 0x3a
+	.uleb128 0xb
+	.uleb128 0x3b
+	.uleb128 0xb
+	.uleb128 0x39
+	.uleb128 0xb
+	.uleb128 0x27
+	.uleb128 0x19
+	.uleb128 0x49
+	.uleb128 0x13
+	.uleb128 0x3c
+	.uleb128 0x19
+	.uleb128 0x1
+	.uleb128 0x13
+	.byte	0
+	.byte	0
+	.uleb128 0x15
+	.uleb128 0x1
+	.byte	0x1
+	.uleb128 0x49
+	.uleb128 0x13
+	.uleb128 0x1
+	.uleb128 0x13
+	.byte	0
+	.byte	0
+	.uleb128 0x16
+	.uleb128 0x21
+	.byte	0
+	.uleb128 0x49
+	.uleb128 0x13
+	.uleb128 0x2f
+	.uleb128 0xb
+	.byte	0
+	.byte	0
+	.uleb128 0x17
+	.uleb128 0x15
+	.byte	0x1
+	.uleb128 0x27
+	.uleb128 0x19
+	.uleb128 0x1
+	.uleb128 0x13
+	.byte	0
+	.byte	0
+	.uleb128 0x18
+	.uleb128 0x18
+	.byte	0
+	.byte	0
+	.byte	0
+	.uleb128 0x19
+	.uleb128 0xd
+	.byte	0
+	.uleb128 0x3
+	.uleb128 0x8
+	.uleb128 0x3a
+	.uleb128 0xb
+	.uleb128 0x3b
+	.uleb128 0x5
+	.uleb128 0x39
+	.uleb128 0xb
+	.uleb128 0x49
+	.uleb128 0x13
+	.byte	0
+	.byte	0
+	.uleb128 0x1a
+	.uleb128 0x2e
+	.byte	0x1
+	.uleb128 0x3f
+	.uleb128 0x19
+	.uleb128 0x3
+	.uleb128 0xe
+	.uleb128 0x3a
+	.uleb128 0xb
+	.uleb128 0x3b
+	.uleb128 0x5
+	.uleb128 0x39
+	.uleb128 0xb
+	.uleb128 0x27
+	.uleb128 0x19
+	.uleb128 0x49
+	.uleb128 0x13
+	.uleb128 0x3c
+	.uleb128 0x19
+	.uleb128 0x1
+	.uleb128 0x13
+	.byte	0
+	.byte	0
+	.uleb128 0x1b
+	.uleb128 0x2e
+	.byte	0x1
+	.uleb128 0x3f
+	.uleb128 0x19
+	.uleb128 0x3
+	.uleb128 0xe
+	.uleb128 0x3a
+	.uleb128 0xb
+	.uleb128 0x3b
+	.uleb128 0xb
+	.uleb128 0x39
+	.uleb128 0xb
+	.uleb128 0x27
+	.uleb128 0x19
+	.uleb128 0x3c
+	.uleb128 0x19
+	.uleb128 0x1
+	.uleb128 0x13
+	.byte	0
+	.byte	0
+	.uleb128 0x1c
+	.uleb128 0xd
+	.byte	0
+	.uleb128 0x3
+	.uleb128 0xe
+	.uleb128 0x3a
+	.uleb128 0x21
+	.sleb128 3
+	.uleb128 0x3b
+	.uleb128 0x21
+	.sleb128 0
+	.uleb128 0x49
+	.uleb128 0x13
+	.uleb128 0x38
+	.uleb128 0xb
+	.byte	0
+	.byte	0
+	.uleb128 0x1d
+	.uleb128 0xd
+	.byte	0
+	.uleb128 0x3
+	.uleb128 0x8
+	.uleb128 0x3a
+	.uleb128 0xb
+	.uleb128 0x3b
+	.uleb128 0xb
+	.uleb128 0x39
+	.uleb128 0x5
+	.uleb128 0x49
+	.uleb128 0x13
+	.uleb128 0x38
+	.uleb128 0xb
+	.byte	0
+	.byte	0
+	.uleb128 0x1e
+	.uleb128 0x17
+	.byte	0x1
+	.uleb128 0xb
+	.uleb128 0xb
+	.uleb128 0x3a
+	.uleb128 0xb
+	.uleb128 0x3b
+	.uleb128 0x5
+	.uleb128 0x39
+	.uleb128 0x21
+	.sleb128 2
+	.uleb128 0x1
+	.uleb128 0x13
+	.byte	0
+	.byte	0
+	.uleb128 0x1f
+	.uleb128 0x2e
+	.byte	0
+	.uleb128 0x3f
+	.uleb128 0x19
+	.uleb128 0x3
+	.uleb128 0xe
+	.uleb128 0x3a
+	.uleb128 0x21
+	.sleb128 28
+	.uleb128 0x3b
+	.uleb128 0xb
+	.uleb128 0x39
+	.uleb128 0x21
+	.sleb128 6
+	.uleb128 0x27
+	.uleb128 0x19
+	.uleb128 0x3c
+	.uleb128 0x19
+	.byte	0
+	.byte	0
+	.uleb128 0x20
+	.uleb128 0x2e
+	.byte	0x1
+	.uleb128 0x3
+	.uleb128 0xe
+	.uleb128 0x3a
+	.uleb128 0x21
+	.sleb128 1
+	.uleb128 0x3b
+	.uleb128 0xb
+	.uleb128 0x39
+	.uleb128 0x21
+	.sleb128 1
+	.uleb128 0x11
+	.uleb128 0x1
+	.uleb128 0x12
+	.uleb128 0x7
+	.uleb128 0x40
+	.uleb128 0x18
+	.uleb128 0x7c
+	.uleb128 0x19
+	.uleb128 0x1
+	.uleb128 0x13
+	.byte	0
+	.byte	0
+	.uleb128 0x21
+	.uleb128 0x26
+	.byte	0
+	.uleb128 0x49
+	.uleb128 0x13
+	.byte	0
+	.byte	0
+	.uleb128 0x22
+	.uleb128 0x13
+	.byte	0x1
+	.uleb128 0x3
+	.uleb128 0xe
+	.uleb128 0xb
+	.uleb128 0x5
+	.uleb128 0x3a
+	.uleb128 0xb
+	.uleb128 0x3b
+	.uleb128 0xb
+	.uleb128 0x39
+	.uleb128 0xb
+	.uleb128 0x1
+	.uleb128 0x13
+	.byte	0
+	.byte	0
+	.uleb128 0x23
+	.uleb128 0x4
+	.byte	0x1
+	.uleb128 0x3
+	.uleb128 0xe
+	.uleb128 0x3e
+	.uleb128 0x21
+	.sleb128 7
+	.uleb128 0xb
+	.uleb128 0x21
+	.sleb128 4
+	.uleb128 0x49
+	.uleb128 0x13
+	.uleb128 0x3a
+	.uleb128 0x21
+	.sleb128 16
+	.uleb128 0x3b
+	.uleb128 0xb
+	.uleb128 0x39
+	.uleb128 0x21
+	.sleb128 6
+	.uleb128 0x1
+	.uleb128 0x13
+	.byte	0
+	.byte	0
+	.uleb128 0x24
+	.uleb128 0x2e
+	.byte	0
+	.uleb128 0x3f
+	.uleb128 0x19
+	.uleb128 0x3
+	.uleb128 0xe
+	.uleb128 0x3a
+	.uleb128 0xb
+	.uleb128 0x3b
+	.uleb128 0xb
+	.uleb128 0x39
+	.uleb128 0xb
+	.uleb128 0x27
+	.uleb128 0x19
+	.uleb128 0x49
+	.uleb128 0x13
+	.uleb128 0x3c
+	.uleb128 0x19
+	.byte	0
+	.byte	0
+	.uleb128 0x25
+	.uleb128 0xd
+	.byte	0
+	.uleb128 0x3
+	.uleb128 0x8
+	.uleb128 0x3a
+	.uleb128 0x21
+	.sleb128 9
+	.uleb128 0x3b
+	.uleb128 0xb
+	.uleb128 0x39
+	.uleb128 0xb
+	.uleb128 0x49
+	.uleb128 0x13
+	.byte	0
+	.byte	0
+	.uleb128 0x26
+	.uleb128 0xd
+	.byte	0
+	.uleb128 0x3
+	.uleb128 0xe
+	.uleb128 0x3a
+	.uleb128 0x21
+	.sleb128 12
+	.uleb128 0x3b
+	.uleb128 0xb
+	.uleb128 0x39
+	.uleb128 0xb
+	.uleb128 0x49
+	.uleb128 0x13
+	.byte	0
+	.byte	0
+	.uleb128 0x27
+	.uleb128 0x16
+	.byte	0
+	.uleb128 0x3
+	.uleb128 0x8
+	.uleb128 0x3a
+	.uleb128 0x21
+	.sleb128 14
+	.uleb128 0x3b
+	.uleb128 0xb
+	.uleb128 0x39
+	.uleb128 0x21
+	.sleb128 22
+	.uleb128 0x49
+	.uleb128 0x13
+	.byte	0
+	.byte	0
+	.uleb128 0x28
+	.uleb128 0x17
+	.byte	0x1
+	.uleb128 0x3
+	.uleb128 0xe
+	.uleb128 0xb
+	.uleb128 0xb
+	.uleb128 0x3a
+	.uleb128 0xb
+	.uleb128 0x3b
+	.uleb128 0x5
+	.uleb128 0x39
+	.uleb128 0x21
+	.sleb128 7
+	.uleb128 0x1
+	.uleb128 0x13
+	.byte	0
+	.byte	0
+	.uleb128 0x29
+	.uleb128 0x34
+	.byte	0
+	.uleb128 0x3
+	.uleb128 0xe
+	.uleb128 0x3a
+	.uleb128 0xb
+	.uleb128 0x3b
+	.uleb128 0xb
+	.uleb128 0x39
+	.uleb128 0x5
+	.uleb128 0x49
+	.uleb128 0x13
+	.uleb128 0x3f
+	.uleb128 0x19
+	.uleb128 0x3c
+	.uleb128 0x19
+	.byte	0
+	.byte	0
+	.uleb128 0x2a
+	.uleb128 0x11
+	.byte	0x1
+	.uleb128 0x25
+	.uleb128 0xe
+	.uleb128 0x13
+	.uleb128 0xb
+	.uleb128 0x3
+	.uleb128 0x1f
+	.uleb128 0x1b
+	.uleb128 0x1f
+	.uleb128 0x11
+	.uleb128 0x1
+	.uleb128 0x12
+	.uleb128 0x7
+	.uleb128 0x10
+	.uleb128 0x17
+	.byte	0
+	.byte	0
+	.uleb128 0x2b
+	.uleb128 0x24
+	.byte	0
+	.uleb128 0xb
+	.uleb128 0xb
+	.uleb128 0x3e
+	.uleb128 0xb
+	.uleb128 0x3
+	.uleb128 0x8
+	.byte	0
+	.byte	0
+	.uleb128 0x2c
+	.uleb128 0xf
+	.byte	0
+	.uleb128 0xb
+	.uleb128 0xb
+	.byte	0
+	.byte	0
+	.uleb128 0x2d
+	.uleb128 0x13
+	.byte	0x1
+	.uleb128 0x3
+	.uleb128 0xe
+	.uleb128 0xb
+	.uleb128 0xb
+	.uleb128 0x3a
+	.uleb128 0xb
+	.uleb128 0x3b
+	.uleb128 0xb
+	.uleb128 0x1
+	.uleb128 0x13
+	.byte	0
+	.byte	0
+	.uleb128 0x2e
+	.uleb128 0x16
+	.byte	0
+	.uleb128 0x3
+	.uleb128 0xe
+	.uleb128 0x3a
+	.uleb128 0xb
+	.uleb128 0x3b
+	.uleb128 0xb
+	.uleb128 0x39
+	.uleb128 0xb
+	.byte	0
+	.byte	0
+	.uleb128 0x2f
+	.uleb128 0x17
+	.byte	0x1
+	.uleb128 0xb
+	.uleb128 0xb
+	.uleb128 0x3a
+	.uleb128 0xb
+	.uleb128 0x3b
+	.uleb128 0xb
+	.uleb128 0x39
+	.uleb128 0xb
+	.uleb128 0x1
+	.uleb128 0x13
+	.byte	0
+	.byte	0
+	.uleb128 0x30
+	.uleb128 0x17
+	.byte	0x1
+	.uleb128 0x3
+	.uleb128 0xe
+	.uleb128 0xb
+	.uleb128 0xb
+	.uleb128 0x3a
+	.uleb128 0xb
+	.uleb128 0x3b
+	.uleb128 0xb
+	.uleb128 0x39
+	.uleb128 0xb
+	.uleb128 0x1
+	.uleb128 0x13
+	.byte	0
+	.byte	0
+	.uleb128 0x31
+	.uleb128 0x13
+	.byte	0
+	.uleb128 0x3
+	.uleb128 0x8
+	.uleb128 0x3c
+	.uleb128 0x19
+	.byte	0
+	.byte	0
+	.uleb128 0x32
+	.uleb128 0x13
+	.byte	0x1
+	.uleb128 0x3
+	.uleb128 0x8
+	.uleb128 0xb
+	.uleb128 0x5
+	.uleb128 0x3a
+	.uleb128 0xb
+	.uleb128 0x3b
+	.uleb128 0xb
+	.uleb128 0x39
+	.uleb128 0xb
+	.uleb128 0x1
+	.uleb128 0x13
+	.byte	0
+	.byte	0
+	.uleb128 0x33
+	.uleb128 0x17
+	.byte	0
+	.uleb128 0x3
+	.uleb128 0xe
+	.uleb128 0x3c
+	.uleb128 0x19
+	.byte	0
+	.byte	0
+	.uleb128 0x34
+	.uleb128 0x34
+	.byte	0
+	.uleb128 0x3
+	.uleb128 0xe
+	.uleb128 0x3a
+	.uleb128 0xb
+	.uleb128 0x3b
+	.uleb128 0xb
+	.uleb128 0x39
+	.uleb128 0xb
+	.uleb128 0x49
+	.uleb128 0x13
+	.uleb128 0x3f
+	.uleb128 0x19
+	.uleb128 0x3c
+	.uleb128 0x19
+	.byte	0
+	.byte	0
+	.uleb128 0x35
+	.uleb128 0xd
+	.byte	0
+	.uleb128 0x3
+	.uleb128 0xe
+	.uleb128 0x3a
+	.uleb128 0xb
+	.uleb128 0x3b
+	.uleb128 0xb
+	.uleb128 0x39
+	.uleb128 0xb
+	.uleb128 0x49
+	.uleb128 0x13
+	.uleb128 0x38
+	.uleb128 0x5
+	.byte	0
+	.byte	0
+	.uleb128 0x36
+	.uleb128 0x13
+	.byte	0x1
+	.uleb128 0xb
+	.uleb128 0xb
+	.uleb128 0x3a
+	.uleb128 0xb
+	.uleb128 0x3b
+	.uleb128 0xb
+	.uleb128 0x39
+	.uleb128 0xb
+	.uleb128 0x1
+	.uleb128 0x13
+	.byte	0
+	.byte	0
+	.uleb128 0x37
+	.uleb128 0x2e
+	.byte	0x1
+	.uleb128 0x3f
+	.uleb128 0x19
+	.uleb128 0x3
+	.uleb128 0xe
+	.uleb128 0x3a
+	.uleb128 0xb
+	.uleb128 0x3b
+	.uleb128 0xb
+	.uleb128 0x39
+	.uleb128 0xb
+	.uleb128 0x49
+	.uleb128 0x13
+	.uleb128 0x3c
+	.uleb128 0x19
+	.uleb128 0x1
+	.uleb128 0x13
+	.byte	0
+	.byte	0
+	.uleb128 0x38
+	.uleb128 0x15
+	.byte	0
+	.uleb128 0x27
+	.uleb128 0x19
+	.byte	0
+	.byte	0
+	.uleb128 0x39
+	.uleb128 0x2e
+	.byte	0
+	.uleb128 0x3f
+	.uleb128 0x19
+	.uleb128 0x3
+	.uleb128 0xe
+	.uleb128 0x3a
+	.uleb128 0xb
+	.uleb128 0x3b
+	.uleb128 0xb
+	.uleb128 0x39
+	.uleb128 0xb
+	.uleb128 0x11
+	.uleb128 0x1
+	.uleb128 0x12
+	.uleb128 0x7
+	.uleb128 0x40
+	.uleb128 0x18
+	.uleb128 0x7c
+	.uleb128 0x19
+	.byte	0
+	.byte	0
+	.byte	0
+	.section	.debug_aranges,"",@progbits
+	.long	0x2c
+	.value	0x2
+	.long	.Ldebug_info0
+	.byte	0x8
+	.byte	0
+	.value	0
+	.value	0
+	.quad	.Ltext0
+	.quad	.Letext0-.Ltext0
+	.quad	0
+	.quad	0
+	.section	.debug_line,"",@progbits
+.Ldebug_line0:
+	.section	.debug_str,"MS",@progbits,1
+.LASF279:
+	.string	"foamCProg"
+.LASF425:
+	.string	"TFormListCons"
+.LASF519:
+	.string	"AB_Sequence"
+.LASF483:
+	.string	"AB_Fix"
+.LASF47:
+	.string	"_unused2"
+.LASF33:
+	.string	"_fileno"
+.LASF373:
+	.string	"ExpInfo"
+.LASF511:
+	.string	"AB_Qualify"
+.LASF632:
+	.string	"field"
+.LASF155:
+	.string	"abLocal"
+.LASF167:
+	.string	"abRaise"
+.LASF457:
+	.string	"AB_LitInteger"
+.LASF299:
+	.string	"foamRRNew"
+.LASF113:
+	.string	"abDocText"
+.LASF415:
+	.string	"ContainsAllq"
+.LASF294:
+	.string	"foamIf"
+.LASF76:
+	.string	"OstWriteStringFn"
+.LASF137:
+	.string	"abFix"
+.LASF170:
+	.string	"abRestrictTo"
+.LASF163:
+	.string	"abParen"
+.LASF325:
+	.string	"intLoaded"
+.LASF304:
+	.string	"foamCCall"
+.LASF123:
+	.string	"abBuiltin"
+.LASF38:
+	.string	"_shortbuf"
+.LASF685:
+	.string	"ncafter"
+.LASF595:
+	.string	"fuses"
+.LASF694:
+	.string	"testFalse"
+.LASF516:
+	.string	"AB_RestrictTo"
+.LASF75:
+	.string	"OstWriteCharFn"
+.LASF641:
+	.string	"StringListCons"
+.LASF80:
+	.string	"writeStringFn"
+.LASF109:
+	.string	"abGen"
+.LASF399:
+	.string	"LastCons"
+.LASF639:
+	.string	"place"
+.LASF166:
+	.string	"abQualify"
+.LASF283:
+	.string	"foamEInfo"
+.LASF676:
+	.string	"extendees"
+.LASF314:
+	.string	"foamKill"
+.LASF104:
+	.string	"symbol"
+.LASF240:
+	.string	"tqual"
+.LASF642:
+	.string	"StringList"
+.LASF486:
+	.string	"AB_ForeignImport"
+.LASF699:
+	.string	"tfExcept"
+.LASF591:
+	.string	"defNo"
+.LASF439:
+	.string	"TblKey"
+.LASF16:
+	.string	"overflow_arg_area"
+.LASF491:
+	.string	"AB_Has"
+.LASF19:
+	.string	"_flags"
+.LASF447:
+	.string	"AB_START"
+.LASF444:
+	.string	"next"
+.LASF646:
+	.string	"length"
+.LASF17:
+	.string	"reg_save_area"
+.LASF262:
+	.string	"foamDDecl"
+.LASF136:
+	.string	"abExtend"
+.LASF9:
+	.string	"__off_t"
+.LASF343:
+	.string	"unitb"
+.LASF210:
+	.string	"ownSyntax"
+.LASF459:
+	.string	"AB_LitString"
+.LASF660:
+	.string	"tfCond"
+.LASF548:
+	.string	"AB_State_HasPoss"
+.LASF350:
+	.string	"StabLevel"
+.LASF735:
+	.string	"mask"
+.LASF629:
+	.string	"usage"
+.LASF650:
+	.string	"verMinor"
+.LASF544:
+	.string	"AB_Use_LIMIT"
+.LASF412:
+	.string	"NConcat"
+.LASF684:
+	.string	"ncbefore"
+.LASF145:
+	.string	"abHas"
+.LASF39:
+	.string	"_lock"
+.LASF195:
+	.string	"FreeVar"
+.LASF216:
+	.string	"intStepNo"
+.LASF257:
+	.string	"foamRRec"
+.LASF270:
+	.string	"foamLex"
+.LASF597:
+	.string	"mark"
+.LASF485:
+	.string	"AB_For"
+.LASF78:
+	.string	"ostreamOps"
+.LASF488:
+	.string	"AB_Free"
+.LASF668:
+	.string	"isExplicitImport"
+.LASF302:
+	.string	"foamPCall"
+.LASF734:
+	.string	"testTfSatEmbedExcept"
+.LASF396:
+	.string	"FreeDeeplyTo"
+.LASF149:
+	.string	"abImport"
+.LASF659:
+	.string	"TfCondEltList"
+.LASF84:
+	.string	"fileName"
+.LASF658:
+	.string	"TfCondEltListCons"
+.LASF365:
+	.string	"Stab"
+.LASF312:
+	.string	"foamValues"
+.LASF139:
+	.string	"abFor"
+.LASF276:
+	.string	"foamPRef"
+.LASF487:
+	.string	"AB_ForeignExport"
+.LASF552:
+	.string	"AbEmbed"
+.LASF228:
+	.string	"queries"
+.LASF653:
+	.string	"Index"
+.LASF385:
+	.string	"Cons"
+.LASF618:
+	.string	"infoBits"
+.LASF234:
+	.string	"libNum"
+.LASF610:
+	.string	"baseType"
+.LASF108:
+	.string	"abHdr"
+.LASF585:
+	.string	"alternatives"
+.LASF538:
+	.string	"AB_Use_RetValue"
+.LASF656:
+	.string	"known"
+.LASF25:
+	.string	"_IO_write_end"
+.LASF626:
+	.string	"prog"
+.LASF323:
+	.string	"rdOnly"
+.LASF146:
+	.string	"abHide"
+.LASF680:
+	.string	"nbefore"
+.LASF748:
+	.string	"__va_list_tag"
+.LASF677:
+	.string	"declarees"
+.LASF260:
+	.string	"foamDecl"
+.LASF460:
+	.string	"AB_STR_LIMIT"
+.LASF688:
+	.string	"inDegree"
+.LASF103:
+	.string	"Symbol"
+.LASF282:
+	.string	"foamEEnsure"
+.LASF534:
+	.string	"AB_Use_Label"
+.LASF630:
+	.string	"index"
+.LASF366:
+	.string	"StabLevelListCons"
+.LASF324:
+	.string	"isOutput"
+.LASF616:
+	.string	"nLabels"
+.LASF60:
+	.string	"Length"
+.LASF713:
+	.string	"typeInfer"
+.LASF700:
+	.string	"tfSubst"
+.LASF577:
+	.string	"dest"
+.LASF351:
+	.string	"stabLevel"
+.LASF118:
+	.string	"abAnd"
+.LASF404:
+	.string	"Copy"
+.LASF239:
+	.string	"TQual"
+.LASF657:
+	.string	"TfCondElt"
+.LASF662:
+	.string	"TfCond"
+.LASF547:
+	.string	"AB_State_AbSyn"
+.LASF732:
+	.string	"r_def"
+.LASF543:
+	.string	"AB_Use_Elided"
+.LASF693:
+	.string	"SatMask"
+.LASF135:
+	.string	"abExport"
+.LASF489:
+	.string	"AB_Generate"
+.LASF536:
+	.string	"AB_Use_Define"
+.LASF530:
+	.string	"abSynTag"
+.LASF682:
+	.string	"cdependents"
+.LASF342:
+	.string	"constp"
+.LASF227:
+	.string	"consts"
+.LASF341:
+	.string	"constv"
+.LASF306:
+	.string	"foamCFCall"
+.LASF592:
+	.string	"defList"
+.LASF417:
+	.string	"Position"
+.LASF562:
+	.string	"seman"
+.LASF623:
+	.string	"locals"
+.LASF285:
+	.string	"foamRElt"
+.LASF424:
+	.string	"AbBindList"
+.LASF318:
+	.string	"foamCatch"
+.LASF452:
+	.string	"AB_SYM_LIMIT"
+.LASF556:
+	.string	"implicit"
+.LASF430:
+	.string	"TQualList"
+.LASF203:
+	.string	"type"
+.LASF291:
+	.string	"foamUnimp"
+.LASF634:
+	.string	"eltType"
+.LASF381:
+	.string	"SymbolList"
+.LASF707:
+	.string	"tfSatTdnMask"
+.LASF701:
+	.string	"testIntEqual"
+.LASF380:
+	.string	"SymbolListCons"
+.LASF225:
+	.string	"domImports"
+.LASF143:
+	.string	"abGenerate"
+.LASF557:
+	.string	"embed"
+.LASF93:
+	.string	"Table"
+.LASF152:
+	.string	"abLabel"
+.LASF32:
+	.string	"_chain"
+.LASF329:
+	.string	"topc"
+.LASF97:
+	.string	"info"
+.LASF433:
+	.string	"SymeListCons"
+.LASF326:
+	.string	"idName"
+.LASF134:
+	.string	"abExit"
+.LASF264:
+	.string	"foamDEnv"
+.LASF254:
+	.string	"foamArb"
+.LASF2:
+	.string	"unsigned char"
+.LASF255:
+	.string	"foamArr"
+.LASF555:
+	.string	"defnIdx"
+.LASF749:
+	.string	"_IO_lock_t"
+.LASF81:
+	.string	"closeFn"
+.LASF12:
+	.string	"float"
+.LASF461:
+	.string	"AB_NODE_START"
+.LASF269:
+	.string	"foamLoc"
+.LASF654:
+	.string	"tfCondElt"
+.LASF204:
+	.string	"locmask"
+.LASF576:
+	.string	"whole"
+.LASF706:
+	.string	"comsgErrorCount"
+.LASF67:
+	.string	"MostAlignedType"
+.LASF286:
+	.string	"foamRRElt"
+.LASF709:
+	.string	"tfMulti"
+.LASF704:
+	.string	"tfSatSucceed"
+.LASF738:
+	.string	"MultiT"
+.LASF524:
+	.string	"AB_While"
+.LASF594:
+	.string	"invInfo"
+.LASF378:
+	.string	"FoamUses"
+.LASF59:
+	.string	"Hash"
+.LASF480:
+	.string	"AB_Exit"
+.LASF436:
+	.string	"UdInfoList"
+.LASF261:
+	.string	"foamGDecl"
+.LASF647:
+	.string	"libHdr"
+.LASF230:
+	.string	"conditions"
+.LASF91:
+	.string	"SrcPosStack"
+.LASF725:
+	.string	"init"
+.LASF442:
+	.string	"TblEqFun"
+.LASF588:
+	.string	"within"
+.LASF517:
+	.string	"AB_Return"
+.LASF746:
+	.string	"g_def"
+.LASF492:
+	.string	"AB_Hide"
+.LASF708:
+	.string	"absNew"
+.LASF92:
+	.string	"stack"
+.LASF635:
+	.string	"clos"
+.LASF405:
+	.string	"CopyTo"
+.LASF236:
+	.string	"tposs"
+.LASF376:
+	.string	"_InvInfo"
+.LASF252:
+	.string	"foamDFlo"
+.LASF271:
+	.string	"foamGlo"
+.LASF392:
+	.string	"FreeCons"
+.LASF558:
+	.string	"impl"
+.LASF172:
+	.string	"abReturn"
+.LASF142:
+	.string	"abFree"
+.LASF189:
+	.string	"refc"
+.LASF224:
+	.string	"thdExports"
+.LASF24:
+	.string	"_IO_write_ptr"
+.LASF277:
+	.string	"foamLabel"
+.LASF278:
+	.string	"foamPtr"
+.LASF729:
+	.string	"testTfSatEnum"
+.LASF410:
+	.string	"NReverse"
+.LASF265:
+	.string	"foamDFmt"
+.LASF363:
+	.string	"extendSymes"
+.LASF266:
+	.string	"foamDef"
+.LASF580:
+	.string	"elseAlt"
+.LASF187:
+	.string	"lazy"
+.LASF565:
+	.string	"test"
+.LASF313:
+	.string	"foamUnit"
+.LASF542:
+	.string	"AB_Use_Except"
+.LASF664:
+	.string	"names"
+.LASF307:
+	.string	"foamOFCall"
+.LASF369:
+	.string	"optInfo"
+.LASF226:
+	.string	"domExportNames"
+.LASF628:
+	.string	"symeIndex"
+.LASF535:
+	.string	"AB_Use_Assign"
+.LASF515:
+	.string	"AB_Repeat"
+.LASF213:
+	.string	"hasSelfSelf"
+.LASF223:
+	.string	"catExports"
+.LASF619:
+	.string	"size"
+.LASF129:
+	.string	"abDefine"
+.LASF99:
+	.string	"buckc"
+.LASF48:
+	.string	"FILE"
+.LASF168:
+	.string	"abReference"
+.LASF726:
+	.string	"T_def"
+.LASF546:
+	.string	"ab_state"
+.LASF611:
+	.string	"eltv"
+.LASF100:
+	.string	"buckv"
+.LASF348:
+	.string	"ArEntry"
+.LASF617:
+	.string	"retType"
+.LASF673:
+	.string	"imports"
+.LASF246:
+	.string	"foamBool"
+.LASF238:
+	.string	"tconst"
+.LASF18:
+	.string	"size_t"
+.LASF553:
+	.string	"abSeman"
+.LASF244:
+	.string	"foamNil"
+.LASF90:
+	.string	"rest"
+.LASF308:
+	.string	"foamPushEnv"
+.LASF127:
+	.string	"abComma"
+.LASF502:
+	.string	"AB_MDefine"
+.LASF388:
+	.string	"Listv"
+.LASF570:
+	.string	"iterv"
+.LASF372:
+	.string	"_UdInfo"
+.LASF455:
+	.string	"AB_DOC_LIMIT"
+.LASF581:
+	.string	"param"
+.LASF423:
+	.string	"AbBindListCons"
+.LASF241:
+	.string	"Foam"
+.LASF627:
+	.string	"protocol"
+.LASF171:
+	.string	"abRetractTo"
+.LASF512:
+	.string	"AB_Quote"
+.LASF473:
+	.string	"AB_Default"
+.LASF349:
+	.string	"ar_entry"
+.LASF28:
+	.string	"_IO_save_base"
+.LASF311:
+	.string	"foamRRFmt"
+.LASF458:
+	.string	"AB_LitFloat"
+.LASF539:
+	.string	"AB_Use_NoValue"
+.LASF229:
+	.string	"cascades"
+.LASF477:
+	.string	"AB_Do"
+.LASF683:
+	.string	"cdependees"
+.LASF747:
+	.string	"GNU C99 12.2.0 -mtune=generic -march=x86-64 -g -O0 -std=c99 -fasynchronous-unwind-tables"
+.LASF367:
+	.string	"first"
+.LASF394:
+	.string	"FreeTo"
+.LASF258:
+	.string	"foamProg"
+.LASF403:
+	.string	"IsLonger"
+.LASF670:
+	.string	"isCategoryImport"
+.LASF247:
+	.string	"foamByte"
+.LASF86:
+	.string	"SrcPos"
+.LASF327:
+	.string	"file"
+.LASF605:
+	.string	"HIntData"
+.LASF600:
+	.string	"code"
+.LASF42:
+	.string	"_wide_data"
+.LASF235:
+	.string	"TPoss"
+.LASF157:
+	.string	"abMDefine"
+.LASF744:
+	.string	"absynList"
+.LASF655:
+	.string	"list"
+.LASF319:
+	.string	"foamProtect"
+.LASF652:
+	.string	"Section"
+.LASF128:
+	.string	"abDefault"
+.LASF183:
+	.string	"abBind"
+.LASF199:
+	.string	"fieldc"
+.LASF237:
+	.string	"TConst"
+.LASF358:
+	.string	"idsInScope"
+.LASF207:
+	.string	"fieldv"
+.LASF518:
+	.string	"AB_Select"
+.LASF715:
+	.string	"abPrintDb"
+.LASF490:
+	.string	"AB_Goto"
+.LASF443:
+	.string	"TblSlot"
+.LASF572:
+	.string	"value"
+.LASF379:
+	.string	"foamuses_struct"
+.LASF723:
+	.string	"fini"
+.LASF70:
+	.string	"OStreamPutFun"
+.LASF622:
+	.string	"params"
+.LASF462:
+	.string	"AB_Add"
+.LASF353:
+	.string	"lambdaLevel"
+.LASF568:
+	.string	"expr"
+.LASF355:
+	.string	"isChecked"
+.LASF402:
+	.string	"IsShorter"
+.LASF513:
+	.string	"AB_Raise"
+.LASF475:
+	.string	"AB_DDefine"
+.LASF215:
+	.string	"__absyn"
+.LASF287:
+	.string	"foamIRElt"
+.LASF359:
+	.string	"labelsInScope"
+.LASF636:
+	.string	"retFmt"
+.LASF184:
+	.string	"AbSub"
+.LASF110:
+	.string	"abBlank"
+.LASF689:
+	.string	"cmarked"
+.LASF604:
+	.string	"ByteData"
+.LASF209:
+	.string	"tform"
+.LASF737:
+	.string	"TExceptE"
+.LASF117:
+	.string	"abAdd"
+.LASF508:
+	.string	"AB_Paren"
+.LASF449:
+	.string	"AB_Id"
+.LASF493:
+	.string	"AB_If"
+.LASF549:
+	.string	"AB_State_HasUnique"
+.LASF679:
+	.string	"dependees"
+.LASF377:
+	.string	"SImpl"
+.LASF705:
+	.string	"tfSat"
+.LASF509:
+	.string	"AB_PLambda"
+.LASF185:
+	.string	"abSub"
+.LASF174:
+	.string	"abSequence"
+.LASF196:
+	.string	"fvar"
+.LASF589:
+	.string	"pure"
+.LASF496:
+	.string	"AB_Iterate"
+.LASF347:
+	.string	"macros"
+.LASF724:
+	.string	"showTest"
+.LASF180:
+	.string	"abYield"
+.LASF416:
+	.string	"Posq"
+.LASF130:
+	.string	"abDDefine"
+.LASF733:
+	.string	"s_def"
+.LASF119:
+	.string	"abApply"
+.LASF643:
+	.string	"String_listOpsStruct"
+.LASF56:
+	.string	"AInt"
+.LASF631:
+	.string	"level"
+.LASF736:
+	.string	"result"
+.LASF362:
+	.string	"boundSymes"
+.LASF321:
+	.string	"name"
+.LASF115:
+	.string	"abLitString"
+.LASF339:
+	.string	"typeb"
+.LASF335:
+	.string	"typec"
+.LASF663:
+	.string	"SymeSet"
+.LASF465:
+	.string	"AB_Assert"
+.LASF30:
+	.string	"_IO_save_end"
+.LASF401:
+	.string	"IsLength"
+.LASF338:
+	.string	"typep"
+.LASF337:
+	.string	"types"
+.LASF336:
+	.string	"typev"
+.LASF102:
+	.string	"bint"
+.LASF182:
+	.string	"AbBind"
+.LASF527:
+	.string	"AB_NODE_LIMIT"
+.LASF345:
+	.string	"unit"
+.LASF144:
+	.string	"abGoto"
+.LASF297:
+	.string	"foamANew"
+.LASF582:
+	.string	"rtype"
+.LASF15:
+	.string	"fp_offset"
+.LASF691:
+	.string	"TFormUsesListCons"
+.LASF537:
+	.string	"AB_Use_Value"
+.LASF14:
+	.string	"gp_offset"
+.LASF533:
+	.string	"AB_Use_Type"
+.LASF587:
+	.string	"always"
+.LASF164:
+	.string	"abPLambda"
+.LASF606:
+	.string	"SIntData"
+.LASF122:
+	.string	"abBreak"
+.LASF105:
+	.string	"AbSyn"
+.LASF219:
+	.string	"selfself"
+.LASF253:
+	.string	"foamWord"
+.LASF579:
+	.string	"thenAlt"
+.LASF151:
+	.string	"abIterate"
+.LASF193:
+	.string	"abLogic"
+.LASF176:
+	.string	"abTry"
+.LASF251:
+	.string	"foamSFlo"
+.LASF232:
+	.string	"__mark"
+.LASF3:
+	.string	"short unsigned int"
+.LASF364:
+	.string	"exportedTypes"
+.LASF6:
+	.string	"signed char"
+.LASF154:
+	.string	"abLet"
+.LASF73:
+	.string	"ostream"
+.LASF259:
+	.string	"foamClos"
+.LASF750:
+	.string	"_SImpl"
+.LASF107:
+	.string	"abSyn"
+.LASF301:
+	.string	"foamCast"
+.LASF281:
+	.string	"foamLoose"
+.LASF169:
+	.string	"abRepeat"
+.LASF64:
+	.string	"CString"
+.LASF429:
+	.string	"TQualListCons"
+.LASF687:
+	.string	"outEdges"
+.LASF98:
+	.string	"count"
+.LASF248:
+	.string	"foamHInt"
+.LASF177:
+	.string	"abWhere"
+.LASF674:
+	.string	"inlines"
+.LASF427:
+	.string	"TConstListCons"
+.LASF54:
+	.string	"UShort"
+.LASF138:
+	.string	"abFluid"
+.LASF434:
+	.string	"SymeList"
+.LASF474:
+	.string	"AB_Define"
+.LASF10:
+	.string	"__off64_t"
+.LASF208:
+	.string	"TForm"
+.LASF397:
+	.string	"FreeIfSat"
+.LASF426:
+	.string	"TFormList"
+.LASF22:
+	.string	"_IO_read_base"
+.LASF274:
+	.string	"foamEnv"
+.LASF40:
+	.string	"_offset"
+.LASF82:
+	.string	"OStreamOps"
+.LASF507:
+	.string	"AB_Or"
+.LASF665:
+	.string	"TFormUses"
+.LASF211:
+	.string	"state"
+.LASF27:
+	.string	"_IO_buf_end"
+.LASF419:
+	.string	"FillVector"
+.LASF645:
+	.string	"libSect"
+.LASF375:
+	.string	"InvInfo"
+.LASF564:
+	.string	"capsule"
+.LASF528:
+	.string	"AB_LIMIT"
+.LASF46:
+	.string	"_mode"
+.LASF23:
+	.string	"_IO_write_base"
+.LASF667:
+	.string	"isImported"
+.LASF575:
+	.string	"function"
+.LASF554:
+	.string	"comment"
+.LASF703:
+	.string	"testTrue"
+.LASF440:
+	.string	"TblElt"
+.LASF463:
+	.string	"AB_And"
+.LASF212:
+	.string	"hasSelf"
+.LASF201:
+	.string	"bits"
+.LASF620:
+	.string	"time"
+.LASF220:
+	.string	"parents"
+.LASF87:
+	.string	"SrcPosCell"
+.LASF625:
+	.string	"levels"
+.LASF194:
+	.string	"fake"
+.LASF243:
+	.string	"foamGen"
+.LASF8:
+	.string	"long int"
+.LASF720:
+	.string	"abNewOfList"
+.LASF540:
+	.string	"AB_Use_Iterator"
+.LASF389:
+	.string	"ListNull"
+.LASF545:
+	.string	"AbUse"
+.LASF612:
+	.string	"format"
+.LASF49:
+	.string	"_IO_marker"
+.LASF309:
+	.string	"foamPopEnv"
+.LASF88:
+	.string	"sposCell"
+.LASF615:
+	.string	"endOffset"
+.LASF407:
+	.string	"CopyDeeplyTo"
+.LASF214:
+	.string	"hasCascades"
+.LASF586:
+	.string	"cond"
+.LASF383:
+	.string	"AbSynList"
+.LASF721:
+	.string	"stdtypes"
+.LASF651:
+	.string	"numSect"
+.LASF566:
+	.string	"label"
+.LASF583:
+	.string	"context"
+.LASF273:
+	.string	"foamConst"
+.LASF456:
+	.string	"AB_STR_START"
+.LASF173:
+	.string	"abSelect"
+.LASF371:
+	.string	"UdInfo"
+.LASF272:
+	.string	"foamFluid"
+.LASF368:
+	.string	"OptInfo"
+.LASF495:
+	.string	"AB_Inline"
+.LASF728:
+	.string	"absyn"
+.LASF50:
+	.string	"_IO_codecvt"
+.LASF179:
+	.string	"abWith"
+.LASF561:
+	.string	"unique"
+.LASF445:
+	.string	"Symbol_TSet"
+.LASF531:
+	.string	"ab_use"
+.LASF300:
+	.string	"foamTRNew"
+.LASF672:
+	.string	"exports"
+.LASF686:
+	.string	"sortMark"
+.LASF83:
+	.string	"FileName"
+.LASF727:
+	.string	"lines"
+.LASF497:
+	.string	"AB_Label"
+.LASF310:
+	.string	"foamMFmt"
+.LASF63:
+	.string	"String"
+.LASF250:
+	.string	"foamBInt"
+.LASF559:
+	.string	"AbSeman"
+.LASF5:
+	.string	"long unsigned int"
+.LASF384:
+	.string	"AbSyn_listOpsStruct"
+.LASF521:
+	.string	"AB_Try"
+.LASF742:
+	.string	"e_def"
+.LASF58:
+	.string	"Bool"
+.LASF198:
+	.string	"syme"
+.LASF256:
+	.string	"foamRec"
+.LASF598:
+	.string	"dvMark"
+.LASF395:
+	.string	"FreeDeeply"
+.LASF11:
+	.string	"char"
+.LASF525:
+	.string	"AB_With"
+.LASF501:
+	.string	"AB_Macro"
+.LASF85:
+	.string	"partv"
+.LASF315:
+	.string	"foamFree"
+.LASF448:
+	.string	"AB_SYM_START"
+.LASF499:
+	.string	"AB_Let"
+.LASF289:
+	.string	"foamEElt"
+.LASF437:
+	.string	"AbSyn_listPointer"
+.LASF666:
+	.string	"tformUses"
+.LASF94:
+	.string	"table"
+.LASF268:
+	.string	"foamPar"
+.LASF571:
+	.string	"except"
+.LASF441:
+	.string	"TblHashFun"
+.LASF26:
+	.string	"_IO_buf_base"
+.LASF596:
+	.string	"foamHdr"
+.LASF609:
+	.string	"DFloData"
+.LASF346:
+	.string	"formats"
+.LASF697:
+	.string	"tfSatisfies"
+.LASF479:
+	.string	"AB_Except"
+.LASF21:
+	.string	"_IO_read_end"
+.LASF290:
+	.string	"foamBVal"
+.LASF55:
+	.string	"ULong"
+.LASF593:
+	.string	"expInfo"
+.LASF202:
+	.string	"hash"
+.LASF72:
+	.string	"_IO_FILE"
+.LASF422:
+	.string	"Format"
+.LASF96:
+	.string	"eqFun"
+.LASF51:
+	.string	"_IO_wide_data"
+.LASF690:
+	.string	"crep"
+.LASF361:
+	.string	"tformsUnused"
+.LASF446:
+	.string	"SymbolTSet"
+.LASF298:
+	.string	"foamRNew"
+.LASF644:
+	.string	"String_listPointer"
+.LASF601:
+	.string	"sfloat"
+.LASF603:
+	.string	"BoolData"
+.LASF731:
+	.string	"R_def"
+.LASF714:
+	.string	"scopeBind"
+.LASF120:
+	.string	"abAssert"
+.LASF69:
+	.string	"buffer"
+.LASF186:
+	.string	"self"
+.LASF275:
+	.string	"foamEEnv"
+.LASF79:
+	.string	"writeCharFn"
+.LASF393:
+	.string	"Free"
+.LASF159:
+	.string	"abNever"
+.LASF722:
+	.string	"abqParseLines"
+.LASF57:
+	.string	"UAInt"
+.LASF303:
+	.string	"foamBCall"
+.LASF65:
+	.string	"SFloat"
+.LASF741:
+	.string	"E_def"
+.LASF231:
+	.string	"sigma"
+.LASF206:
+	.string	"full"
+.LASF374:
+	.string	"_ExpInfo"
+.LASF131:
+	.string	"abDo"
+.LASF506:
+	.string	"AB_Nothing"
+.LASF320:
+	.string	"foamReturn"
+.LASF590:
+	.string	"fixed"
+.LASF111:
+	.string	"abId"
+.LASF148:
+	.string	"abIf"
+.LASF45:
+	.string	"__pad5"
+.LASF469:
+	.string	"AB_CoerceTo"
+.LASF31:
+	.string	"_markers"
+.LASF181:
+	.string	"Sefo"
+.LASF550:
+	.string	"AB_State_Error"
+.LASF718:
+	.string	"finiFile"
+.LASF280:
+	.string	"foamCEnv"
+.LASF692:
+	.string	"TFormUsesList"
+.LASF284:
+	.string	"foamAElt"
+.LASF188:
+	.string	"serialNo"
+.LASF66:
+	.string	"DFloat"
+.LASF712:
+	.string	"uniqueMeaning"
+.LASF191:
+	.string	"results"
+.LASF333:
+	.string	"codev"
+.LASF357:
+	.string	"children"
+.LASF567:
+	.string	"what"
+.LASF41:
+	.string	"_codecvt"
+.LASF13:
+	.string	"double"
+.LASF295:
+	.string	"foamSeq"
+.LASF293:
+	.string	"foamSet"
+.LASF217:
+	.string	"argc"
+.LASF648:
+	.string	"magic"
+.LASF504:
+	.string	"AB_Never"
+.LASF640:
+	.string	"after"
+.LASF340:
+	.string	"constc"
+.LASF161:
+	.string	"abNothing"
+.LASF218:
+	.string	"argv"
+.LASF471:
+	.string	"AB_Comma"
+.LASF702:
+	.string	"tfSatAbEmbed"
+.LASF125:
+	.string	"abCoerceTo"
+.LASF719:
+	.string	"initFile"
+.LASF602:
+	.string	"CharData"
+.LASF669:
+	.string	"isParamImport"
+.LASF695:
+	.string	"stdscope"
+.LASF624:
+	.string	"fluids"
+.LASF466:
+	.string	"AB_Assign"
+.LASF74:
+	.string	"data"
+.LASF740:
+	.string	"Boolean_imp"
+.LASF175:
+	.string	"abTest"
+.LASF305:
+	.string	"foamOCall"
+.LASF751:
+	.string	"tfsatTest"
+.LASF106:
+	.string	"sposStack"
+.LASF197:
+	.string	"Syme"
+.LASF242:
+	.string	"foam"
+.LASF743:
+	.string	"t_def"
+.LASF661:
+	.string	"containsEmpty"
+.LASF140:
+	.string	"abForeignImport"
+.LASF68:
+	.string	"Buffer"
+.LASF435:
+	.string	"UdInfoListCons"
+.LASF421:
+	.string	"GPrint"
+.LASF563:
+	.string	"base"
+.LASF671:
+	.string	"isCatConditionImport"
+.LASF153:
+	.string	"abLambda"
+.LASF470:
+	.string	"AB_Collect"
+.LASF541:
+	.string	"AB_Use_Default"
+.LASF77:
+	.string	"OstCloseFn"
+.LASF716:
+	.string	"abPutUse"
+.LASF322:
+	.string	"arent"
+.LASF352:
+	.string	"lexicalLevel"
+.LASF607:
+	.string	"BIntData"
+.LASF62:
+	.string	"Pointer"
+.LASF637:
+	.string	"argsPtr"
+.LASF578:
+	.string	"property"
+.LASF263:
+	.string	"foamDFluid"
+.LASF44:
+	.string	"_freeres_buf"
+.LASF520:
+	.string	"AB_Test"
+.LASF89:
+	.string	"spos"
+.LASF503:
+	.string	"AB_MLambda"
+.LASF532:
+	.string	"AB_Use_Declaration"
+.LASF711:
+	.string	"symeType"
+.LASF192:
+	.string	"AbLogic"
+.LASF162:
+	.string	"abOr"
+.LASF328:
+	.string	"offset"
+.LASF649:
+	.string	"verMajor"
+.LASF36:
+	.string	"_cur_column"
+.LASF717:
+	.string	"stabFile"
+.LASF178:
+	.string	"abWhile"
+.LASF200:
+	.string	"kind"
+.LASF675:
+	.string	"extension"
+.LASF316:
+	.string	"foamGoto"
+.LASF453:
+	.string	"AB_DOC_START"
+.LASF150:
+	.string	"abInline"
+.LASF409:
+	.string	"Reverse"
+.LASF116:
+	.string	"abLitFloat"
+.LASF156:
+	.string	"abMacro"
+.LASF498:
+	.string	"AB_Lambda"
+.LASF431:
+	.string	"StabListCons"
+.LASF249:
+	.string	"foamSInt"
+.LASF126:
+	.string	"abCollect"
+.LASF522:
+	.string	"AB_Unit"
+.LASF482:
+	.string	"AB_Extend"
+.LASF696:
+	.string	"tfqTypeForm"
+.LASF29:
+	.string	"_IO_backup_base"
+.LASF411:
+	.string	"Concat"
+.LASF20:
+	.string	"_IO_read_ptr"
+.LASF296:
+	.string	"foamSelect"
+.LASF141:
+	.string	"abForeignExport"
+.LASF205:
+	.string	"hasmask"
+.LASF112:
+	.string	"abIdSy"
+.LASF43:
+	.string	"_freeres_list"
+.LASF505:
+	.string	"AB_Not"
+.LASF165:
+	.string	"abPretendTo"
+.LASF451:
+	.string	"AB_Blank"
+.LASF95:
+	.string	"hashFun"
+.LASF158:
+	.string	"abMLambda"
+.LASF529:
+	.string	"AbSynTag"
+.LASF420:
+	.string	"Print"
+.LASF613:
+	.string	"nargs"
+.LASF614:
+	.string	"values"
+.LASF400:
+	.string	"_Length"
+.LASF35:
+	.string	"_old_offset"
+.LASF288:
+	.string	"foamTRElt"
+.LASF510:
+	.string	"AB_PretendTo"
+.LASF500:
+	.string	"AB_Local"
+.LASF472:
+	.string	"AB_Declare"
+.LASF330:
+	.string	"symec"
+.LASF428:
+	.string	"TConstList"
+.LASF160:
+	.string	"abNot"
+.LASF332:
+	.string	"symep"
+.LASF221:
+	.string	"symes"
+.LASF331:
+	.string	"symev"
+.LASF52:
+	.string	"long long int"
+.LASF494:
+	.string	"AB_Import"
+.LASF317:
+	.string	"foamThrow"
+.LASF390:
+	.string	"Equal"
+.LASF34:
+	.string	"_flags2"
+.LASF450:
+	.string	"AB_IdSy"
+.LASF608:
+	.string	"SFloData"
+.LASF147:
+	.string	"abHook"
+.LASF370:
+	.string	"SefoMark"
+.LASF133:
+	.string	"abExcept"
+.LASF132:
+	.string	"abDocumented"
+.LASF464:
+	.string	"AB_Apply"
+.LASF514:
+	.string	"AB_Reference"
+.LASF560:
+	.string	"poss"
+.LASF121:
+	.string	"abAssign"
+.LASF398:
+	.string	"Drop"
+.LASF569:
+	.string	"body"
+.LASF438:
+	.string	"sposNone"
+.LASF245:
+	.string	"foamChar"
+.LASF292:
+	.string	"foamNOp"
+.LASF61:
+	.string	"Offset"
+.LASF478:
+	.string	"AB_Documented"
+.LASF739:
+	.string	"MultiTExceptE"
+.LASF233:
+	.string	"parent"
+.LASF408:
+	.string	"NMap"
+.LASF414:
+	.string	"Member"
+.LASF354:
+	.string	"isLocked"
+.LASF730:
+	.string	"testTfSatRec"
+.LASF124:
+	.string	"abDeclare"
+.LASF71:
+	.string	"OStream"
+.LASF698:
+	.string	"aprintf"
+.LASF418:
+	.string	"NRemove"
+.LASF53:
+	.string	"UByte"
+.LASF681:
+	.string	"nafter"
+.LASF573:
+	.string	"origin"
+.LASF467:
+	.string	"AB_Break"
+.LASF745:
+	.string	"testTfSatEmbed"
+.LASF406:
+	.string	"CopyDeeply"
+.LASF574:
+	.string	"destination"
+.LASF638:
+	.string	"defs"
+.LASF222:
+	.string	"domExports"
+.LASF344:
+	.string	"postbl"
+.LASF386:
+	.string	"Singleton"
+.LASF551:
+	.string	"AB_State_LIMIT"
+.LASF621:
+	.string	"auxInfo"
+.LASF4:
+	.string	"unsigned int"
+.LASF481:
+	.string	"AB_Export"
+.LASF413:
+	.string	"Memq"
+.LASF584:
+	.string	"testPart"
+.LASF454:
+	.string	"AB_DocText"
+.LASF101:
+	.string	"BInt"
+.LASF7:
+	.string	"short int"
+.LASF387:
+	.string	"List"
+.LASF432:
+	.string	"StabList"
+.LASF360:
+	.string	"tformsUsed"
+.LASF523:
+	.string	"AB_Where"
+.LASF37:
+	.string	"_vtable_offset"
+.LASF484:
+	.string	"AB_Fluid"
+.LASF476:
+	.string	"AB_Delay"
+.LASF334:
+	.string	"triggers"
+.LASF356:
+	.string	"isSubstable"
+.LASF710:
+	.string	"tfCross"
+.LASF267:
+	.string	"foamDDef"
+.LASF190:
+	.string	"stab"
+.LASF526:
+	.string	"AB_Yield"
+.LASF599:
+	.string	"defnId"
+.LASF678:
+	.string	"dependents"
+.LASF468:
+	.string	"AB_Builtin"
+.LASF114:
+	.string	"abLitInteger"
+.LASF391:
+	.string	"Find"
+.LASF633:
+	.string	"builtinTag"
+.LASF382:
+	.string	"AbSynListCons"
+	.section	.debug_line_str,"MS",@progbits,1
+.LASF1:
+	.string	"/repo/aldor/aldor/src"
+.LASF0:
+	.string	"test/test_tfsat.c"
+	.ident	"GCC: (Debian 12.2.0-14+deb12u1) 12.2.0"
+	.section	.note.GNU-stack,"",@progbits
